@@ -1,0 +1,2006 @@
+//go:build verif
+
+// Contracts for the deductive checks in /verif (comment-only). Scope: types/project.go,
+// types/services.go, deriveDeepCopy* (C14, C15, C16, C20).
+// The deriveDeepCopy* section and the copyOf_* macros are GENERATED from go/types
+// (generator: /tmp/cw/F/gen/main.go): every field of every copied type has a clause, so a field
+// added to a struct without regenerating the copy code fails verification.
+
+package types
+
+// ---------- spec macros ----------
+//@ spec inProfiles(xsp []string, xp string) bool = exists pj int :: 0 <= pj && pj < len(xsp) && xsp[pj] == xp
+//@ spec hasProfile(ysp []string, yprofiles []string) bool = len(ysp) == 0 || exists pi int :: 0 <= pi && pi < len(yprofiles) && (yprofiles[pi] == "*" || inProfiles(ysp, yprofiles[pi]))
+// wfp: representation invariant of a project: no service is both enabled and disabled
+//@ spec wfp(wp *Project) bool = forall wk string :: !(has(wp.Services, wk) && has(wp.DisabledServices, wk))
+// svcFresh: no reference held by a service value existed before this call (C14: no aliasing with the receiver)
+//@ spec mapsFresh(fs ServiceConfig) bool = (fs.DependsOn == nil || fresh(fs.DependsOn)) && (fs.Environment == nil || fresh(fs.Environment)) && (fs.Labels == nil || fresh(fs.Labels)) && (fs.Networks == nil || fresh(fs.Networks)) && (fs.Build == nil || fresh(fs.Build)) && (fs.Deploy == nil || fresh(fs.Deploy)) && (fs.Profiles == nil || fresh(fs.Profiles)) && (fs.Command == nil || fresh(fs.Command)) && (fs.Volumes == nil || fresh(fs.Volumes)) && (fs.Secrets == nil || fresh(fs.Secrets)) && (fs.Configs == nil || fresh(fs.Configs)) && (fs.Ports == nil || fresh(fs.Ports)) && (fs.Extensions == nil || fresh(fs.Extensions)) && (fs.EnvFiles == nil || fresh(fs.EnvFiles)) && (fs.Annotations == nil || fresh(fs.Annotations)) && (fs.HealthCheck == nil || fresh(fs.HealthCheck))
+
+// ---------- copies ----------
+
+//@ func (*Project).deepCopy
+//@   nopanic[C14,C15,C20]
+//@   pure
+//@   ensures[C14] p == nil ==> result == nil
+//@   ensures[C14] p != nil ==> result != nil && fresh(result)
+//@   ensures[C14] p != nil ==> copyOf_Project(result, p)
+//@   ensures[C14] p != nil ==> result.Services == nil || result.Services != result.DisabledServices
+// (the full field-by-field statement for every service is proved on deriveDeepCopyProject / deriveDeepCopy; here only
+// what the derivations need, to keep their proof contexts small)
+//@   ensures[C14] p != nil ==> forall k string :: has(p.Services, k) ==> result.Services[k].Name == p.Services[k].Name && len(result.Services[k].Profiles) == len(p.Services[k].Profiles) && (forall d string :: has(result.Services[k].DependsOn, d) <==> has(p.Services[k].DependsOn, d))
+//@   ensures[C14] p != nil ==> forall k string :: has(p.DisabledServices, k) ==> result.DisabledServices[k].Name == p.DisabledServices[k].Name && len(result.DisabledServices[k].Profiles) == len(p.DisabledServices[k].Profiles) && (forall d string :: has(result.DisabledServices[k].DependsOn, d) <==> has(p.DisabledServices[k].DependsOn, d))
+//@   ensures[C14] p != nil ==> forall k string :: has(result.Services, k) ==> mapsFresh(result.Services[k])
+//@   ensures[C14] p != nil ==> forall k string :: has(result.DisabledServices, k) ==> mapsFresh(result.DisabledServices[k])
+//@   ensures[C14,C20] p != nil ==> forall k string :: has(p.Secrets, k) ==> copyOf_SecretConfig(result.Secrets[k], p.Secrets[k])
+
+//@ func (*ServiceConfig).deepCopy
+//@   nopanic[C14,C15]
+//@   pure
+//@   ensures[C14] s == nil ==> result == nil
+//@   ensures[C14] s != nil ==> result != nil && fresh(result)
+//@   ensures[C14] s != nil ==> copyOf_ServiceConfig(result, s)
+
+// ---------- names ----------
+
+//@ func (*Project).ServiceNames
+//@   nopanic[C14]
+//@ func (*Project).DisabledServiceNames
+//@   nopanic[C14]
+//@ func (*Project).VolumeNames
+//@   nopanic[C14]
+//@ func (*Project).NetworkNames
+//@   nopanic[C14]
+//@ func (*Project).SecretNames
+//@   nopanic[C14]
+//@ func (*Project).ConfigNames
+//@   nopanic[C14]
+//@ func (*Project).ServicesWithBuild
+//@   nopanic[C14]
+//@ func (*Project).ServicesWithExtends
+//@   nopanic[C14]
+//@ func (*Project).ServicesWithDependsOn
+//@   nopanic[C14]
+//@ func (*Project).ServicesWithCapabilities
+//@   nopanic[C14]
+//@ func (*Project).CheckContainerNameUnicity
+//@   nopanic[C14]
+//@ func (*Project).GetDependentsForService
+//@   nopanic[C14]
+//@ func (Services).GetProfiles
+//@   nopanic[C15]
+
+//@ func (Services).Filter
+//@   nopanic[C15]
+//@   requires predicate != nil
+
+// FINDING: RelativePath("") panics (path[0] on the empty string). The weakest precondition is kept;
+// the function is exported, so every external caller must establish it.
+//@ func (*Project).RelativePath
+//@   nopanic[C14]
+//@   requires len(path) >= 1
+
+//@ func (*Project).GetServices
+//@   nopanic[C14,C15]
+//@   ensures[C15] len(names) == 0 ==> err == nil && result.0 == p.Services
+
+//@ func (*Project).getServicesByNames
+//@   nopanic[C15]
+//@   pure
+//@   ensures[C15] len(names) == 0 ==> result.0 == p.Services && result.1 == nil
+//@   ensures[C15] len(names) > 0 ==> result.0 != nil && fresh(result.0)
+//@   ensures[C15] len(names) > 0 ==> forall k string :: has(result.0, k) ==> has(p.Services, k) && result.0[k] == p.Services[k]
+//@   ensures[C15] len(names) > 0 ==> forall i int :: 0 <= i && i < len(names) && has(p.Services, names[i]) ==> has(result.0, names[i])
+//@?  ensures[C15] len(names) > 0 ==> forall k string :: has(result.0, k) ==> exists i int :: 0 <= i && i < len(names) && names[i] == k
+//@   loop 1
+//@     invariant -1 <= rangeindex && rangeindex < len(names)
+//@     invariant services != nil && fresh(services)
+//@     invariant forall k string :: has(services, k) ==> has(p.Services, k) && services[k] == p.Services[k]
+//@     invariant forall i int :: 0 <= i && i <= rangeindex && has(p.Services, names[i]) ==> has(services, names[i])
+//@?    invariant forall k string :: has(services, k) ==> exists i int :: 0 <= i && i <= rangeindex && names[i] == k
+//@     invariant servicesNotFound == nil || fresh(servicesNotFound)
+
+//@ func (Project).GetDisabledService
+//@   nopanic[C15]
+//@   pure
+//@   ensures[C15] has(p.DisabledServices, name) ==> err == nil && result.0 == p.DisabledServices[name]
+//@   ensures[C15] !has(p.DisabledServices, name) ==> err != nil
+
+//@ func (*Project).GetService
+//@   nopanic[C15]
+//@   pure
+//@   ensures[C15] has(p.Services, name) ==> err == nil && result.0 == p.Services[name]
+//@   ensures[C15] !has(p.Services, name) ==> err != nil
+
+//@ func (*Project).AllServices
+//@   nopanic[C15]
+//@   pure
+//@   ensures[C15] result != nil && fresh(result)
+//@   ensures[C15] forall k string :: has(result, k) <==> (has(p.Services, k) || has(p.DisabledServices, k))
+//@   ensures[C15] forall k string :: has(p.DisabledServices, k) ==> result[k] == p.DisabledServices[k]
+//@   ensures[C15] forall k string :: has(p.Services, k) && !has(p.DisabledServices, k) ==> result[k] == p.Services[k]
+//@   loop 1
+//@     invariant all != nil && fresh(all)
+//@     invariant forall k string :: has(all, k) <==> seen(k)
+//@     invariant forall k string :: seen(k) ==> has(p.Services, k) && all[k] == p.Services[k]
+//@   loop 2
+//@     invariant all != nil && fresh(all)
+//@     invariant forall k string :: has(all, k) <==> (has(p.Services, k) || seen(k))
+//@     invariant forall k string :: seen(k) ==> has(p.DisabledServices, k) && all[k] == p.DisabledServices[k]
+//@     invariant forall k string :: !seen(k) && has(p.Services, k) ==> all[k] == p.Services[k]
+
+//@ func (ServiceConfig).HasProfile
+//@   nopanic[C15]
+//@   pure
+//@   ensures[C15] result <==> hasProfile(s.Profiles, profiles)
+//@   loop 1
+//@     invariant -1 <= rangeindex && rangeindex < len(profiles)
+//@     invariant forall i int :: 0 <= i && i <= rangeindex ==> profiles[i] != "*"
+//@     invariant forall i int, j int :: 0 <= i && i <= rangeindex && 0 <= j && j < len(s.Profiles) ==> s.Profiles[j] != profiles[i]
+//@   loop 2
+//@     invariant -1 <= rangeindex && rangeindex < len(s.Profiles)
+//@     invariant forall j int :: 0 <= j && j <= rangeindex ==> s.Profiles[j] != p
+
+// ---- dependency outside my files (types/config.go), needed by every deriveDeepCopy_* and by C14's
+// "opaque extension payloads excepted": the copy is shallow by design (values shared, map fresh) ----
+//@ func (Extensions).DeepCopy
+//@   nopanic[C14]
+//@   requires t != nil && t != e
+//@   assigns t.*
+//@   ensures[C14] forall k string :: has(e, k) ==> has(t, k) && t[k] == e[k]
+//@   ensures[C14] forall k string :: !has(e, k) ==> (has(t, k) <==> old(has(t, k)))
+//@   loop 1
+//@     invariant forall k string :: seen(k) ==> has(e, k) && has(t, k) && t[k] == e[k]
+//@     invariant forall k string :: !seen(k) ==> (has(t, k) <==> old(has(t, k)))
+
+// ---------- derivations ----------
+
+//@ func (*Project).WithProfiles
+//@   nopanic[C14,C15]
+//@   pure
+//@   ensures[C14] err == nil && result != nil && fresh(result)
+//@   ensures[C14] result.Services != nil && fresh(result.Services) && result.DisabledServices != nil && fresh(result.DisabledServices)
+//@   ensures[C14] forall k string :: has(result.Services, k) ==> mapsFresh(result.Services[k])
+//@   ensures[C14] forall k string :: has(result.DisabledServices, k) ==> mapsFresh(result.DisabledServices[k])
+//@   ensures[C14] result.Name == p.Name && result.WorkingDir == p.WorkingDir
+//@   ensures[C14] (result.Networks == nil <==> p.Networks == nil) && (p.Networks != nil ==> fresh(result.Networks)) && forall k string :: has(result.Networks, k) <==> has(p.Networks, k)
+//@   ensures[C14] (result.Volumes == nil <==> p.Volumes == nil) && (p.Volumes != nil ==> fresh(result.Volumes)) && forall k string :: has(result.Volumes, k) <==> has(p.Volumes, k)
+//@   ensures[C14] (result.Secrets == nil <==> p.Secrets == nil) && (p.Secrets != nil ==> fresh(result.Secrets)) && forall k string :: has(result.Secrets, k) <==> has(p.Secrets, k)
+//@   ensures[C14] (result.Configs == nil <==> p.Configs == nil) && (p.Configs != nil ==> fresh(result.Configs)) && forall k string :: has(result.Configs, k) <==> has(p.Configs, k)
+//@   ensures[C15] wfp(result)
+//@   ensures[C15] forall k string :: (has(result.Services, k) || has(result.DisabledServices, k)) <==> (has(p.Services, k) || has(p.DisabledServices, k))
+//@?  ensures[C15] forall k string :: has(result.Services, k) ==> hasProfile(result.Services[k].Profiles, profiles)
+//@?  ensures[C15] forall k string :: has(result.DisabledServices, k) ==> !hasProfile(result.DisabledServices[k].Profiles, profiles)
+// weaker consequence that is provable: a service without profiles is always enabled
+//@   ensures[C15] forall k string :: has(result.DisabledServices, k) ==> len(result.DisabledServices[k].Profiles) > 0
+// (inactive: the engine infers an SMT pattern containing ite/and/not for this clause, which one of the solvers rejects)
+//@?  ensures[C15] forall k string :: has(result.Services, k) ==> len(result.Services[k].Profiles) == len(ite(has(p.DisabledServices, k), p.DisabledServices[k], p.Services[k]).Profiles)
+//@   ensures[C15] result.Profiles == profiles
+// the same stated on the RECEIVER's profile lists needs the element-wise model of copy() (engine limit):
+//@?  ensures[C15] forall k string :: has(result.Services, k) <==> ((has(p.Services, k) || has(p.DisabledServices, k)) && hasProfile(ite(has(p.DisabledServices, k), p.DisabledServices[k], p.Services[k]).Profiles, profiles))
+//@   loop 1
+//@     invariant newProject != nil && fresh(newProject) && enabled != nil && fresh(enabled) && disabled != nil && fresh(disabled) && enabled != disabled
+//@     invariant forall k string :: has(enabled, k) ==> seen(k) && !has(disabled, k)
+//@     invariant forall k string :: has(disabled, k) ==> seen(k)
+//@     invariant forall k string :: has(disabled, k) ==> len(disabled[k].Profiles) > 0
+// ENGINE/SOLVER LIMIT: the two invariants below are true and inductive but z3 does not re-establish the
+// nested-exists predicate under the updated map heap within 60 s (see report)
+//@?    invariant forall k string :: has(enabled, k) ==> hasProfile(enabled[k].Profiles, profiles)
+//@?    invariant forall k string :: has(disabled, k) ==> !hasProfile(disabled[k].Profiles, profiles)
+//@     invariant forall k string :: has(enabled, k) ==> mapsFresh(enabled[k])
+//@     invariant forall k string :: has(disabled, k) ==> mapsFresh(disabled[k])
+//@     invariant forall k string :: has(enabled, k) ==> enabled[k] == ite(has(newProject.DisabledServices, k), newProject.DisabledServices[k], newProject.Services[k])
+//@     invariant forall k string :: has(disabled, k) ==> disabled[k] == ite(has(newProject.DisabledServices, k), newProject.DisabledServices[k], newProject.Services[k])
+//@     invariant forall k string :: seen(k) ==> (has(enabled, k) || has(disabled, k))
+//@     invariant forall k string :: seen(k) ==> (has(newProject.Services, k) || has(newProject.DisabledServices, k))
+
+//@ func (*Project).WithServicesDisabled
+//@   nopanic[C14,C15]
+//@   pure
+//@   ensures[C14] result != nil && fresh(result)
+//@   ensures[C14] (result.Services == nil <==> p.Services == nil) && (result.Services != nil ==> fresh(result.Services))
+//@   ensures[C14] result.DisabledServices == nil || fresh(result.DisabledServices)
+//@   ensures[C14] forall k string :: has(result.Services, k) ==> mapsFresh(result.Services[k])
+//@   ensures[C14] forall k string :: has(result.DisabledServices, k) ==> mapsFresh(result.DisabledServices[k])
+//@   ensures[C14] result.Name == p.Name && result.WorkingDir == p.WorkingDir
+//@   ensures[C15] wfp(p) ==> wfp(result)
+//@   ensures[C15] forall k string :: (has(result.Services, k) || has(result.DisabledServices, k)) <==> (has(p.Services, k) || has(p.DisabledServices, k))
+// services only move from enabled to disabled
+//@   ensures[C15] forall k string :: has(result.Services, k) ==> has(p.Services, k)
+//@   ensures[C15] forall k string :: has(p.DisabledServices, k) ==> has(result.DisabledServices, k)
+// remaining services never depend on a removed one
+//@   ensures[C15] forall k string, d string :: has(result.Services, k) && has(result.Services[k].DependsOn, d) ==> !(has(p.Services, d) && !has(result.Services, d))
+// ENGINE LIMIT (nested loops: the hidden counter of the outer range loop cannot be named in the invariants of
+// the inner loop, and there is no label for the heap at inner-loop entry): the named services are exactly the moved ones
+//@?  ensures[C15] forall i int :: 0 <= i && i < len(names) ==> !has(result.Services, names[i])
+//@?  ensures[C15] forall k string :: has(p.Services, k) && !has(result.Services, k) ==> exists i int :: 0 <= i && i < len(names) && names[i] == k
+//@   loop 1
+//@     invariant -1 <= rangeindex && rangeindex < len(names)
+//@     invariant newProject != nil && fresh(newProject) && newProject.Services != newProject.DisabledServices
+//@     invariant newProject.DisabledServices != nil && fresh(newProject.DisabledServices) && (newProject.Services == nil <==> p.Services == nil) && (newProject.Services != nil ==> fresh(newProject.Services))
+//@     invariant newProject.Name == p.Name && newProject.WorkingDir == p.WorkingDir
+//@     invariant forall k string :: has(newProject.Services, k) ==> mapsFresh(newProject.Services[k])
+//@     invariant forall k string :: has(newProject.DisabledServices, k) ==> mapsFresh(newProject.DisabledServices[k])
+//@     invariant wfp(p) ==> wfp(newProject)
+//@     invariant forall k string :: (has(newProject.Services, k) || has(newProject.DisabledServices, k)) <==> (has(p.Services, k) || has(p.DisabledServices, k))
+//@     invariant forall k string :: has(newProject.Services, k) ==> has(p.Services, k)
+//@     invariant forall k string :: has(p.DisabledServices, k) ==> has(newProject.DisabledServices, k)
+//@     invariant forall k string, d string :: has(newProject.Services, k) && has(newProject.Services[k].DependsOn, d) ==> !(has(p.Services, d) && !has(newProject.Services, d))
+//@   loop 2
+//@     invariant newProject != nil && fresh(newProject) && newProject.Services != newProject.DisabledServices
+//@     invariant newProject.DisabledServices != nil && fresh(newProject.DisabledServices) && (newProject.Services == nil <==> p.Services == nil) && (newProject.Services != nil ==> fresh(newProject.Services))
+//@     invariant newProject.Name == p.Name && newProject.WorkingDir == p.WorkingDir
+//@     invariant forall k string :: has(newProject.Services, k) ==> mapsFresh(newProject.Services[k])
+//@     invariant forall k string :: has(newProject.DisabledServices, k) ==> mapsFresh(newProject.DisabledServices[k])
+//@     invariant wfp(p) ==> wfp(newProject)
+//@     invariant forall k string :: (has(newProject.Services, k) || has(newProject.DisabledServices, k)) <==> (has(p.Services, k) || has(p.DisabledServices, k))
+//@     invariant forall k string :: has(newProject.Services, k) ==> has(p.Services, k)
+//@     invariant forall k string :: has(p.DisabledServices, k) ==> has(newProject.DisabledServices, k)
+//@     invariant forall k string, d string :: has(newProject.Services, k) && has(newProject.Services[k].DependsOn, d) ==> !(has(p.Services, d) && !has(newProject.Services, d))
+//@     invariant forall k string :: has(newProject.Services, k) && seen(k) ==> !has(newProject.Services[k].DependsOn, name)
+
+//@ func (*Project).WithServicesEnabled
+//@   nopanic[C14,C15]
+//@   pure
+//@   ensures[C14] err == nil ==> result != nil && fresh(result)
+//@   ensures[C14] err == nil ==> forall k string :: has(result.Services, k) ==> mapsFresh(result.Services[k])
+//@   ensures[C15] err == nil && wfp(p) ==> wfp(result)
+//@   ensures[C15] err == nil ==> forall k string :: (has(result.Services, k) || has(result.DisabledServices, k)) <==> (has(p.Services, k) || has(p.DisabledServices, k))
+// an already enabled service stays enabled only if its profiles are active: not claimed. A named disabled service
+// ends up enabled (its profiles were activated); provable part: named services that declare no profile
+//@   ensures[C15] err == nil && len(names) > 0 ==> forall k string :: has(result.DisabledServices, k) ==> len(result.DisabledServices[k].Profiles) > 0
+//@   ensures[C15] err == nil && wfp(p) ==> forall i int :: 0 <= i && i < len(names) && has(p.DisabledServices, names[i]) && len(p.DisabledServices[names[i]].Profiles) == 0 ==> has(result.Services, names[i])
+// full statement (needs the element-wise model of copy() to relate the copied profile lists to the receiver's):
+//@?  ensures[C15] err == nil && wfp(p) ==> forall i int :: 0 <= i && i < len(names) && has(p.DisabledServices, names[i]) ==> has(result.Services, names[i])
+//@   loop 1
+//@     invariant -1 <= rangeindex && rangeindex < len(names)
+//@     invariant newProject != nil && fresh(newProject)
+//@     invariant profiles == nil || fresh(profiles)
+
+//@ func (*Project).WithoutUnnecessaryResources
+//@   nopanic[C14,C15]
+//@   pure
+//@   ensures[C14] result != nil && fresh(result)
+//@   ensures[C14] fresh(result.Networks) && fresh(result.Volumes) && fresh(result.Secrets) && fresh(result.Configs)
+//@   ensures[C14] forall k string :: has(result.Services, k) ==> mapsFresh(result.Services[k])
+// C14 / F10: the kept resources must not share their label/option maps with the receiver's
+//@   ensures[C14] forall k string :: has(result.Networks, k) ==> (result.Networks[k].Labels == nil || fresh(result.Networks[k].Labels)) && (result.Networks[k].DriverOpts == nil || fresh(result.Networks[k].DriverOpts))
+//@   ensures[C14] forall k string :: has(result.Volumes, k) ==> (result.Volumes[k].Labels == nil || fresh(result.Volumes[k].Labels)) && (result.Volumes[k].DriverOpts == nil || fresh(result.Volumes[k].DriverOpts))
+//@   ensures[C14] forall k string :: has(result.Secrets, k) ==> (result.Secrets[k].Labels == nil || fresh(result.Secrets[k].Labels)) && (result.Secrets[k].DriverOpts == nil || fresh(result.Secrets[k].DriverOpts))
+//@   ensures[C14] forall k string :: has(result.Configs, k) ==> (result.Configs[k].Labels == nil || fresh(result.Configs[k].Labels)) && (result.Configs[k].DriverOpts == nil || fresh(result.Configs[k].DriverOpts))
+// C15: only resources of the receiver are kept
+//@   ensures[C15] forall k string :: has(result.Networks, k) ==> has(p.Networks, k)
+//@   ensures[C15] forall k string :: has(result.Volumes, k) ==> has(p.Volumes, k)
+//@   ensures[C15] forall k string :: has(result.Secrets, k) ==> has(p.Secrets, k)
+//@   ensures[C15] forall k string :: has(result.Configs, k) ==> has(p.Configs, k)
+// exactly the referenced ones (ENGINE LIMIT: nested map loops, the outer seen-set cannot be named in inner invariants)
+//@?  ensures[C15] forall k string :: has(result.Networks, k) <==> has(p.Networks, k) && exists n string :: has(result.Services, n) && has(result.Services[n].Networks, k)
+//@   loop 7
+//@     invariant networks != nil && fresh(networks) && newProject != nil && fresh(newProject)
+//@     invariant forall k string :: has(networks, k) ==> has(p.Networks, k) && networks[k] == p.Networks[k]
+//@   loop 8
+//@     invariant volumes != nil && fresh(volumes) && networks != nil && fresh(networks) && newProject != nil && fresh(newProject)
+//@     invariant forall k string :: has(volumes, k) ==> has(p.Volumes, k) && volumes[k] == p.Volumes[k]
+//@   loop 9
+//@     invariant secrets != nil && fresh(secrets) && volumes != nil && fresh(volumes) && networks != nil && fresh(networks) && newProject != nil && fresh(newProject)
+//@     invariant forall k string :: has(secrets, k) ==> has(p.Secrets, k) && secrets[k] == p.Secrets[k]
+//@   loop 10
+//@     invariant configs != nil && fresh(configs) && secrets != nil && fresh(secrets) && volumes != nil && fresh(volumes) && networks != nil && fresh(networks) && newProject != nil && fresh(newProject)
+//@     invariant forall k string :: has(configs, k) ==> has(p.Configs, k) && configs[k] == p.Configs[k]
+
+// ENGINE LIMIT: the body ranges over newProject.Services while REASSIGNING newProject (WithServicesDisabled in the loop)
+// and calls ForEachService with a closure: every heap is havocked at the loop header and no invariant can restate the
+// frame ("rows allocated before the call are unchanged"), so `pure` and the clauses below cannot be discharged (all 830
+// obligations time out). They are what C14/C15 demand of this function and are kept inactive.
+//@ func (*Project).WithSelectedServices
+//@   nopanic[C14,C15]
+//@   requires forall i int :: 0 <= i && i < len(options) ==> options[i] != nil
+//@?  pure
+//@?  ensures[C14] err == nil ==> result != nil && fresh(result)
+//@?  ensures[C14] err == nil ==> result.Services == nil || fresh(result.Services)
+//@?  ensures[C14] err == nil ==> forall k string :: has(result.Services, k) ==> mapsFresh(result.Services[k])
+//@?  ensures[C15] err == nil ==> forall k string :: has(result.Services, k) ==> has(p.Services, k)
+//@?  ensures[C15] err == nil ==> forall k string, d string :: has(result.Services, k) && has(result.Services[k].DependsOn, d) ==> has(result.Services, d)
+//@   loop 1
+//@     invariant newProject != nil && enabled != nil
+//@   loop 2
+//@     invariant newProject != nil && enabled != nil
+
+//@ func (*Project).WithSelectedServices$1
+//@   nopanic[C15]
+//@   requires set != nil
+//@   ensures[C15] err == nil && has(set, name)
+
+//@ func (*Project).ForEachService
+//@   nopanic[C14,C15]
+//@   requires fn != nil
+//@   requires forall i int :: 0 <= i && i < len(options) ==> options[i] != nil
+
+//@ func (*Project).withServices
+//@   nopanic[C14,C15]
+//@   requires fn != nil && seen != nil
+//@   requires forall i int :: 0 <= i && i < len(options) ==> options[i] != nil
+//@   loop 2
+//@     invariant -1 <= rangeindex && rangeindex < len(options)
+//@     invariant forall i int :: 0 <= i && i < len(options) ==> options[i] != nil
+//@     invariant fn != nil && seen != nil
+//@   loop 3
+//@     invariant fn != nil && seen != nil
+
+//@ func (*Project).dependentsForService
+//@   nopanic[C15]
+//@   pure
+//@   ensures[C15] result != nil && fresh(result)
+
+//@ func IncludeDependencies
+//@   nopanic[C15]
+//@   requires options != nil
+//@   ensures[C15] options.dependencyPolicy == 0
+//@ func IncludeDependents
+//@   nopanic[C15]
+//@   requires options != nil
+//@   ensures[C15] options.dependencyPolicy == 1
+//@ func IgnoreDependencies
+//@   nopanic[C15]
+//@   requires options != nil
+//@   ensures[C15] options.dependencyPolicy == 2
+
+//@ func (*Project).WithImagesResolved
+//@   nopanic[C14]
+//@ func (*Project).WithImagesResolved$1
+//@   nopanic[C14]
+//@   requires resolver != nil
+
+//@ func (*Project).WithServicesTransform
+//@   nopanic[C14]
+//@   requires fn != nil
+//@ func (*Project).WithServicesTransform$1
+//@   nopanic[C14]
+//@ func (*Project).WithServicesTransform$2
+//@   nopanic[C14]
+
+// ---------- C20: rendering options ----------
+
+//@ func WithSecretContent
+//@   nopanic[C20]
+//@   requires o != nil
+//@   assigns o.secretsContent
+//@   ensures[C20] o.secretsContent
+
+//@ func (*marshallOptions).apply
+//@   nopanic[C14,C20]
+//@   requires p != nil
+//@   pure
+//@   ensures[C20] result != nil
+//@   ensures[C20] !opt.secretsContent ==> result == p
+//@   ensures[C20] opt.secretsContent ==> result != nil && fresh(result) && (result.Secrets == nil || fresh(result.Secrets))
+//@   ensures[C20] opt.secretsContent ==> forall k string :: has(result.Secrets, k) ==> result.Secrets[k].marshallContent
+// ENGINE LIMIT: the parameter p is reassigned before the loop, so the ORIGINAL project cannot be named in the loop
+// invariants; the two clauses relating the copy's secrets to the receiver's are therefore not provable
+//@?  ensures[C20] opt.secretsContent ==> forall k string :: has(result.Secrets, k) <==> has(p.Secrets, k)
+//@?  ensures[C20] opt.secretsContent ==> forall k string :: has(result.Secrets, k) ==> result.Secrets[k].Content == p.Secrets[k].Content && result.Secrets[k].Name == p.Secrets[k].Name && result.Secrets[k].Environment == p.Secrets[k].Environment && result.Secrets[k].File == p.Secrets[k].File
+//@   loop 1
+//@     invariant p != nil && fresh(p) && (p.Secrets == nil || fresh(p.Secrets))
+//@     invariant forall k string :: seen(k) ==> has(p.Secrets, k) && p.Secrets[k].marshallContent
+
+//@ func applyMarshallOptions
+//@   nopanic[C14,C20]
+//@   requires p != nil
+//@   requires forall i int :: 0 <= i && i < len(options) ==> options[i] != nil
+//@   ensures[C20] result != nil
+//@   ensures[C20] len(options) == 0 ==> result == p
+//@   loop 1
+//@     invariant -1 <= rangeindex && rangeindex < len(options)
+//@     invariant forall i int :: 0 <= i && i < len(options) ==> options[i] != nil
+//@     invariant opts != nil && fresh(opts)
+//@     invariant len(options) == 0 ==> !opts.secretsContent
+
+//@ func (*Project).MarshalYAML
+//@   nopanic[C20]
+//@   requires forall i int :: 0 <= i && i < len(options) ==> options[i] != nil
+//@ func (*Project).MarshalJSON
+//@   nopanic[C20]
+//@   requires forall i int :: 0 <= i && i < len(options) ==> options[i] != nil
+
+// ---------- C16: environment / labels ----------
+
+// ENGINE/SCOPE LIMIT: the loop body calls MappingWithEquals.Resolve with a function value (dynamic call: every heap is
+// havocked) and loadEnvFile/OverrideBy/ToMappingWithEquals whose contracts belong to the mapping.go worker; without them
+// no invariant about newProject.Services survives an iteration. The clauses below are what C15/C16 demand.
+//@ func (Project).WithServicesEnvironmentResolved
+//@   nopanic[C14,C16]
+//@   ensures[C14] err == nil ==> result != nil && fresh(result)
+//@?  ensures[C15] err == nil ==> forall k string :: has(result.Services, k) <==> has(p.Services, k)
+//@?  ensures[C15] err == nil ==> forall k string :: has(result.DisabledServices, k) <==> has(p.DisabledServices, k)
+//@?  ensures[C16] err == nil && discardEnvFiles ==> forall k string :: has(result.Services, k) ==> result.Services[k].EnvFiles == nil
+//@?  ensures[C16] err == nil ==> forall k string, e string :: has(p.Services, k) && has(p.Services[k].Environment, e) ==> has(result.Services[k].Environment, e)
+//@   loop 1
+//@     invariant newProject != nil && fresh(newProject)
+//@   loop 2
+//@     invariant newProject != nil && fresh(newProject)
+
+//@ func (Project).WithServicesLabelsResolved
+//@   nopanic[C14,C16]
+//@   ensures[C14] err == nil ==> result != nil && fresh(result)
+//@   loop 1
+//@     invariant newProject != nil && fresh(newProject)
+//@   loop 2
+//@     invariant newProject != nil && fresh(newProject)
+
+// already parsed files first (non-nil values only), then the project environment.
+// ENGINE LIMIT: the spec language has no dereference of *string, so "result.0 == *environment[s]" cannot be written;
+// only the ok-flag part is expressible.
+//@ func (Project).WithServicesEnvironmentResolved$1
+//@   nopanic[C16]
+//@   requires newProject != nil
+//@   ensures[C16] has(environment, s) && environment[s] != nil ==> result.1
+//@?  ensures[C16] has(environment, s) && environment[s] != nil ==> result.0 == *environment[s]
+//@ func (Project).WithServicesLabelsResolved$1
+//@   nopanic[C16]
+//@   ensures[C16] result.1 <==> (has(labels, s) && labels[s] != nil)
+
+//@ func loadEnvFile
+//@   nopanic[C16]
+//@ func loadLabelFile
+//@   nopanic[C16]
+//@ func loadMappingFile
+//@   nopanic[C16]
+
+// ---------- GENERATED from go/types: copyOf_* macros and deriveDeepCopy* contracts ----------
+//@ spec copyOf_BuildConfig(cd BuildConfig, cs BuildConfig) bool = cd.Context == cs.Context && cd.Dockerfile == cs.Dockerfile && cd.DockerfileInline == cs.DockerfileInline && (cd.Entitlements == nil <==> cs.Entitlements == nil) && (cs.Entitlements != nil ==> fresh(cd.Entitlements)) && len(cd.Entitlements) == len(cs.Entitlements) && (cd.Args == nil <==> cs.Args == nil) && (cs.Args != nil ==> fresh(cd.Args)) && (forall kk string :: has(cd.Args, kk) <==> has(cs.Args, kk)) && (cd.SSH == nil <==> cs.SSH == nil) && (cs.SSH != nil ==> fresh(cd.SSH)) && len(cd.SSH) == len(cs.SSH) && (cd.Labels == nil <==> cs.Labels == nil) && (cs.Labels != nil ==> fresh(cd.Labels)) && (forall kk string :: has(cd.Labels, kk) <==> has(cs.Labels, kk)) && (forall kk string :: has(cs.Labels, kk) ==> cd.Labels[kk] == cs.Labels[kk]) && (cd.CacheFrom == nil <==> cs.CacheFrom == nil) && (cs.CacheFrom != nil ==> fresh(cd.CacheFrom)) && len(cd.CacheFrom) == len(cs.CacheFrom) && (cd.CacheTo == nil <==> cs.CacheTo == nil) && (cs.CacheTo != nil ==> fresh(cd.CacheTo)) && len(cd.CacheTo) == len(cs.CacheTo) && cd.NoCache == cs.NoCache && (cd.AdditionalContexts == nil <==> cs.AdditionalContexts == nil) && (cs.AdditionalContexts != nil ==> fresh(cd.AdditionalContexts)) && (forall kk string :: has(cd.AdditionalContexts, kk) <==> has(cs.AdditionalContexts, kk)) && (forall kk string :: has(cs.AdditionalContexts, kk) ==> cd.AdditionalContexts[kk] == cs.AdditionalContexts[kk]) && cd.Pull == cs.Pull && (cd.ExtraHosts == nil <==> cs.ExtraHosts == nil) && (cs.ExtraHosts != nil ==> fresh(cd.ExtraHosts)) && (forall kk string :: has(cd.ExtraHosts, kk) <==> has(cs.ExtraHosts, kk)) && cd.Isolation == cs.Isolation && cd.Network == cs.Network && cd.Target == cs.Target && (cd.Secrets == nil <==> cs.Secrets == nil) && (cs.Secrets != nil ==> fresh(cd.Secrets)) && len(cd.Secrets) == len(cs.Secrets) && cd.ShmSize == cs.ShmSize && (cd.Tags == nil <==> cs.Tags == nil) && (cs.Tags != nil ==> fresh(cd.Tags)) && len(cd.Tags) == len(cs.Tags) && (cd.Ulimits == nil <==> cs.Ulimits == nil) && (cs.Ulimits != nil ==> fresh(cd.Ulimits)) && (forall kk string :: has(cd.Ulimits, kk) <==> has(cs.Ulimits, kk)) && (cd.Platforms == nil <==> cs.Platforms == nil) && (cs.Platforms != nil ==> fresh(cd.Platforms)) && len(cd.Platforms) == len(cs.Platforms) && cd.Privileged == cs.Privileged && (cd.Extensions == nil <==> cs.Extensions == nil) && (cs.Extensions != nil ==> fresh(cd.Extensions)) && (forall kk string :: has(cd.Extensions, kk) <==> has(cs.Extensions, kk)) && (forall kk string :: has(cs.Extensions, kk) ==> cd.Extensions[kk] == cs.Extensions[kk])
+//@ spec copyOf_DevelopConfig(cd DevelopConfig, cs DevelopConfig) bool = (cd.Watch == nil <==> cs.Watch == nil) && (cs.Watch != nil ==> fresh(cd.Watch)) && len(cd.Watch) == len(cs.Watch) && (cd.Extensions == nil <==> cs.Extensions == nil) && (cs.Extensions != nil ==> fresh(cd.Extensions)) && (forall kk string :: has(cd.Extensions, kk) <==> has(cs.Extensions, kk)) && (forall kk string :: has(cs.Extensions, kk) ==> cd.Extensions[kk] == cs.Extensions[kk])
+//@ spec copyOf_BlkioConfig(cd BlkioConfig, cs BlkioConfig) bool = cd.Weight == cs.Weight && (cd.WeightDevice == nil <==> cs.WeightDevice == nil) && (cs.WeightDevice != nil ==> fresh(cd.WeightDevice)) && len(cd.WeightDevice) == len(cs.WeightDevice) && (cd.DeviceReadBps == nil <==> cs.DeviceReadBps == nil) && (cs.DeviceReadBps != nil ==> fresh(cd.DeviceReadBps)) && len(cd.DeviceReadBps) == len(cs.DeviceReadBps) && (cd.DeviceReadIOps == nil <==> cs.DeviceReadIOps == nil) && (cs.DeviceReadIOps != nil ==> fresh(cd.DeviceReadIOps)) && len(cd.DeviceReadIOps) == len(cs.DeviceReadIOps) && (cd.DeviceWriteBps == nil <==> cs.DeviceWriteBps == nil) && (cs.DeviceWriteBps != nil ==> fresh(cd.DeviceWriteBps)) && len(cd.DeviceWriteBps) == len(cs.DeviceWriteBps) && (cd.DeviceWriteIOps == nil <==> cs.DeviceWriteIOps == nil) && (cs.DeviceWriteIOps != nil ==> fresh(cd.DeviceWriteIOps)) && len(cd.DeviceWriteIOps) == len(cs.DeviceWriteIOps) && (cd.Extensions == nil <==> cs.Extensions == nil) && (cs.Extensions != nil ==> fresh(cd.Extensions)) && (forall kk string :: has(cd.Extensions, kk) <==> has(cs.Extensions, kk)) && (forall kk string :: has(cs.Extensions, kk) ==> cd.Extensions[kk] == cs.Extensions[kk])
+//@ spec copyOf_ServiceConfigObjConfig(cd ServiceConfigObjConfig, cs ServiceConfigObjConfig) bool = cd.Source == cs.Source && cd.Target == cs.Target && cd.UID == cs.UID && cd.GID == cs.GID && (cd.Mode == nil <==> cs.Mode == nil) && (cs.Mode != nil ==> fresh(cd.Mode)) && (cd.Extensions == nil <==> cs.Extensions == nil) && (cs.Extensions != nil ==> fresh(cd.Extensions)) && (forall kk string :: has(cd.Extensions, kk) <==> has(cs.Extensions, kk)) && (forall kk string :: has(cs.Extensions, kk) ==> cd.Extensions[kk] == cs.Extensions[kk])
+//@ spec copyOf_CredentialSpecConfig(cd CredentialSpecConfig, cs CredentialSpecConfig) bool = cd.Config == cs.Config && cd.File == cs.File && cd.Registry == cs.Registry && (cd.Extensions == nil <==> cs.Extensions == nil) && (cs.Extensions != nil ==> fresh(cd.Extensions)) && (forall kk string :: has(cd.Extensions, kk) <==> has(cs.Extensions, kk)) && (forall kk string :: has(cs.Extensions, kk) ==> cd.Extensions[kk] == cs.Extensions[kk])
+//@ spec copyOf_ServiceDependency(cd ServiceDependency, cs ServiceDependency) bool = cd.Condition == cs.Condition && cd.Restart == cs.Restart && (cd.Extensions == nil <==> cs.Extensions == nil) && (cs.Extensions != nil ==> fresh(cd.Extensions)) && (forall kk string :: has(cd.Extensions, kk) <==> has(cs.Extensions, kk)) && (forall kk string :: has(cs.Extensions, kk) ==> cd.Extensions[kk] == cs.Extensions[kk]) && cd.Required == cs.Required
+//@ spec copyOf_DeployConfig(cd DeployConfig, cs DeployConfig) bool = cd.Mode == cs.Mode && (cd.Replicas == nil <==> cs.Replicas == nil) && (cs.Replicas != nil ==> fresh(cd.Replicas)) && (cd.Labels == nil <==> cs.Labels == nil) && (cs.Labels != nil ==> fresh(cd.Labels)) && (forall kk string :: has(cd.Labels, kk) <==> has(cs.Labels, kk)) && (forall kk string :: has(cs.Labels, kk) ==> cd.Labels[kk] == cs.Labels[kk]) && (cd.UpdateConfig == nil <==> cs.UpdateConfig == nil) && (cs.UpdateConfig != nil ==> fresh(cd.UpdateConfig)) && (cd.RollbackConfig == nil <==> cs.RollbackConfig == nil) && (cs.RollbackConfig != nil ==> fresh(cd.RollbackConfig)) && (cd.Resources.Limits == nil <==> cs.Resources.Limits == nil) && (cs.Resources.Limits != nil ==> fresh(cd.Resources.Limits)) && (cd.Resources.Reservations == nil <==> cs.Resources.Reservations == nil) && (cs.Resources.Reservations != nil ==> fresh(cd.Resources.Reservations)) && (cd.Resources.Extensions == nil <==> cs.Resources.Extensions == nil) && (cs.Resources.Extensions != nil ==> fresh(cd.Resources.Extensions)) && (forall kk string :: has(cd.Resources.Extensions, kk) <==> has(cs.Resources.Extensions, kk)) && (forall kk string :: has(cs.Resources.Extensions, kk) ==> cd.Resources.Extensions[kk] == cs.Resources.Extensions[kk]) && (cd.RestartPolicy == nil <==> cs.RestartPolicy == nil) && (cs.RestartPolicy != nil ==> fresh(cd.RestartPolicy)) && (cd.Placement.Constraints == nil <==> cs.Placement.Constraints == nil) && (cs.Placement.Constraints != nil ==> fresh(cd.Placement.Constraints)) && len(cd.Placement.Constraints) == len(cs.Placement.Constraints) && (cd.Placement.Preferences == nil <==> cs.Placement.Preferences == nil) && (cs.Placement.Preferences != nil ==> fresh(cd.Placement.Preferences)) && len(cd.Placement.Preferences) == len(cs.Placement.Preferences) && cd.Placement.MaxReplicas == cs.Placement.MaxReplicas && (cd.Placement.Extensions == nil <==> cs.Placement.Extensions == nil) && (cs.Placement.Extensions != nil ==> fresh(cd.Placement.Extensions)) && (forall kk string :: has(cd.Placement.Extensions, kk) <==> has(cs.Placement.Extensions, kk)) && (forall kk string :: has(cs.Placement.Extensions, kk) ==> cd.Placement.Extensions[kk] == cs.Placement.Extensions[kk]) && cd.EndpointMode == cs.EndpointMode && (cd.Extensions == nil <==> cs.Extensions == nil) && (cs.Extensions != nil ==> fresh(cd.Extensions)) && (forall kk string :: has(cd.Extensions, kk) <==> has(cs.Extensions, kk)) && (forall kk string :: has(cs.Extensions, kk) ==> cd.Extensions[kk] == cs.Extensions[kk])
+//@ spec copyOf_DeviceMapping(cd DeviceMapping, cs DeviceMapping) bool = cd.Source == cs.Source && cd.Target == cs.Target && cd.Permissions == cs.Permissions && (cd.Extensions == nil <==> cs.Extensions == nil) && (cs.Extensions != nil ==> fresh(cd.Extensions)) && (forall kk string :: has(cd.Extensions, kk) <==> has(cs.Extensions, kk)) && (forall kk string :: has(cs.Extensions, kk) ==> cd.Extensions[kk] == cs.Extensions[kk])
+//@ spec copyOf_EnvFile(cd EnvFile, cs EnvFile) bool = cd.Path == cs.Path && cd.Required == cs.Required && cd.Format == cs.Format
+//@ spec copyOf_ExtendsConfig(cd ExtendsConfig, cs ExtendsConfig) bool = cd.File == cs.File && cd.Service == cs.Service
+//@ spec copyOf_DeviceRequest(cd DeviceRequest, cs DeviceRequest) bool = (cd.Capabilities == nil <==> cs.Capabilities == nil) && (cs.Capabilities != nil ==> fresh(cd.Capabilities)) && len(cd.Capabilities) == len(cs.Capabilities) && cd.Driver == cs.Driver && cd.Count == cs.Count && (cd.IDs == nil <==> cs.IDs == nil) && (cs.IDs != nil ==> fresh(cd.IDs)) && len(cd.IDs) == len(cs.IDs) && (cd.Options == nil <==> cs.Options == nil) && (cs.Options != nil ==> fresh(cd.Options)) && (forall kk string :: has(cd.Options, kk) <==> has(cs.Options, kk)) && (forall kk string :: has(cs.Options, kk) ==> cd.Options[kk] == cs.Options[kk])
+//@ spec copyOf_HealthCheckConfig(cd HealthCheckConfig, cs HealthCheckConfig) bool = (cd.Test == nil <==> cs.Test == nil) && (cs.Test != nil ==> fresh(cd.Test)) && len(cd.Test) == len(cs.Test) && (cd.Timeout == nil <==> cs.Timeout == nil) && (cs.Timeout != nil ==> fresh(cd.Timeout)) && (cd.Interval == nil <==> cs.Interval == nil) && (cs.Interval != nil ==> fresh(cd.Interval)) && (cd.Retries == nil <==> cs.Retries == nil) && (cs.Retries != nil ==> fresh(cd.Retries)) && (cd.StartPeriod == nil <==> cs.StartPeriod == nil) && (cs.StartPeriod != nil ==> fresh(cd.StartPeriod)) && (cd.StartInterval == nil <==> cs.StartInterval == nil) && (cs.StartInterval != nil ==> fresh(cd.StartInterval)) && cd.Disable == cs.Disable && (cd.Extensions == nil <==> cs.Extensions == nil) && (cs.Extensions != nil ==> fresh(cd.Extensions)) && (forall kk string :: has(cd.Extensions, kk) <==> has(cs.Extensions, kk)) && (forall kk string :: has(cs.Extensions, kk) ==> cd.Extensions[kk] == cs.Extensions[kk])
+//@ spec copyOf_LoggingConfig(cd LoggingConfig, cs LoggingConfig) bool = cd.Driver == cs.Driver && (cd.Options == nil <==> cs.Options == nil) && (cs.Options != nil ==> fresh(cd.Options)) && (forall kk string :: has(cd.Options, kk) <==> has(cs.Options, kk)) && (forall kk string :: has(cs.Options, kk) ==> cd.Options[kk] == cs.Options[kk]) && (cd.Extensions == nil <==> cs.Extensions == nil) && (cs.Extensions != nil ==> fresh(cd.Extensions)) && (forall kk string :: has(cd.Extensions, kk) <==> has(cs.Extensions, kk)) && (forall kk string :: has(cs.Extensions, kk) ==> cd.Extensions[kk] == cs.Extensions[kk])
+//@ spec copyOf_ServicePortConfig(cd ServicePortConfig, cs ServicePortConfig) bool = cd.Name == cs.Name && cd.Mode == cs.Mode && cd.HostIP == cs.HostIP && cd.Target == cs.Target && cd.Published == cs.Published && cd.Protocol == cs.Protocol && cd.AppProtocol == cs.AppProtocol && (cd.Extensions == nil <==> cs.Extensions == nil) && (cs.Extensions != nil ==> fresh(cd.Extensions)) && (forall kk string :: has(cd.Extensions, kk) <==> has(cs.Extensions, kk)) && (forall kk string :: has(cs.Extensions, kk) ==> cd.Extensions[kk] == cs.Extensions[kk])
+//@ spec copyOf_ServiceSecretConfig(cd ServiceSecretConfig, cs ServiceSecretConfig) bool = cd.Source == cs.Source && cd.Target == cs.Target && cd.UID == cs.UID && cd.GID == cs.GID && (cd.Mode == nil <==> cs.Mode == nil) && (cs.Mode != nil ==> fresh(cd.Mode)) && (cd.Extensions == nil <==> cs.Extensions == nil) && (cs.Extensions != nil ==> fresh(cd.Extensions)) && (forall kk string :: has(cd.Extensions, kk) <==> has(cs.Extensions, kk)) && (forall kk string :: has(cs.Extensions, kk) ==> cd.Extensions[kk] == cs.Extensions[kk])
+//@ spec copyOf_ServiceVolumeConfig(cd ServiceVolumeConfig, cs ServiceVolumeConfig) bool = cd.Type == cs.Type && cd.Source == cs.Source && cd.Target == cs.Target && cd.ReadOnly == cs.ReadOnly && cd.Consistency == cs.Consistency && (cd.Bind == nil <==> cs.Bind == nil) && (cs.Bind != nil ==> fresh(cd.Bind)) && (cd.Volume == nil <==> cs.Volume == nil) && (cs.Volume != nil ==> fresh(cd.Volume)) && (cd.Tmpfs == nil <==> cs.Tmpfs == nil) && (cs.Tmpfs != nil ==> fresh(cd.Tmpfs)) && (cd.Extensions == nil <==> cs.Extensions == nil) && (cs.Extensions != nil ==> fresh(cd.Extensions)) && (forall kk string :: has(cd.Extensions, kk) <==> has(cs.Extensions, kk)) && (forall kk string :: has(cs.Extensions, kk) ==> cd.Extensions[kk] == cs.Extensions[kk])
+//@ spec copyOf_ServiceHook(cd ServiceHook, cs ServiceHook) bool = (cd.Command == nil <==> cs.Command == nil) && (cs.Command != nil ==> fresh(cd.Command)) && len(cd.Command) == len(cs.Command) && cd.User == cs.User && cd.Privileged == cs.Privileged && cd.WorkingDir == cs.WorkingDir && (cd.Environment == nil <==> cs.Environment == nil) && (cs.Environment != nil ==> fresh(cd.Environment)) && (forall kk string :: has(cd.Environment, kk) <==> has(cs.Environment, kk)) && (cd.Extensions == nil <==> cs.Extensions == nil) && (cs.Extensions != nil ==> fresh(cd.Extensions)) && (forall kk string :: has(cd.Extensions, kk) <==> has(cs.Extensions, kk)) && (forall kk string :: has(cs.Extensions, kk) ==> cd.Extensions[kk] == cs.Extensions[kk])
+//@ spec copyOf_ServiceConfig(cd ServiceConfig, cs ServiceConfig) bool = cd.Name == cs.Name && (cd.Profiles == nil <==> cs.Profiles == nil) && (cs.Profiles != nil ==> fresh(cd.Profiles)) && len(cd.Profiles) == len(cs.Profiles) && (cd.Annotations == nil <==> cs.Annotations == nil) && (cs.Annotations != nil ==> fresh(cd.Annotations)) && (forall kk string :: has(cd.Annotations, kk) <==> has(cs.Annotations, kk)) && (forall kk string :: has(cs.Annotations, kk) ==> cd.Annotations[kk] == cs.Annotations[kk]) && (cd.Attach == nil <==> cs.Attach == nil) && (cs.Attach != nil ==> fresh(cd.Attach)) && (cd.Build == nil <==> cs.Build == nil) && (cs.Build != nil ==> fresh(cd.Build)) && (cd.Develop == nil <==> cs.Develop == nil) && (cs.Develop != nil ==> fresh(cd.Develop)) && (cd.BlkioConfig == nil <==> cs.BlkioConfig == nil) && (cs.BlkioConfig != nil ==> fresh(cd.BlkioConfig)) && (cd.CapAdd == nil <==> cs.CapAdd == nil) && (cs.CapAdd != nil ==> fresh(cd.CapAdd)) && len(cd.CapAdd) == len(cs.CapAdd) && (cd.CapDrop == nil <==> cs.CapDrop == nil) && (cs.CapDrop != nil ==> fresh(cd.CapDrop)) && len(cd.CapDrop) == len(cs.CapDrop) && cd.CgroupParent == cs.CgroupParent && cd.Cgroup == cs.Cgroup && cd.CPUCount == cs.CPUCount && cd.CPUPercent == cs.CPUPercent && cd.CPUPeriod == cs.CPUPeriod && cd.CPUQuota == cs.CPUQuota && cd.CPURTPeriod == cs.CPURTPeriod && cd.CPURTRuntime == cs.CPURTRuntime && cd.CPUS == cs.CPUS && cd.CPUSet == cs.CPUSet && cd.CPUShares == cs.CPUShares && (cd.Command == nil <==> cs.Command == nil) && (cs.Command != nil ==> fresh(cd.Command)) && len(cd.Command) == len(cs.Command) && (cd.Configs == nil <==> cs.Configs == nil) && (cs.Configs != nil ==> fresh(cd.Configs)) && len(cd.Configs) == len(cs.Configs) && cd.ContainerName == cs.ContainerName && (cd.CredentialSpec == nil <==> cs.CredentialSpec == nil) && (cs.CredentialSpec != nil ==> fresh(cd.CredentialSpec)) && (cd.DependsOn == nil <==> cs.DependsOn == nil) && (cs.DependsOn != nil ==> fresh(cd.DependsOn)) && (forall kk string :: has(cd.DependsOn, kk) <==> has(cs.DependsOn, kk)) && (cd.Deploy == nil <==> cs.Deploy == nil) && (cs.Deploy != nil ==> fresh(cd.Deploy)) && (cd.DeviceCgroupRules == nil <==> cs.DeviceCgroupRules == nil) && (cs.DeviceCgroupRules != nil ==> fresh(cd.DeviceCgroupRules)) && len(cd.DeviceCgroupRules) == len(cs.DeviceCgroupRules) && (cd.Devices == nil <==> cs.Devices == nil) && (cs.Devices != nil ==> fresh(cd.Devices)) && len(cd.Devices) == len(cs.Devices) && (cd.DNS == nil <==> cs.DNS == nil) && (cs.DNS != nil ==> fresh(cd.DNS)) && len(cd.DNS) == len(cs.DNS) && (cd.DNSOpts == nil <==> cs.DNSOpts == nil) && (cs.DNSOpts != nil ==> fresh(cd.DNSOpts)) && len(cd.DNSOpts) == len(cs.DNSOpts) && (cd.DNSSearch == nil <==> cs.DNSSearch == nil) && (cs.DNSSearch != nil ==> fresh(cd.DNSSearch)) && len(cd.DNSSearch) == len(cs.DNSSearch) && cd.Dockerfile == cs.Dockerfile && cd.DomainName == cs.DomainName && (cd.Entrypoint == nil <==> cs.Entrypoint == nil) && (cs.Entrypoint != nil ==> fresh(cd.Entrypoint)) && len(cd.Entrypoint) == len(cs.Entrypoint) && (cd.Environment == nil <==> cs.Environment == nil) && (cs.Environment != nil ==> fresh(cd.Environment)) && (forall kk string :: has(cd.Environment, kk) <==> has(cs.Environment, kk)) && (cd.EnvFiles == nil <==> cs.EnvFiles == nil) && (cs.EnvFiles != nil ==> fresh(cd.EnvFiles)) && len(cd.EnvFiles) == len(cs.EnvFiles) && (cd.Expose == nil <==> cs.Expose == nil) && (cs.Expose != nil ==> fresh(cd.Expose)) && len(cd.Expose) == len(cs.Expose) && (cd.Extends == nil <==> cs.Extends == nil) && (cs.Extends != nil ==> fresh(cd.Extends)) && (cd.ExternalLinks == nil <==> cs.ExternalLinks == nil) && (cs.ExternalLinks != nil ==> fresh(cd.ExternalLinks)) && len(cd.ExternalLinks) == len(cs.ExternalLinks) && (cd.ExtraHosts == nil <==> cs.ExtraHosts == nil) && (cs.ExtraHosts != nil ==> fresh(cd.ExtraHosts)) && (forall kk string :: has(cd.ExtraHosts, kk) <==> has(cs.ExtraHosts, kk)) && (cd.GroupAdd == nil <==> cs.GroupAdd == nil) && (cs.GroupAdd != nil ==> fresh(cd.GroupAdd)) && len(cd.GroupAdd) == len(cs.GroupAdd) && (cd.Gpus == nil <==> cs.Gpus == nil) && (cs.Gpus != nil ==> fresh(cd.Gpus)) && len(cd.Gpus) == len(cs.Gpus) && cd.Hostname == cs.Hostname && (cd.HealthCheck == nil <==> cs.HealthCheck == nil) && (cs.HealthCheck != nil ==> fresh(cd.HealthCheck)) && cd.Image == cs.Image && (cd.Init == nil <==> cs.Init == nil) && (cs.Init != nil ==> fresh(cd.Init)) && cd.Ipc == cs.Ipc && cd.Isolation == cs.Isolation && (cd.Labels == nil <==> cs.Labels == nil) && (cs.Labels != nil ==> fresh(cd.Labels)) && (forall kk string :: has(cd.Labels, kk) <==> has(cs.Labels, kk)) && (forall kk string :: has(cs.Labels, kk) ==> cd.Labels[kk] == cs.Labels[kk]) && (cd.LabelFiles == nil <==> cs.LabelFiles == nil) && (cs.LabelFiles != nil ==> fresh(cd.LabelFiles)) && len(cd.LabelFiles) == len(cs.LabelFiles) && (cd.CustomLabels == nil <==> cs.CustomLabels == nil) && (cs.CustomLabels != nil ==> fresh(cd.CustomLabels)) && (forall kk string :: has(cd.CustomLabels, kk) <==> has(cs.CustomLabels, kk)) && (forall kk string :: has(cs.CustomLabels, kk) ==> cd.CustomLabels[kk] == cs.CustomLabels[kk]) && (cd.Links == nil <==> cs.Links == nil) && (cs.Links != nil ==> fresh(cd.Links)) && len(cd.Links) == len(cs.Links) && (cd.Logging == nil <==> cs.Logging == nil) && (cs.Logging != nil ==> fresh(cd.Logging)) && cd.LogDriver == cs.LogDriver && (cd.LogOpt == nil <==> cs.LogOpt == nil) && (cs.LogOpt != nil ==> fresh(cd.LogOpt)) && (forall kk string :: has(cd.LogOpt, kk) <==> has(cs.LogOpt, kk)) && (forall kk string :: has(cs.LogOpt, kk) ==> cd.LogOpt[kk] == cs.LogOpt[kk]) && cd.MemLimit == cs.MemLimit && cd.MemReservation == cs.MemReservation && cd.MemSwapLimit == cs.MemSwapLimit && cd.MemSwappiness == cs.MemSwappiness && cd.MacAddress == cs.MacAddress && cd.Net == cs.Net && cd.NetworkMode == cs.NetworkMode && (cd.Networks == nil <==> cs.Networks == nil) && (cs.Networks != nil ==> fresh(cd.Networks)) && (forall kk string :: has(cd.Networks, kk) <==> has(cs.Networks, kk)) && cd.OomKillDisable == cs.OomKillDisable && cd.OomScoreAdj == cs.OomScoreAdj && cd.Pid == cs.Pid && cd.PidsLimit == cs.PidsLimit && cd.Platform == cs.Platform && (cd.Ports == nil <==> cs.Ports == nil) && (cs.Ports != nil ==> fresh(cd.Ports)) && len(cd.Ports) == len(cs.Ports) && cd.Privileged == cs.Privileged && cd.PullPolicy == cs.PullPolicy && cd.ReadOnly == cs.ReadOnly && cd.Restart == cs.Restart && cd.Runtime == cs.Runtime && (cd.Scale == nil <==> cs.Scale == nil) && (cs.Scale != nil ==> fresh(cd.Scale)) && (cd.Secrets == nil <==> cs.Secrets == nil) && (cs.Secrets != nil ==> fresh(cd.Secrets)) && len(cd.Secrets) == len(cs.Secrets) && (cd.SecurityOpt == nil <==> cs.SecurityOpt == nil) && (cs.SecurityOpt != nil ==> fresh(cd.SecurityOpt)) && len(cd.SecurityOpt) == len(cs.SecurityOpt) && cd.ShmSize == cs.ShmSize && cd.StdinOpen == cs.StdinOpen && (cd.StopGracePeriod == nil <==> cs.StopGracePeriod == nil) && (cs.StopGracePeriod != nil ==> fresh(cd.StopGracePeriod)) && cd.StopSignal == cs.StopSignal && (cd.StorageOpt == nil <==> cs.StorageOpt == nil) && (cs.StorageOpt != nil ==> fresh(cd.StorageOpt)) && (forall kk string :: has(cd.StorageOpt, kk) <==> has(cs.StorageOpt, kk)) && (forall kk string :: has(cs.StorageOpt, kk) ==> cd.StorageOpt[kk] == cs.StorageOpt[kk]) && (cd.Sysctls == nil <==> cs.Sysctls == nil) && (cs.Sysctls != nil ==> fresh(cd.Sysctls)) && (forall kk string :: has(cd.Sysctls, kk) <==> has(cs.Sysctls, kk)) && (forall kk string :: has(cs.Sysctls, kk) ==> cd.Sysctls[kk] == cs.Sysctls[kk]) && (cd.Tmpfs == nil <==> cs.Tmpfs == nil) && (cs.Tmpfs != nil ==> fresh(cd.Tmpfs)) && len(cd.Tmpfs) == len(cs.Tmpfs) && cd.Tty == cs.Tty && (cd.Ulimits == nil <==> cs.Ulimits == nil) && (cs.Ulimits != nil ==> fresh(cd.Ulimits)) && (forall kk string :: has(cd.Ulimits, kk) <==> has(cs.Ulimits, kk)) && cd.User == cs.User && cd.UserNSMode == cs.UserNSMode && cd.Uts == cs.Uts && cd.VolumeDriver == cs.VolumeDriver && (cd.Volumes == nil <==> cs.Volumes == nil) && (cs.Volumes != nil ==> fresh(cd.Volumes)) && len(cd.Volumes) == len(cs.Volumes) && (cd.VolumesFrom == nil <==> cs.VolumesFrom == nil) && (cs.VolumesFrom != nil ==> fresh(cd.VolumesFrom)) && len(cd.VolumesFrom) == len(cs.VolumesFrom) && cd.WorkingDir == cs.WorkingDir && (cd.PostStart == nil <==> cs.PostStart == nil) && (cs.PostStart != nil ==> fresh(cd.PostStart)) && len(cd.PostStart) == len(cs.PostStart) && (cd.PreStop == nil <==> cs.PreStop == nil) && (cs.PreStop != nil ==> fresh(cd.PreStop)) && len(cd.PreStop) == len(cs.PreStop) && (cd.Extensions == nil <==> cs.Extensions == nil) && (cs.Extensions != nil ==> fresh(cd.Extensions)) && (forall kk string :: has(cd.Extensions, kk) <==> has(cs.Extensions, kk)) && (forall kk string :: has(cs.Extensions, kk) ==> cd.Extensions[kk] == cs.Extensions[kk])
+//@ spec copyOf_Project(cd Project, cs Project) bool = cd.Name == cs.Name && cd.WorkingDir == cs.WorkingDir && (cd.Services == nil <==> cs.Services == nil) && (cs.Services != nil ==> fresh(cd.Services)) && (forall kk string :: has(cd.Services, kk) <==> has(cs.Services, kk)) && (cd.Networks == nil <==> cs.Networks == nil) && (cs.Networks != nil ==> fresh(cd.Networks)) && (forall kk string :: has(cd.Networks, kk) <==> has(cs.Networks, kk)) && (cd.Volumes == nil <==> cs.Volumes == nil) && (cs.Volumes != nil ==> fresh(cd.Volumes)) && (forall kk string :: has(cd.Volumes, kk) <==> has(cs.Volumes, kk)) && (cd.Secrets == nil <==> cs.Secrets == nil) && (cs.Secrets != nil ==> fresh(cd.Secrets)) && (forall kk string :: has(cd.Secrets, kk) <==> has(cs.Secrets, kk)) && (cd.Configs == nil <==> cs.Configs == nil) && (cs.Configs != nil ==> fresh(cd.Configs)) && (forall kk string :: has(cd.Configs, kk) <==> has(cs.Configs, kk)) && (cd.Extensions == nil <==> cs.Extensions == nil) && (cs.Extensions != nil ==> fresh(cd.Extensions)) && (forall kk string :: has(cd.Extensions, kk) <==> has(cs.Extensions, kk)) && (forall kk string :: has(cs.Extensions, kk) ==> cd.Extensions[kk] == cs.Extensions[kk]) && (cd.ComposeFiles == nil <==> cs.ComposeFiles == nil) && (cs.ComposeFiles != nil ==> fresh(cd.ComposeFiles)) && len(cd.ComposeFiles) == len(cs.ComposeFiles) && (cd.Environment == nil <==> cs.Environment == nil) && (cs.Environment != nil ==> fresh(cd.Environment)) && (forall kk string :: has(cd.Environment, kk) <==> has(cs.Environment, kk)) && (forall kk string :: has(cs.Environment, kk) ==> cd.Environment[kk] == cs.Environment[kk]) && (cd.DisabledServices == nil <==> cs.DisabledServices == nil) && (cs.DisabledServices != nil ==> fresh(cd.DisabledServices)) && (forall kk string :: has(cd.DisabledServices, kk) <==> has(cs.DisabledServices, kk)) && (cd.Profiles == nil <==> cs.Profiles == nil) && (cs.Profiles != nil ==> fresh(cd.Profiles)) && len(cd.Profiles) == len(cs.Profiles)
+//@ spec copyOf_NetworkConfig(cd NetworkConfig, cs NetworkConfig) bool = cd.Name == cs.Name && cd.Driver == cs.Driver && (cd.DriverOpts == nil <==> cs.DriverOpts == nil) && (cs.DriverOpts != nil ==> fresh(cd.DriverOpts)) && (forall kk string :: has(cd.DriverOpts, kk) <==> has(cs.DriverOpts, kk)) && (forall kk string :: has(cs.DriverOpts, kk) ==> cd.DriverOpts[kk] == cs.DriverOpts[kk]) && cd.Ipam.Driver == cs.Ipam.Driver && (cd.Ipam.Config == nil <==> cs.Ipam.Config == nil) && (cs.Ipam.Config != nil ==> fresh(cd.Ipam.Config)) && len(cd.Ipam.Config) == len(cs.Ipam.Config) && (cd.Ipam.Extensions == nil <==> cs.Ipam.Extensions == nil) && (cs.Ipam.Extensions != nil ==> fresh(cd.Ipam.Extensions)) && (forall kk string :: has(cd.Ipam.Extensions, kk) <==> has(cs.Ipam.Extensions, kk)) && (forall kk string :: has(cs.Ipam.Extensions, kk) ==> cd.Ipam.Extensions[kk] == cs.Ipam.Extensions[kk]) && cd.External == cs.External && cd.Internal == cs.Internal && cd.Attachable == cs.Attachable && (cd.Labels == nil <==> cs.Labels == nil) && (cs.Labels != nil ==> fresh(cd.Labels)) && (forall kk string :: has(cd.Labels, kk) <==> has(cs.Labels, kk)) && (forall kk string :: has(cs.Labels, kk) ==> cd.Labels[kk] == cs.Labels[kk]) && (cd.CustomLabels == nil <==> cs.CustomLabels == nil) && (cs.CustomLabels != nil ==> fresh(cd.CustomLabels)) && (forall kk string :: has(cd.CustomLabels, kk) <==> has(cs.CustomLabels, kk)) && (forall kk string :: has(cs.CustomLabels, kk) ==> cd.CustomLabels[kk] == cs.CustomLabels[kk]) && (cd.EnableIPv6 == nil <==> cs.EnableIPv6 == nil) && (cs.EnableIPv6 != nil ==> fresh(cd.EnableIPv6)) && (cd.Extensions == nil <==> cs.Extensions == nil) && (cs.Extensions != nil ==> fresh(cd.Extensions)) && (forall kk string :: has(cd.Extensions, kk) <==> has(cs.Extensions, kk)) && (forall kk string :: has(cs.Extensions, kk) ==> cd.Extensions[kk] == cs.Extensions[kk])
+//@ spec copyOf_VolumeConfig(cd VolumeConfig, cs VolumeConfig) bool = cd.Name == cs.Name && cd.Driver == cs.Driver && (cd.DriverOpts == nil <==> cs.DriverOpts == nil) && (cs.DriverOpts != nil ==> fresh(cd.DriverOpts)) && (forall kk string :: has(cd.DriverOpts, kk) <==> has(cs.DriverOpts, kk)) && (forall kk string :: has(cs.DriverOpts, kk) ==> cd.DriverOpts[kk] == cs.DriverOpts[kk]) && cd.External == cs.External && (cd.Labels == nil <==> cs.Labels == nil) && (cs.Labels != nil ==> fresh(cd.Labels)) && (forall kk string :: has(cd.Labels, kk) <==> has(cs.Labels, kk)) && (forall kk string :: has(cs.Labels, kk) ==> cd.Labels[kk] == cs.Labels[kk]) && (cd.CustomLabels == nil <==> cs.CustomLabels == nil) && (cs.CustomLabels != nil ==> fresh(cd.CustomLabels)) && (forall kk string :: has(cd.CustomLabels, kk) <==> has(cs.CustomLabels, kk)) && (forall kk string :: has(cs.CustomLabels, kk) ==> cd.CustomLabels[kk] == cs.CustomLabels[kk]) && (cd.Extensions == nil <==> cs.Extensions == nil) && (cs.Extensions != nil ==> fresh(cd.Extensions)) && (forall kk string :: has(cd.Extensions, kk) <==> has(cs.Extensions, kk)) && (forall kk string :: has(cs.Extensions, kk) ==> cd.Extensions[kk] == cs.Extensions[kk])
+//@ spec copyOf_SecretConfig(cd SecretConfig, cs SecretConfig) bool = cd.Name == cs.Name && cd.File == cs.File && cd.Environment == cs.Environment && cd.Content == cs.Content && cd.marshallContent == cs.marshallContent && cd.External == cs.External && (cd.Labels == nil <==> cs.Labels == nil) && (cs.Labels != nil ==> fresh(cd.Labels)) && (forall kk string :: has(cd.Labels, kk) <==> has(cs.Labels, kk)) && (forall kk string :: has(cs.Labels, kk) ==> cd.Labels[kk] == cs.Labels[kk]) && cd.Driver == cs.Driver && (cd.DriverOpts == nil <==> cs.DriverOpts == nil) && (cs.DriverOpts != nil ==> fresh(cd.DriverOpts)) && (forall kk string :: has(cd.DriverOpts, kk) <==> has(cs.DriverOpts, kk)) && (forall kk string :: has(cs.DriverOpts, kk) ==> cd.DriverOpts[kk] == cs.DriverOpts[kk]) && cd.TemplateDriver == cs.TemplateDriver && (cd.Extensions == nil <==> cs.Extensions == nil) && (cs.Extensions != nil ==> fresh(cd.Extensions)) && (forall kk string :: has(cd.Extensions, kk) <==> has(cs.Extensions, kk)) && (forall kk string :: has(cs.Extensions, kk) ==> cd.Extensions[kk] == cs.Extensions[kk])
+//@ spec copyOf_ConfigObjConfig(cd ConfigObjConfig, cs ConfigObjConfig) bool = cd.Name == cs.Name && cd.File == cs.File && cd.Environment == cs.Environment && cd.Content == cs.Content && cd.marshallContent == cs.marshallContent && cd.External == cs.External && (cd.Labels == nil <==> cs.Labels == nil) && (cs.Labels != nil ==> fresh(cd.Labels)) && (forall kk string :: has(cd.Labels, kk) <==> has(cs.Labels, kk)) && (forall kk string :: has(cs.Labels, kk) ==> cd.Labels[kk] == cs.Labels[kk]) && cd.Driver == cs.Driver && (cd.DriverOpts == nil <==> cs.DriverOpts == nil) && (cs.DriverOpts != nil ==> fresh(cd.DriverOpts)) && (forall kk string :: has(cd.DriverOpts, kk) <==> has(cs.DriverOpts, kk)) && (forall kk string :: has(cs.DriverOpts, kk) ==> cd.DriverOpts[kk] == cs.DriverOpts[kk]) && cd.TemplateDriver == cs.TemplateDriver && (cd.Extensions == nil <==> cs.Extensions == nil) && (cs.Extensions != nil ==> fresh(cd.Extensions)) && (forall kk string :: has(cd.Extensions, kk) <==> has(cs.Extensions, kk)) && (forall kk string :: has(cs.Extensions, kk) ==> cd.Extensions[kk] == cs.Extensions[kk])
+//@ spec copyOf_UpdateConfig(cd UpdateConfig, cs UpdateConfig) bool = (cd.Parallelism == nil <==> cs.Parallelism == nil) && (cs.Parallelism != nil ==> fresh(cd.Parallelism)) && cd.Delay == cs.Delay && cd.FailureAction == cs.FailureAction && cd.Monitor == cs.Monitor && cd.MaxFailureRatio == cs.MaxFailureRatio && cd.Order == cs.Order && (cd.Extensions == nil <==> cs.Extensions == nil) && (cs.Extensions != nil ==> fresh(cd.Extensions)) && (forall kk string :: has(cd.Extensions, kk) <==> has(cs.Extensions, kk)) && (forall kk string :: has(cs.Extensions, kk) ==> cd.Extensions[kk] == cs.Extensions[kk])
+//@ spec copyOf_RestartPolicy(cd RestartPolicy, cs RestartPolicy) bool = cd.Condition == cs.Condition && (cd.Delay == nil <==> cs.Delay == nil) && (cs.Delay != nil ==> fresh(cd.Delay)) && (cd.MaxAttempts == nil <==> cs.MaxAttempts == nil) && (cs.MaxAttempts != nil ==> fresh(cd.MaxAttempts)) && (cd.Window == nil <==> cs.Window == nil) && (cs.Window != nil ==> fresh(cd.Window)) && (cd.Extensions == nil <==> cs.Extensions == nil) && (cs.Extensions != nil ==> fresh(cd.Extensions)) && (forall kk string :: has(cd.Extensions, kk) <==> has(cs.Extensions, kk)) && (forall kk string :: has(cs.Extensions, kk) ==> cd.Extensions[kk] == cs.Extensions[kk])
+//@ spec copyOf_Resource(cd Resource, cs Resource) bool = cd.NanoCPUs == cs.NanoCPUs && cd.MemoryBytes == cs.MemoryBytes && cd.Pids == cs.Pids && (cd.Devices == nil <==> cs.Devices == nil) && (cs.Devices != nil ==> fresh(cd.Devices)) && len(cd.Devices) == len(cs.Devices) && (cd.GenericResources == nil <==> cs.GenericResources == nil) && (cs.GenericResources != nil ==> fresh(cd.GenericResources)) && len(cd.GenericResources) == len(cs.GenericResources) && (cd.Extensions == nil <==> cs.Extensions == nil) && (cs.Extensions != nil ==> fresh(cd.Extensions)) && (forall kk string :: has(cd.Extensions, kk) <==> has(cs.Extensions, kk)) && (forall kk string :: has(cs.Extensions, kk) ==> cd.Extensions[kk] == cs.Extensions[kk])
+//@ spec copyOf_PlacementPreferences(cd PlacementPreferences, cs PlacementPreferences) bool = cd.Spread == cs.Spread && (cd.Extensions == nil <==> cs.Extensions == nil) && (cs.Extensions != nil ==> fresh(cd.Extensions)) && (forall kk string :: has(cd.Extensions, kk) <==> has(cs.Extensions, kk)) && (forall kk string :: has(cs.Extensions, kk) ==> cd.Extensions[kk] == cs.Extensions[kk])
+//@ spec copyOf_ServiceNetworkConfig(cd ServiceNetworkConfig, cs ServiceNetworkConfig) bool = cd.Priority == cs.Priority && (cd.Aliases == nil <==> cs.Aliases == nil) && (cs.Aliases != nil ==> fresh(cd.Aliases)) && len(cd.Aliases) == len(cs.Aliases) && cd.Ipv4Address == cs.Ipv4Address && cd.Ipv6Address == cs.Ipv6Address && (cd.LinkLocalIPs == nil <==> cs.LinkLocalIPs == nil) && (cs.LinkLocalIPs != nil ==> fresh(cd.LinkLocalIPs)) && len(cd.LinkLocalIPs) == len(cs.LinkLocalIPs) && cd.MacAddress == cs.MacAddress && (cd.DriverOpts == nil <==> cs.DriverOpts == nil) && (cs.DriverOpts != nil ==> fresh(cd.DriverOpts)) && (forall kk string :: has(cd.DriverOpts, kk) <==> has(cs.DriverOpts, kk)) && (forall kk string :: has(cs.DriverOpts, kk) ==> cd.DriverOpts[kk] == cs.DriverOpts[kk]) && (cd.Extensions == nil <==> cs.Extensions == nil) && (cs.Extensions != nil ==> fresh(cd.Extensions)) && (forall kk string :: has(cd.Extensions, kk) <==> has(cs.Extensions, kk)) && (forall kk string :: has(cs.Extensions, kk) ==> cd.Extensions[kk] == cs.Extensions[kk])
+//@ spec copyOf_UlimitsConfig(cd UlimitsConfig, cs UlimitsConfig) bool = cd.Single == cs.Single && cd.Soft == cs.Soft && cd.Hard == cs.Hard && (cd.Extensions == nil <==> cs.Extensions == nil) && (cs.Extensions != nil ==> fresh(cd.Extensions)) && (forall kk string :: has(cd.Extensions, kk) <==> has(cs.Extensions, kk)) && (forall kk string :: has(cs.Extensions, kk) ==> cd.Extensions[kk] == cs.Extensions[kk])
+//@ spec copyOf_ServiceVolumeBind(cd ServiceVolumeBind, cs ServiceVolumeBind) bool = cd.SELinux == cs.SELinux && cd.Propagation == cs.Propagation && cd.CreateHostPath == cs.CreateHostPath && cd.Recursive == cs.Recursive && (cd.Extensions == nil <==> cs.Extensions == nil) && (cs.Extensions != nil ==> fresh(cd.Extensions)) && (forall kk string :: has(cd.Extensions, kk) <==> has(cs.Extensions, kk)) && (forall kk string :: has(cs.Extensions, kk) ==> cd.Extensions[kk] == cs.Extensions[kk])
+//@ spec copyOf_ServiceVolumeVolume(cd ServiceVolumeVolume, cs ServiceVolumeVolume) bool = cd.NoCopy == cs.NoCopy && cd.Subpath == cs.Subpath && (cd.Extensions == nil <==> cs.Extensions == nil) && (cs.Extensions != nil ==> fresh(cd.Extensions)) && (forall kk string :: has(cd.Extensions, kk) <==> has(cs.Extensions, kk)) && (forall kk string :: has(cs.Extensions, kk) ==> cd.Extensions[kk] == cs.Extensions[kk])
+//@ spec copyOf_ServiceVolumeTmpfs(cd ServiceVolumeTmpfs, cs ServiceVolumeTmpfs) bool = cd.Size == cs.Size && cd.Mode == cs.Mode && (cd.Extensions == nil <==> cs.Extensions == nil) && (cs.Extensions != nil ==> fresh(cd.Extensions)) && (forall kk string :: has(cd.Extensions, kk) <==> has(cs.Extensions, kk)) && (forall kk string :: has(cs.Extensions, kk) ==> cd.Extensions[kk] == cs.Extensions[kk])
+//@ spec copyOf_Trigger(cd Trigger, cs Trigger) bool = cd.Path == cs.Path && cd.Action == cs.Action && cd.Target == cs.Target && (cd.Exec.Command == nil <==> cs.Exec.Command == nil) && (cs.Exec.Command != nil ==> fresh(cd.Exec.Command)) && len(cd.Exec.Command) == len(cs.Exec.Command) && cd.Exec.User == cs.Exec.User && cd.Exec.Privileged == cs.Exec.Privileged && cd.Exec.WorkingDir == cs.Exec.WorkingDir && (cd.Exec.Environment == nil <==> cs.Exec.Environment == nil) && (cs.Exec.Environment != nil ==> fresh(cd.Exec.Environment)) && (forall kk string :: has(cd.Exec.Environment, kk) <==> has(cs.Exec.Environment, kk)) && (cd.Exec.Extensions == nil <==> cs.Exec.Extensions == nil) && (cs.Exec.Extensions != nil ==> fresh(cd.Exec.Extensions)) && (forall kk string :: has(cd.Exec.Extensions, kk) <==> has(cs.Exec.Extensions, kk)) && (forall kk string :: has(cs.Exec.Extensions, kk) ==> cd.Exec.Extensions[kk] == cs.Exec.Extensions[kk]) && (cd.Ignore == nil <==> cs.Ignore == nil) && (cs.Ignore != nil ==> fresh(cd.Ignore)) && len(cd.Ignore) == len(cs.Ignore) && (cd.Extensions == nil <==> cs.Extensions == nil) && (cs.Extensions != nil ==> fresh(cd.Extensions)) && (forall kk string :: has(cd.Extensions, kk) <==> has(cs.Extensions, kk)) && (forall kk string :: has(cs.Extensions, kk) ==> cd.Extensions[kk] == cs.Extensions[kk])
+//@ spec copyOf_WeightDevice(cd WeightDevice, cs WeightDevice) bool = cd.Path == cs.Path && cd.Weight == cs.Weight && (cd.Extensions == nil <==> cs.Extensions == nil) && (cs.Extensions != nil ==> fresh(cd.Extensions)) && (forall kk string :: has(cd.Extensions, kk) <==> has(cs.Extensions, kk)) && (forall kk string :: has(cs.Extensions, kk) ==> cd.Extensions[kk] == cs.Extensions[kk])
+//@ spec copyOf_ThrottleDevice(cd ThrottleDevice, cs ThrottleDevice) bool = cd.Path == cs.Path && cd.Rate == cs.Rate && (cd.Extensions == nil <==> cs.Extensions == nil) && (cs.Extensions != nil ==> fresh(cd.Extensions)) && (forall kk string :: has(cd.Extensions, kk) <==> has(cs.Extensions, kk)) && (forall kk string :: has(cs.Extensions, kk) ==> cd.Extensions[kk] == cs.Extensions[kk])
+//@ spec copyOf_Resources(cd Resources, cs Resources) bool = (cd.Limits == nil <==> cs.Limits == nil) && (cs.Limits != nil ==> fresh(cd.Limits)) && (cd.Reservations == nil <==> cs.Reservations == nil) && (cs.Reservations != nil ==> fresh(cd.Reservations)) && (cd.Extensions == nil <==> cs.Extensions == nil) && (cs.Extensions != nil ==> fresh(cd.Extensions)) && (forall kk string :: has(cd.Extensions, kk) <==> has(cs.Extensions, kk)) && (forall kk string :: has(cs.Extensions, kk) ==> cd.Extensions[kk] == cs.Extensions[kk])
+//@ spec copyOf_Placement(cd Placement, cs Placement) bool = (cd.Constraints == nil <==> cs.Constraints == nil) && (cs.Constraints != nil ==> fresh(cd.Constraints)) && len(cd.Constraints) == len(cs.Constraints) && (cd.Preferences == nil <==> cs.Preferences == nil) && (cs.Preferences != nil ==> fresh(cd.Preferences)) && len(cd.Preferences) == len(cs.Preferences) && cd.MaxReplicas == cs.MaxReplicas && (cd.Extensions == nil <==> cs.Extensions == nil) && (cs.Extensions != nil ==> fresh(cd.Extensions)) && (forall kk string :: has(cd.Extensions, kk) <==> has(cs.Extensions, kk)) && (forall kk string :: has(cs.Extensions, kk) ==> cd.Extensions[kk] == cs.Extensions[kk])
+//@ spec copyOf_IPAMConfig(cd IPAMConfig, cs IPAMConfig) bool = cd.Driver == cs.Driver && (cd.Config == nil <==> cs.Config == nil) && (cs.Config != nil ==> fresh(cd.Config)) && len(cd.Config) == len(cs.Config) && (cd.Extensions == nil <==> cs.Extensions == nil) && (cs.Extensions != nil ==> fresh(cd.Extensions)) && (forall kk string :: has(cd.Extensions, kk) <==> has(cs.Extensions, kk)) && (forall kk string :: has(cs.Extensions, kk) ==> cd.Extensions[kk] == cs.Extensions[kk])
+//@ spec copyOf_GenericResource(cd GenericResource, cs GenericResource) bool = (cd.DiscreteResourceSpec == nil <==> cs.DiscreteResourceSpec == nil) && (cs.DiscreteResourceSpec != nil ==> fresh(cd.DiscreteResourceSpec)) && (cd.Extensions == nil <==> cs.Extensions == nil) && (cs.Extensions != nil ==> fresh(cd.Extensions)) && (forall kk string :: has(cd.Extensions, kk) <==> has(cs.Extensions, kk)) && (forall kk string :: has(cs.Extensions, kk) ==> cd.Extensions[kk] == cs.Extensions[kk])
+//@ spec copyOf_SSHKey(cd SSHKey, cs SSHKey) bool = cd.ID == cs.ID && cd.Path == cs.Path
+//@ spec copyOf_IPAMPool(cd IPAMPool, cs IPAMPool) bool = cd.Subnet == cs.Subnet && cd.Gateway == cs.Gateway && cd.IPRange == cs.IPRange && (cd.AuxiliaryAddresses == nil <==> cs.AuxiliaryAddresses == nil) && (cs.AuxiliaryAddresses != nil ==> fresh(cd.AuxiliaryAddresses)) && (forall kk string :: has(cd.AuxiliaryAddresses, kk) <==> has(cs.AuxiliaryAddresses, kk)) && (forall kk string :: has(cs.AuxiliaryAddresses, kk) ==> cd.AuxiliaryAddresses[kk] == cs.AuxiliaryAddresses[kk]) && (cd.Extensions == nil <==> cs.Extensions == nil) && (cs.Extensions != nil ==> fresh(cd.Extensions)) && (forall kk string :: has(cd.Extensions, kk) <==> has(cs.Extensions, kk)) && (forall kk string :: has(cs.Extensions, kk) ==> cd.Extensions[kk] == cs.Extensions[kk])
+//@ spec copyOf_DiscreteGenericResource(cd DiscreteGenericResource, cs DiscreteGenericResource) bool = cd.Kind == cs.Kind && cd.Value == cs.Value && (cd.Extensions == nil <==> cs.Extensions == nil) && (cs.Extensions != nil ==> fresh(cd.Extensions)) && (forall kk string :: has(cd.Extensions, kk) <==> has(cs.Extensions, kk)) && (forall kk string :: has(cs.Extensions, kk) ==> cd.Extensions[kk] == cs.Extensions[kk])
+
+//@ func deriveDeepCopy
+//@   nopanic[C14,C20]
+//@   requires dst != nil && dst != src
+//@   assigns dst.*
+//@   ensures[C14] forall k string :: has(src, k) ==> has(dst, k)
+//@   ensures[C14] forall k string :: !has(src, k) ==> (has(dst, k) <==> old(has(dst, k)))
+//@   ensures[C14] forall k string :: has(src, k) ==> copyOf_ServiceConfig(dst[k], src[k])
+//@   loop 1
+//@     invariant forall k string :: seen(k) ==> has(src, k) && has(dst, k)
+//@     invariant forall k string :: !seen(k) ==> (has(dst, k) <==> old(has(dst, k)))
+//@     invariant forall k string :: seen(k) ==> copyOf_ServiceConfig(dst[k], src[k])
+
+//@ func deriveDeepCopy$1
+//@   nopanic[C14,C20]
+//@   requires dst != nil
+//@   assigns dst.*
+//@   ensures[C14] has(dst, src_key)
+//@   ensures[C14] forall k string :: k != src_key ==> (has(dst, k) <==> old(has(dst, k))) && dst[k] == old(dst[k])
+//@   ensures[C14] dst[src_key].Name == src_value.Name
+//@   ensures[C14] (dst[src_key].Profiles == nil <==> src_value.Profiles == nil) && (src_value.Profiles != nil ==> fresh(dst[src_key].Profiles)) && len(dst[src_key].Profiles) == len(src_value.Profiles)
+//@   ensures[C14] (dst[src_key].Annotations == nil <==> src_value.Annotations == nil) && (src_value.Annotations != nil ==> fresh(dst[src_key].Annotations))
+//@   ensures[C14] (forall kk string :: has(dst[src_key].Annotations, kk) <==> has(src_value.Annotations, kk))
+//@   ensures[C14] (forall kk string :: has(src_value.Annotations, kk) ==> dst[src_key].Annotations[kk] == src_value.Annotations[kk])
+//@   ensures[C14] (dst[src_key].Attach == nil <==> src_value.Attach == nil) && (src_value.Attach != nil ==> fresh(dst[src_key].Attach))
+//@   ensures[C14] (dst[src_key].Build == nil <==> src_value.Build == nil) && (src_value.Build != nil ==> fresh(dst[src_key].Build))
+//@   ensures[C14] (src_value.Build != nil ==> copyOf_BuildConfig(dst[src_key].Build, src_value.Build))
+//@   ensures[C14] (dst[src_key].Develop == nil <==> src_value.Develop == nil) && (src_value.Develop != nil ==> fresh(dst[src_key].Develop))
+//@   ensures[C14] (src_value.Develop != nil ==> copyOf_DevelopConfig(dst[src_key].Develop, src_value.Develop))
+//@   ensures[C14] (dst[src_key].BlkioConfig == nil <==> src_value.BlkioConfig == nil) && (src_value.BlkioConfig != nil ==> fresh(dst[src_key].BlkioConfig))
+//@   ensures[C14] (src_value.BlkioConfig != nil ==> copyOf_BlkioConfig(dst[src_key].BlkioConfig, src_value.BlkioConfig))
+//@   ensures[C14] (dst[src_key].CapAdd == nil <==> src_value.CapAdd == nil) && (src_value.CapAdd != nil ==> fresh(dst[src_key].CapAdd)) && len(dst[src_key].CapAdd) == len(src_value.CapAdd)
+//@   ensures[C14] (dst[src_key].CapDrop == nil <==> src_value.CapDrop == nil) && (src_value.CapDrop != nil ==> fresh(dst[src_key].CapDrop)) && len(dst[src_key].CapDrop) == len(src_value.CapDrop)
+//@   ensures[C14] dst[src_key].CgroupParent == src_value.CgroupParent
+//@   ensures[C14] dst[src_key].Cgroup == src_value.Cgroup
+//@   ensures[C14] dst[src_key].CPUCount == src_value.CPUCount
+//@   ensures[C14] dst[src_key].CPUPercent == src_value.CPUPercent
+//@   ensures[C14] dst[src_key].CPUPeriod == src_value.CPUPeriod
+//@   ensures[C14] dst[src_key].CPUQuota == src_value.CPUQuota
+//@   ensures[C14] dst[src_key].CPURTPeriod == src_value.CPURTPeriod
+//@   ensures[C14] dst[src_key].CPURTRuntime == src_value.CPURTRuntime
+//@   ensures[C14] dst[src_key].CPUS == src_value.CPUS
+//@   ensures[C14] dst[src_key].CPUSet == src_value.CPUSet
+//@   ensures[C14] dst[src_key].CPUShares == src_value.CPUShares
+//@   ensures[C14] (dst[src_key].Command == nil <==> src_value.Command == nil) && (src_value.Command != nil ==> fresh(dst[src_key].Command)) && len(dst[src_key].Command) == len(src_value.Command)
+//@   ensures[C14] (dst[src_key].Configs == nil <==> src_value.Configs == nil) && (src_value.Configs != nil ==> fresh(dst[src_key].Configs)) && len(dst[src_key].Configs) == len(src_value.Configs)
+//@   ensures[C14] (forall ej int :: 0 <= ej && ej < len(src_value.Configs) ==> copyOf_ServiceConfigObjConfig(dst[src_key].Configs[ej], src_value.Configs[ej]))
+//@   ensures[C14] dst[src_key].ContainerName == src_value.ContainerName
+//@   ensures[C14] (dst[src_key].CredentialSpec == nil <==> src_value.CredentialSpec == nil) && (src_value.CredentialSpec != nil ==> fresh(dst[src_key].CredentialSpec))
+//@   ensures[C14] (src_value.CredentialSpec != nil ==> copyOf_CredentialSpecConfig(dst[src_key].CredentialSpec, src_value.CredentialSpec))
+//@   ensures[C14] (dst[src_key].DependsOn == nil <==> src_value.DependsOn == nil) && (src_value.DependsOn != nil ==> fresh(dst[src_key].DependsOn))
+//@   ensures[C14] (forall kk string :: has(dst[src_key].DependsOn, kk) <==> has(src_value.DependsOn, kk))
+//@   ensures[C14] (forall ee string :: has(src_value.DependsOn, ee) ==> copyOf_ServiceDependency(dst[src_key].DependsOn[ee], src_value.DependsOn[ee]))
+//@   ensures[C14] (dst[src_key].Deploy == nil <==> src_value.Deploy == nil) && (src_value.Deploy != nil ==> fresh(dst[src_key].Deploy))
+//@   ensures[C14] (src_value.Deploy != nil ==> copyOf_DeployConfig(dst[src_key].Deploy, src_value.Deploy))
+//@   ensures[C14] (dst[src_key].DeviceCgroupRules == nil <==> src_value.DeviceCgroupRules == nil) && (src_value.DeviceCgroupRules != nil ==> fresh(dst[src_key].DeviceCgroupRules)) && len(dst[src_key].DeviceCgroupRules) == len(src_value.DeviceCgroupRules)
+//@   ensures[C14] (dst[src_key].Devices == nil <==> src_value.Devices == nil) && (src_value.Devices != nil ==> fresh(dst[src_key].Devices)) && len(dst[src_key].Devices) == len(src_value.Devices)
+//@   ensures[C14] (forall ej int :: 0 <= ej && ej < len(src_value.Devices) ==> copyOf_DeviceMapping(dst[src_key].Devices[ej], src_value.Devices[ej]))
+//@   ensures[C14] (dst[src_key].DNS == nil <==> src_value.DNS == nil) && (src_value.DNS != nil ==> fresh(dst[src_key].DNS)) && len(dst[src_key].DNS) == len(src_value.DNS)
+//@   ensures[C14] (dst[src_key].DNSOpts == nil <==> src_value.DNSOpts == nil) && (src_value.DNSOpts != nil ==> fresh(dst[src_key].DNSOpts)) && len(dst[src_key].DNSOpts) == len(src_value.DNSOpts)
+//@   ensures[C14] (dst[src_key].DNSSearch == nil <==> src_value.DNSSearch == nil) && (src_value.DNSSearch != nil ==> fresh(dst[src_key].DNSSearch)) && len(dst[src_key].DNSSearch) == len(src_value.DNSSearch)
+//@   ensures[C14] dst[src_key].Dockerfile == src_value.Dockerfile
+//@   ensures[C14] dst[src_key].DomainName == src_value.DomainName
+//@   ensures[C14] (dst[src_key].Entrypoint == nil <==> src_value.Entrypoint == nil) && (src_value.Entrypoint != nil ==> fresh(dst[src_key].Entrypoint)) && len(dst[src_key].Entrypoint) == len(src_value.Entrypoint)
+//@   ensures[C14] (dst[src_key].Environment == nil <==> src_value.Environment == nil) && (src_value.Environment != nil ==> fresh(dst[src_key].Environment))
+//@   ensures[C14] (forall kk string :: has(dst[src_key].Environment, kk) <==> has(src_value.Environment, kk))
+//@   ensures[C14] (dst[src_key].EnvFiles == nil <==> src_value.EnvFiles == nil) && (src_value.EnvFiles != nil ==> fresh(dst[src_key].EnvFiles)) && len(dst[src_key].EnvFiles) == len(src_value.EnvFiles)
+//@   ensures[C14] (forall ej int :: 0 <= ej && ej < len(src_value.EnvFiles) ==> copyOf_EnvFile(dst[src_key].EnvFiles[ej], src_value.EnvFiles[ej]))
+//@   ensures[C14] (dst[src_key].Expose == nil <==> src_value.Expose == nil) && (src_value.Expose != nil ==> fresh(dst[src_key].Expose)) && len(dst[src_key].Expose) == len(src_value.Expose)
+//@   ensures[C14] (dst[src_key].Extends == nil <==> src_value.Extends == nil) && (src_value.Extends != nil ==> fresh(dst[src_key].Extends))
+//@   ensures[C14] (src_value.Extends != nil ==> copyOf_ExtendsConfig(dst[src_key].Extends, src_value.Extends))
+//@   ensures[C14] (dst[src_key].ExternalLinks == nil <==> src_value.ExternalLinks == nil) && (src_value.ExternalLinks != nil ==> fresh(dst[src_key].ExternalLinks)) && len(dst[src_key].ExternalLinks) == len(src_value.ExternalLinks)
+//@   ensures[C14] (dst[src_key].ExtraHosts == nil <==> src_value.ExtraHosts == nil) && (src_value.ExtraHosts != nil ==> fresh(dst[src_key].ExtraHosts))
+//@   ensures[C14] (forall kk string :: has(dst[src_key].ExtraHosts, kk) <==> has(src_value.ExtraHosts, kk))
+//@   ensures[C14] (dst[src_key].GroupAdd == nil <==> src_value.GroupAdd == nil) && (src_value.GroupAdd != nil ==> fresh(dst[src_key].GroupAdd)) && len(dst[src_key].GroupAdd) == len(src_value.GroupAdd)
+//@   ensures[C14] (dst[src_key].Gpus == nil <==> src_value.Gpus == nil) && (src_value.Gpus != nil ==> fresh(dst[src_key].Gpus)) && len(dst[src_key].Gpus) == len(src_value.Gpus)
+//@   ensures[C14] (forall ej int :: 0 <= ej && ej < len(src_value.Gpus) ==> copyOf_DeviceRequest(dst[src_key].Gpus[ej], src_value.Gpus[ej]))
+//@   ensures[C14] dst[src_key].Hostname == src_value.Hostname
+//@   ensures[C14] (dst[src_key].HealthCheck == nil <==> src_value.HealthCheck == nil) && (src_value.HealthCheck != nil ==> fresh(dst[src_key].HealthCheck))
+//@   ensures[C14] (src_value.HealthCheck != nil ==> copyOf_HealthCheckConfig(dst[src_key].HealthCheck, src_value.HealthCheck))
+//@   ensures[C14] dst[src_key].Image == src_value.Image
+//@   ensures[C14] (dst[src_key].Init == nil <==> src_value.Init == nil) && (src_value.Init != nil ==> fresh(dst[src_key].Init))
+//@   ensures[C14] dst[src_key].Ipc == src_value.Ipc
+//@   ensures[C14] dst[src_key].Isolation == src_value.Isolation
+//@   ensures[C14] (dst[src_key].Labels == nil <==> src_value.Labels == nil) && (src_value.Labels != nil ==> fresh(dst[src_key].Labels))
+//@   ensures[C14] (forall kk string :: has(dst[src_key].Labels, kk) <==> has(src_value.Labels, kk))
+//@   ensures[C14] (forall kk string :: has(src_value.Labels, kk) ==> dst[src_key].Labels[kk] == src_value.Labels[kk])
+//@   ensures[C14] (dst[src_key].LabelFiles == nil <==> src_value.LabelFiles == nil) && (src_value.LabelFiles != nil ==> fresh(dst[src_key].LabelFiles)) && len(dst[src_key].LabelFiles) == len(src_value.LabelFiles)
+//@   ensures[C14] (dst[src_key].CustomLabels == nil <==> src_value.CustomLabels == nil) && (src_value.CustomLabels != nil ==> fresh(dst[src_key].CustomLabels))
+//@   ensures[C14] (forall kk string :: has(dst[src_key].CustomLabels, kk) <==> has(src_value.CustomLabels, kk))
+//@   ensures[C14] (forall kk string :: has(src_value.CustomLabels, kk) ==> dst[src_key].CustomLabels[kk] == src_value.CustomLabels[kk])
+//@   ensures[C14] (dst[src_key].Links == nil <==> src_value.Links == nil) && (src_value.Links != nil ==> fresh(dst[src_key].Links)) && len(dst[src_key].Links) == len(src_value.Links)
+//@   ensures[C14] (dst[src_key].Logging == nil <==> src_value.Logging == nil) && (src_value.Logging != nil ==> fresh(dst[src_key].Logging))
+//@   ensures[C14] (src_value.Logging != nil ==> copyOf_LoggingConfig(dst[src_key].Logging, src_value.Logging))
+//@   ensures[C14] dst[src_key].LogDriver == src_value.LogDriver
+//@   ensures[C14] (dst[src_key].LogOpt == nil <==> src_value.LogOpt == nil) && (src_value.LogOpt != nil ==> fresh(dst[src_key].LogOpt))
+//@   ensures[C14] (forall kk string :: has(dst[src_key].LogOpt, kk) <==> has(src_value.LogOpt, kk))
+//@   ensures[C14] (forall kk string :: has(src_value.LogOpt, kk) ==> dst[src_key].LogOpt[kk] == src_value.LogOpt[kk])
+//@   ensures[C14] dst[src_key].MemLimit == src_value.MemLimit
+//@   ensures[C14] dst[src_key].MemReservation == src_value.MemReservation
+//@   ensures[C14] dst[src_key].MemSwapLimit == src_value.MemSwapLimit
+//@   ensures[C14] dst[src_key].MemSwappiness == src_value.MemSwappiness
+//@   ensures[C14] dst[src_key].MacAddress == src_value.MacAddress
+//@   ensures[C14] dst[src_key].Net == src_value.Net
+//@   ensures[C14] dst[src_key].NetworkMode == src_value.NetworkMode
+//@   ensures[C14] (dst[src_key].Networks == nil <==> src_value.Networks == nil) && (src_value.Networks != nil ==> fresh(dst[src_key].Networks))
+//@   ensures[C14] (forall kk string :: has(dst[src_key].Networks, kk) <==> has(src_value.Networks, kk))
+//@   ensures[C14] dst[src_key].OomKillDisable == src_value.OomKillDisable
+//@   ensures[C14] dst[src_key].OomScoreAdj == src_value.OomScoreAdj
+//@   ensures[C14] dst[src_key].Pid == src_value.Pid
+//@   ensures[C14] dst[src_key].PidsLimit == src_value.PidsLimit
+//@   ensures[C14] dst[src_key].Platform == src_value.Platform
+//@   ensures[C14] (dst[src_key].Ports == nil <==> src_value.Ports == nil) && (src_value.Ports != nil ==> fresh(dst[src_key].Ports)) && len(dst[src_key].Ports) == len(src_value.Ports)
+//@   ensures[C14] (forall ej int :: 0 <= ej && ej < len(src_value.Ports) ==> copyOf_ServicePortConfig(dst[src_key].Ports[ej], src_value.Ports[ej]))
+//@   ensures[C14] dst[src_key].Privileged == src_value.Privileged
+//@   ensures[C14] dst[src_key].PullPolicy == src_value.PullPolicy
+//@   ensures[C14] dst[src_key].ReadOnly == src_value.ReadOnly
+//@   ensures[C14] dst[src_key].Restart == src_value.Restart
+//@   ensures[C14] dst[src_key].Runtime == src_value.Runtime
+//@   ensures[C14] (dst[src_key].Scale == nil <==> src_value.Scale == nil) && (src_value.Scale != nil ==> fresh(dst[src_key].Scale))
+//@   ensures[C14] (dst[src_key].Secrets == nil <==> src_value.Secrets == nil) && (src_value.Secrets != nil ==> fresh(dst[src_key].Secrets)) && len(dst[src_key].Secrets) == len(src_value.Secrets)
+//@   ensures[C14] (forall ej int :: 0 <= ej && ej < len(src_value.Secrets) ==> copyOf_ServiceSecretConfig(dst[src_key].Secrets[ej], src_value.Secrets[ej]))
+//@   ensures[C14] (dst[src_key].SecurityOpt == nil <==> src_value.SecurityOpt == nil) && (src_value.SecurityOpt != nil ==> fresh(dst[src_key].SecurityOpt)) && len(dst[src_key].SecurityOpt) == len(src_value.SecurityOpt)
+//@   ensures[C14] dst[src_key].ShmSize == src_value.ShmSize
+//@   ensures[C14] dst[src_key].StdinOpen == src_value.StdinOpen
+//@   ensures[C14] (dst[src_key].StopGracePeriod == nil <==> src_value.StopGracePeriod == nil) && (src_value.StopGracePeriod != nil ==> fresh(dst[src_key].StopGracePeriod))
+//@   ensures[C14] dst[src_key].StopSignal == src_value.StopSignal
+//@   ensures[C14] (dst[src_key].StorageOpt == nil <==> src_value.StorageOpt == nil) && (src_value.StorageOpt != nil ==> fresh(dst[src_key].StorageOpt))
+//@   ensures[C14] (forall kk string :: has(dst[src_key].StorageOpt, kk) <==> has(src_value.StorageOpt, kk))
+//@   ensures[C14] (forall kk string :: has(src_value.StorageOpt, kk) ==> dst[src_key].StorageOpt[kk] == src_value.StorageOpt[kk])
+//@   ensures[C14] (dst[src_key].Sysctls == nil <==> src_value.Sysctls == nil) && (src_value.Sysctls != nil ==> fresh(dst[src_key].Sysctls))
+//@   ensures[C14] (forall kk string :: has(dst[src_key].Sysctls, kk) <==> has(src_value.Sysctls, kk))
+//@   ensures[C14] (forall kk string :: has(src_value.Sysctls, kk) ==> dst[src_key].Sysctls[kk] == src_value.Sysctls[kk])
+//@   ensures[C14] (dst[src_key].Tmpfs == nil <==> src_value.Tmpfs == nil) && (src_value.Tmpfs != nil ==> fresh(dst[src_key].Tmpfs)) && len(dst[src_key].Tmpfs) == len(src_value.Tmpfs)
+//@   ensures[C14] dst[src_key].Tty == src_value.Tty
+//@   ensures[C14] (dst[src_key].Ulimits == nil <==> src_value.Ulimits == nil) && (src_value.Ulimits != nil ==> fresh(dst[src_key].Ulimits))
+//@   ensures[C14] (forall kk string :: has(dst[src_key].Ulimits, kk) <==> has(src_value.Ulimits, kk))
+//@   ensures[C14] dst[src_key].User == src_value.User
+//@   ensures[C14] dst[src_key].UserNSMode == src_value.UserNSMode
+//@   ensures[C14] dst[src_key].Uts == src_value.Uts
+//@   ensures[C14] dst[src_key].VolumeDriver == src_value.VolumeDriver
+//@   ensures[C14] (dst[src_key].Volumes == nil <==> src_value.Volumes == nil) && (src_value.Volumes != nil ==> fresh(dst[src_key].Volumes)) && len(dst[src_key].Volumes) == len(src_value.Volumes)
+//@   ensures[C14] (forall ej int :: 0 <= ej && ej < len(src_value.Volumes) ==> copyOf_ServiceVolumeConfig(dst[src_key].Volumes[ej], src_value.Volumes[ej]))
+//@   ensures[C14] (dst[src_key].VolumesFrom == nil <==> src_value.VolumesFrom == nil) && (src_value.VolumesFrom != nil ==> fresh(dst[src_key].VolumesFrom)) && len(dst[src_key].VolumesFrom) == len(src_value.VolumesFrom)
+//@   ensures[C14] dst[src_key].WorkingDir == src_value.WorkingDir
+//@   ensures[C14] (dst[src_key].PostStart == nil <==> src_value.PostStart == nil) && (src_value.PostStart != nil ==> fresh(dst[src_key].PostStart)) && len(dst[src_key].PostStart) == len(src_value.PostStart)
+//@   ensures[C14] (forall ej int :: 0 <= ej && ej < len(src_value.PostStart) ==> copyOf_ServiceHook(dst[src_key].PostStart[ej], src_value.PostStart[ej]))
+//@   ensures[C14] (dst[src_key].PreStop == nil <==> src_value.PreStop == nil) && (src_value.PreStop != nil ==> fresh(dst[src_key].PreStop)) && len(dst[src_key].PreStop) == len(src_value.PreStop)
+//@   ensures[C14] (forall ej int :: 0 <= ej && ej < len(src_value.PreStop) ==> copyOf_ServiceHook(dst[src_key].PreStop[ej], src_value.PreStop[ej]))
+//@   ensures[C14] (dst[src_key].Extensions == nil <==> src_value.Extensions == nil) && (src_value.Extensions != nil ==> fresh(dst[src_key].Extensions))
+//@   ensures[C14] (forall kk string :: has(dst[src_key].Extensions, kk) <==> has(src_value.Extensions, kk))
+//@   ensures[C14] (forall kk string :: has(src_value.Extensions, kk) ==> dst[src_key].Extensions[kk] == src_value.Extensions[kk])
+
+//@ func deriveDeepCopyProject
+//@   nopanic[C14,C20]
+//@   requires dst != nil && src != nil && dst != src
+//@   requires dst.ComposeFiles == nil
+//@   requires dst.Profiles == nil
+//@   assigns dst.*
+//@   ensures[C14] dst.Name == src.Name
+//@   ensures[C14] dst.WorkingDir == src.WorkingDir
+//@   ensures[C14] (dst.Services == nil <==> src.Services == nil) && (src.Services != nil ==> fresh(dst.Services))
+//@   ensures[C14] (forall kk string :: has(dst.Services, kk) <==> has(src.Services, kk))
+//@   ensures[C14] (forall ee string :: has(src.Services, ee) ==> copyOf_ServiceConfig(dst.Services[ee], src.Services[ee]))
+//@   ensures[C14] (dst.Networks == nil <==> src.Networks == nil) && (src.Networks != nil ==> fresh(dst.Networks))
+//@   ensures[C14] (forall kk string :: has(dst.Networks, kk) <==> has(src.Networks, kk))
+//@   ensures[C14] (forall ee string :: has(src.Networks, ee) ==> copyOf_NetworkConfig(dst.Networks[ee], src.Networks[ee]))
+//@   ensures[C14] (dst.Volumes == nil <==> src.Volumes == nil) && (src.Volumes != nil ==> fresh(dst.Volumes))
+//@   ensures[C14] (forall kk string :: has(dst.Volumes, kk) <==> has(src.Volumes, kk))
+//@   ensures[C14] (forall ee string :: has(src.Volumes, ee) ==> copyOf_VolumeConfig(dst.Volumes[ee], src.Volumes[ee]))
+//@   ensures[C14] (dst.Secrets == nil <==> src.Secrets == nil) && (src.Secrets != nil ==> fresh(dst.Secrets))
+//@   ensures[C14] (forall kk string :: has(dst.Secrets, kk) <==> has(src.Secrets, kk))
+//@   ensures[C14] (forall ee string :: has(src.Secrets, ee) ==> copyOf_SecretConfig(dst.Secrets[ee], src.Secrets[ee]))
+//@   ensures[C14] (dst.Configs == nil <==> src.Configs == nil) && (src.Configs != nil ==> fresh(dst.Configs))
+//@   ensures[C14] (forall kk string :: has(dst.Configs, kk) <==> has(src.Configs, kk))
+//@   ensures[C14] (forall ee string :: has(src.Configs, ee) ==> copyOf_ConfigObjConfig(dst.Configs[ee], src.Configs[ee]))
+//@   ensures[C14] (dst.Extensions == nil <==> src.Extensions == nil) && (src.Extensions != nil ==> fresh(dst.Extensions))
+//@   ensures[C14] (forall kk string :: has(dst.Extensions, kk) <==> has(src.Extensions, kk))
+//@   ensures[C14] (forall kk string :: has(src.Extensions, kk) ==> dst.Extensions[kk] == src.Extensions[kk])
+//@   ensures[C14] (dst.ComposeFiles == nil <==> src.ComposeFiles == nil) && (src.ComposeFiles != nil ==> fresh(dst.ComposeFiles)) && len(dst.ComposeFiles) == len(src.ComposeFiles)
+//@   ensures[C14] (dst.Environment == nil <==> src.Environment == nil) && (src.Environment != nil ==> fresh(dst.Environment))
+//@   ensures[C14] (forall kk string :: has(dst.Environment, kk) <==> has(src.Environment, kk))
+//@   ensures[C14] (forall kk string :: has(src.Environment, kk) ==> dst.Environment[kk] == src.Environment[kk])
+//@   ensures[C14] (dst.DisabledServices == nil <==> src.DisabledServices == nil) && (src.DisabledServices != nil ==> fresh(dst.DisabledServices))
+//@   ensures[C14] (forall kk string :: has(dst.DisabledServices, kk) <==> has(src.DisabledServices, kk))
+//@   ensures[C14] (forall ee string :: has(src.DisabledServices, ee) ==> copyOf_ServiceConfig(dst.DisabledServices[ee], src.DisabledServices[ee]))
+//@   ensures[C14] (dst.Profiles == nil <==> src.Profiles == nil) && (src.Profiles != nil ==> fresh(dst.Profiles)) && len(dst.Profiles) == len(src.Profiles)
+//@   ensures[C14] dst.Services == nil || dst.Services != dst.DisabledServices
+
+//@ func deriveDeepCopyService
+//@   nopanic[C14,C20]
+//@   requires dst != nil && src != nil && dst != src
+//@   requires dst.Profiles == nil
+//@   requires dst.CapAdd == nil
+//@   requires dst.CapDrop == nil
+//@   requires dst.Command == nil
+//@   requires dst.Configs == nil
+//@   requires dst.DeviceCgroupRules == nil
+//@   requires dst.Devices == nil
+//@   requires dst.DNS == nil
+//@   requires dst.DNSOpts == nil
+//@   requires dst.DNSSearch == nil
+//@   requires dst.Entrypoint == nil
+//@   requires dst.EnvFiles == nil
+//@   requires dst.Expose == nil
+//@   requires dst.ExternalLinks == nil
+//@   requires dst.GroupAdd == nil
+//@   requires dst.Gpus == nil
+//@   requires dst.LabelFiles == nil
+//@   requires dst.Links == nil
+//@   requires dst.Ports == nil
+//@   requires dst.Secrets == nil
+//@   requires dst.SecurityOpt == nil
+//@   requires dst.Tmpfs == nil
+//@   requires dst.Volumes == nil
+//@   requires dst.VolumesFrom == nil
+//@   requires dst.PostStart == nil
+//@   requires dst.PreStop == nil
+//@   assigns dst.*
+//@   ensures[C14] dst.Name == src.Name
+//@   ensures[C14] (dst.Profiles == nil <==> src.Profiles == nil) && (src.Profiles != nil ==> fresh(dst.Profiles)) && len(dst.Profiles) == len(src.Profiles)
+//@   ensures[C14] (dst.Annotations == nil <==> src.Annotations == nil) && (src.Annotations != nil ==> fresh(dst.Annotations))
+//@   ensures[C14] (forall kk string :: has(dst.Annotations, kk) <==> has(src.Annotations, kk))
+//@   ensures[C14] (forall kk string :: has(src.Annotations, kk) ==> dst.Annotations[kk] == src.Annotations[kk])
+//@   ensures[C14] (dst.Attach == nil <==> src.Attach == nil) && (src.Attach != nil ==> fresh(dst.Attach))
+//@   ensures[C14] (dst.Build == nil <==> src.Build == nil) && (src.Build != nil ==> fresh(dst.Build))
+//@   ensures[C14] (src.Build != nil ==> copyOf_BuildConfig(dst.Build, src.Build))
+//@   ensures[C14] (dst.Develop == nil <==> src.Develop == nil) && (src.Develop != nil ==> fresh(dst.Develop))
+//@   ensures[C14] (src.Develop != nil ==> copyOf_DevelopConfig(dst.Develop, src.Develop))
+//@   ensures[C14] (dst.BlkioConfig == nil <==> src.BlkioConfig == nil) && (src.BlkioConfig != nil ==> fresh(dst.BlkioConfig))
+//@   ensures[C14] (src.BlkioConfig != nil ==> copyOf_BlkioConfig(dst.BlkioConfig, src.BlkioConfig))
+//@   ensures[C14] (dst.CapAdd == nil <==> src.CapAdd == nil) && (src.CapAdd != nil ==> fresh(dst.CapAdd)) && len(dst.CapAdd) == len(src.CapAdd)
+//@   ensures[C14] (dst.CapDrop == nil <==> src.CapDrop == nil) && (src.CapDrop != nil ==> fresh(dst.CapDrop)) && len(dst.CapDrop) == len(src.CapDrop)
+//@   ensures[C14] dst.CgroupParent == src.CgroupParent
+//@   ensures[C14] dst.Cgroup == src.Cgroup
+//@   ensures[C14] dst.CPUCount == src.CPUCount
+//@   ensures[C14] dst.CPUPercent == src.CPUPercent
+//@   ensures[C14] dst.CPUPeriod == src.CPUPeriod
+//@   ensures[C14] dst.CPUQuota == src.CPUQuota
+//@   ensures[C14] dst.CPURTPeriod == src.CPURTPeriod
+//@   ensures[C14] dst.CPURTRuntime == src.CPURTRuntime
+//@   ensures[C14] dst.CPUS == src.CPUS
+//@   ensures[C14] dst.CPUSet == src.CPUSet
+//@   ensures[C14] dst.CPUShares == src.CPUShares
+//@   ensures[C14] (dst.Command == nil <==> src.Command == nil) && (src.Command != nil ==> fresh(dst.Command)) && len(dst.Command) == len(src.Command)
+//@   ensures[C14] (dst.Configs == nil <==> src.Configs == nil) && (src.Configs != nil ==> fresh(dst.Configs)) && len(dst.Configs) == len(src.Configs)
+//@   ensures[C14] (forall ej int :: 0 <= ej && ej < len(src.Configs) ==> copyOf_ServiceConfigObjConfig(dst.Configs[ej], src.Configs[ej]))
+//@   ensures[C14] dst.ContainerName == src.ContainerName
+//@   ensures[C14] (dst.CredentialSpec == nil <==> src.CredentialSpec == nil) && (src.CredentialSpec != nil ==> fresh(dst.CredentialSpec))
+//@   ensures[C14] (src.CredentialSpec != nil ==> copyOf_CredentialSpecConfig(dst.CredentialSpec, src.CredentialSpec))
+//@   ensures[C14] (dst.DependsOn == nil <==> src.DependsOn == nil) && (src.DependsOn != nil ==> fresh(dst.DependsOn))
+//@   ensures[C14] (forall kk string :: has(dst.DependsOn, kk) <==> has(src.DependsOn, kk))
+//@   ensures[C14] (forall ee string :: has(src.DependsOn, ee) ==> copyOf_ServiceDependency(dst.DependsOn[ee], src.DependsOn[ee]))
+//@   ensures[C14] (dst.Deploy == nil <==> src.Deploy == nil) && (src.Deploy != nil ==> fresh(dst.Deploy))
+//@   ensures[C14] (src.Deploy != nil ==> copyOf_DeployConfig(dst.Deploy, src.Deploy))
+//@   ensures[C14] (dst.DeviceCgroupRules == nil <==> src.DeviceCgroupRules == nil) && (src.DeviceCgroupRules != nil ==> fresh(dst.DeviceCgroupRules)) && len(dst.DeviceCgroupRules) == len(src.DeviceCgroupRules)
+//@   ensures[C14] (dst.Devices == nil <==> src.Devices == nil) && (src.Devices != nil ==> fresh(dst.Devices)) && len(dst.Devices) == len(src.Devices)
+//@   ensures[C14] (forall ej int :: 0 <= ej && ej < len(src.Devices) ==> copyOf_DeviceMapping(dst.Devices[ej], src.Devices[ej]))
+//@   ensures[C14] (dst.DNS == nil <==> src.DNS == nil) && (src.DNS != nil ==> fresh(dst.DNS)) && len(dst.DNS) == len(src.DNS)
+//@   ensures[C14] (dst.DNSOpts == nil <==> src.DNSOpts == nil) && (src.DNSOpts != nil ==> fresh(dst.DNSOpts)) && len(dst.DNSOpts) == len(src.DNSOpts)
+//@   ensures[C14] (dst.DNSSearch == nil <==> src.DNSSearch == nil) && (src.DNSSearch != nil ==> fresh(dst.DNSSearch)) && len(dst.DNSSearch) == len(src.DNSSearch)
+//@   ensures[C14] dst.Dockerfile == src.Dockerfile
+//@   ensures[C14] dst.DomainName == src.DomainName
+//@   ensures[C14] (dst.Entrypoint == nil <==> src.Entrypoint == nil) && (src.Entrypoint != nil ==> fresh(dst.Entrypoint)) && len(dst.Entrypoint) == len(src.Entrypoint)
+//@   ensures[C14] (dst.Environment == nil <==> src.Environment == nil) && (src.Environment != nil ==> fresh(dst.Environment))
+//@   ensures[C14] (forall kk string :: has(dst.Environment, kk) <==> has(src.Environment, kk))
+//@   ensures[C14] (dst.EnvFiles == nil <==> src.EnvFiles == nil) && (src.EnvFiles != nil ==> fresh(dst.EnvFiles)) && len(dst.EnvFiles) == len(src.EnvFiles)
+//@   ensures[C14] (forall ej int :: 0 <= ej && ej < len(src.EnvFiles) ==> copyOf_EnvFile(dst.EnvFiles[ej], src.EnvFiles[ej]))
+//@   ensures[C14] (dst.Expose == nil <==> src.Expose == nil) && (src.Expose != nil ==> fresh(dst.Expose)) && len(dst.Expose) == len(src.Expose)
+//@   ensures[C14] (dst.Extends == nil <==> src.Extends == nil) && (src.Extends != nil ==> fresh(dst.Extends))
+//@   ensures[C14] (src.Extends != nil ==> copyOf_ExtendsConfig(dst.Extends, src.Extends))
+//@   ensures[C14] (dst.ExternalLinks == nil <==> src.ExternalLinks == nil) && (src.ExternalLinks != nil ==> fresh(dst.ExternalLinks)) && len(dst.ExternalLinks) == len(src.ExternalLinks)
+//@   ensures[C14] (dst.ExtraHosts == nil <==> src.ExtraHosts == nil) && (src.ExtraHosts != nil ==> fresh(dst.ExtraHosts))
+//@   ensures[C14] (forall kk string :: has(dst.ExtraHosts, kk) <==> has(src.ExtraHosts, kk))
+//@   ensures[C14] (dst.GroupAdd == nil <==> src.GroupAdd == nil) && (src.GroupAdd != nil ==> fresh(dst.GroupAdd)) && len(dst.GroupAdd) == len(src.GroupAdd)
+//@   ensures[C14] (dst.Gpus == nil <==> src.Gpus == nil) && (src.Gpus != nil ==> fresh(dst.Gpus)) && len(dst.Gpus) == len(src.Gpus)
+//@   ensures[C14] (forall ej int :: 0 <= ej && ej < len(src.Gpus) ==> copyOf_DeviceRequest(dst.Gpus[ej], src.Gpus[ej]))
+//@   ensures[C14] dst.Hostname == src.Hostname
+//@   ensures[C14] (dst.HealthCheck == nil <==> src.HealthCheck == nil) && (src.HealthCheck != nil ==> fresh(dst.HealthCheck))
+//@   ensures[C14] (src.HealthCheck != nil ==> copyOf_HealthCheckConfig(dst.HealthCheck, src.HealthCheck))
+//@   ensures[C14] dst.Image == src.Image
+//@   ensures[C14] (dst.Init == nil <==> src.Init == nil) && (src.Init != nil ==> fresh(dst.Init))
+//@   ensures[C14] dst.Ipc == src.Ipc
+//@   ensures[C14] dst.Isolation == src.Isolation
+//@   ensures[C14] (dst.Labels == nil <==> src.Labels == nil) && (src.Labels != nil ==> fresh(dst.Labels))
+//@   ensures[C14] (forall kk string :: has(dst.Labels, kk) <==> has(src.Labels, kk))
+//@   ensures[C14] (forall kk string :: has(src.Labels, kk) ==> dst.Labels[kk] == src.Labels[kk])
+//@   ensures[C14] (dst.LabelFiles == nil <==> src.LabelFiles == nil) && (src.LabelFiles != nil ==> fresh(dst.LabelFiles)) && len(dst.LabelFiles) == len(src.LabelFiles)
+//@   ensures[C14] (dst.CustomLabels == nil <==> src.CustomLabels == nil) && (src.CustomLabels != nil ==> fresh(dst.CustomLabels))
+//@   ensures[C14] (forall kk string :: has(dst.CustomLabels, kk) <==> has(src.CustomLabels, kk))
+//@   ensures[C14] (forall kk string :: has(src.CustomLabels, kk) ==> dst.CustomLabels[kk] == src.CustomLabels[kk])
+//@   ensures[C14] (dst.Links == nil <==> src.Links == nil) && (src.Links != nil ==> fresh(dst.Links)) && len(dst.Links) == len(src.Links)
+//@   ensures[C14] (dst.Logging == nil <==> src.Logging == nil) && (src.Logging != nil ==> fresh(dst.Logging))
+//@   ensures[C14] (src.Logging != nil ==> copyOf_LoggingConfig(dst.Logging, src.Logging))
+//@   ensures[C14] dst.LogDriver == src.LogDriver
+//@   ensures[C14] (dst.LogOpt == nil <==> src.LogOpt == nil) && (src.LogOpt != nil ==> fresh(dst.LogOpt))
+//@   ensures[C14] (forall kk string :: has(dst.LogOpt, kk) <==> has(src.LogOpt, kk))
+//@   ensures[C14] (forall kk string :: has(src.LogOpt, kk) ==> dst.LogOpt[kk] == src.LogOpt[kk])
+//@   ensures[C14] dst.MemLimit == src.MemLimit
+//@   ensures[C14] dst.MemReservation == src.MemReservation
+//@   ensures[C14] dst.MemSwapLimit == src.MemSwapLimit
+//@   ensures[C14] dst.MemSwappiness == src.MemSwappiness
+//@   ensures[C14] dst.MacAddress == src.MacAddress
+//@   ensures[C14] dst.Net == src.Net
+//@   ensures[C14] dst.NetworkMode == src.NetworkMode
+//@   ensures[C14] (dst.Networks == nil <==> src.Networks == nil) && (src.Networks != nil ==> fresh(dst.Networks))
+//@   ensures[C14] (forall kk string :: has(dst.Networks, kk) <==> has(src.Networks, kk))
+//@   ensures[C14] dst.OomKillDisable == src.OomKillDisable
+//@   ensures[C14] dst.OomScoreAdj == src.OomScoreAdj
+//@   ensures[C14] dst.Pid == src.Pid
+//@   ensures[C14] dst.PidsLimit == src.PidsLimit
+//@   ensures[C14] dst.Platform == src.Platform
+//@   ensures[C14] (dst.Ports == nil <==> src.Ports == nil) && (src.Ports != nil ==> fresh(dst.Ports)) && len(dst.Ports) == len(src.Ports)
+//@   ensures[C14] (forall ej int :: 0 <= ej && ej < len(src.Ports) ==> copyOf_ServicePortConfig(dst.Ports[ej], src.Ports[ej]))
+//@   ensures[C14] dst.Privileged == src.Privileged
+//@   ensures[C14] dst.PullPolicy == src.PullPolicy
+//@   ensures[C14] dst.ReadOnly == src.ReadOnly
+//@   ensures[C14] dst.Restart == src.Restart
+//@   ensures[C14] dst.Runtime == src.Runtime
+//@   ensures[C14] (dst.Scale == nil <==> src.Scale == nil) && (src.Scale != nil ==> fresh(dst.Scale))
+//@   ensures[C14] (dst.Secrets == nil <==> src.Secrets == nil) && (src.Secrets != nil ==> fresh(dst.Secrets)) && len(dst.Secrets) == len(src.Secrets)
+//@   ensures[C14] (forall ej int :: 0 <= ej && ej < len(src.Secrets) ==> copyOf_ServiceSecretConfig(dst.Secrets[ej], src.Secrets[ej]))
+//@   ensures[C14] (dst.SecurityOpt == nil <==> src.SecurityOpt == nil) && (src.SecurityOpt != nil ==> fresh(dst.SecurityOpt)) && len(dst.SecurityOpt) == len(src.SecurityOpt)
+//@   ensures[C14] dst.ShmSize == src.ShmSize
+//@   ensures[C14] dst.StdinOpen == src.StdinOpen
+//@   ensures[C14] (dst.StopGracePeriod == nil <==> src.StopGracePeriod == nil) && (src.StopGracePeriod != nil ==> fresh(dst.StopGracePeriod))
+//@   ensures[C14] dst.StopSignal == src.StopSignal
+//@   ensures[C14] (dst.StorageOpt == nil <==> src.StorageOpt == nil) && (src.StorageOpt != nil ==> fresh(dst.StorageOpt))
+//@   ensures[C14] (forall kk string :: has(dst.StorageOpt, kk) <==> has(src.StorageOpt, kk))
+//@   ensures[C14] (forall kk string :: has(src.StorageOpt, kk) ==> dst.StorageOpt[kk] == src.StorageOpt[kk])
+//@   ensures[C14] (dst.Sysctls == nil <==> src.Sysctls == nil) && (src.Sysctls != nil ==> fresh(dst.Sysctls))
+//@   ensures[C14] (forall kk string :: has(dst.Sysctls, kk) <==> has(src.Sysctls, kk))
+//@   ensures[C14] (forall kk string :: has(src.Sysctls, kk) ==> dst.Sysctls[kk] == src.Sysctls[kk])
+//@   ensures[C14] (dst.Tmpfs == nil <==> src.Tmpfs == nil) && (src.Tmpfs != nil ==> fresh(dst.Tmpfs)) && len(dst.Tmpfs) == len(src.Tmpfs)
+//@   ensures[C14] dst.Tty == src.Tty
+//@   ensures[C14] (dst.Ulimits == nil <==> src.Ulimits == nil) && (src.Ulimits != nil ==> fresh(dst.Ulimits))
+//@   ensures[C14] (forall kk string :: has(dst.Ulimits, kk) <==> has(src.Ulimits, kk))
+//@   ensures[C14] dst.User == src.User
+//@   ensures[C14] dst.UserNSMode == src.UserNSMode
+//@   ensures[C14] dst.Uts == src.Uts
+//@   ensures[C14] dst.VolumeDriver == src.VolumeDriver
+//@   ensures[C14] (dst.Volumes == nil <==> src.Volumes == nil) && (src.Volumes != nil ==> fresh(dst.Volumes)) && len(dst.Volumes) == len(src.Volumes)
+//@   ensures[C14] (forall ej int :: 0 <= ej && ej < len(src.Volumes) ==> copyOf_ServiceVolumeConfig(dst.Volumes[ej], src.Volumes[ej]))
+//@   ensures[C14] (dst.VolumesFrom == nil <==> src.VolumesFrom == nil) && (src.VolumesFrom != nil ==> fresh(dst.VolumesFrom)) && len(dst.VolumesFrom) == len(src.VolumesFrom)
+//@   ensures[C14] dst.WorkingDir == src.WorkingDir
+//@   ensures[C14] (dst.PostStart == nil <==> src.PostStart == nil) && (src.PostStart != nil ==> fresh(dst.PostStart)) && len(dst.PostStart) == len(src.PostStart)
+//@   ensures[C14] (forall ej int :: 0 <= ej && ej < len(src.PostStart) ==> copyOf_ServiceHook(dst.PostStart[ej], src.PostStart[ej]))
+//@   ensures[C14] (dst.PreStop == nil <==> src.PreStop == nil) && (src.PreStop != nil ==> fresh(dst.PreStop)) && len(dst.PreStop) == len(src.PreStop)
+//@   ensures[C14] (forall ej int :: 0 <= ej && ej < len(src.PreStop) ==> copyOf_ServiceHook(dst.PreStop[ej], src.PreStop[ej]))
+//@   ensures[C14] (dst.Extensions == nil <==> src.Extensions == nil) && (src.Extensions != nil ==> fresh(dst.Extensions))
+//@   ensures[C14] (forall kk string :: has(dst.Extensions, kk) <==> has(src.Extensions, kk))
+//@   ensures[C14] (forall kk string :: has(src.Extensions, kk) ==> dst.Extensions[kk] == src.Extensions[kk])
+//@   ensures[C14] dst.Annotations == nil || dst.Annotations != dst.Sysctls
+//@   ensures[C14] dst.Labels == nil || dst.Labels != dst.CustomLabels
+//@   ensures[C14] dst.LogOpt == nil || dst.LogOpt != dst.StorageOpt
+
+//@ func deriveDeepCopy_
+//@   nopanic[C14,C20]
+//@   requires dst != nil && dst != src
+//@   assigns dst.*
+//@   ensures[C14] forall k string :: has(src, k) ==> has(dst, k)
+//@   ensures[C14] forall k string :: !has(src, k) ==> (has(dst, k) <==> old(has(dst, k)))
+//@   ensures[C14] forall k string :: has(src, k) ==> copyOf_NetworkConfig(dst[k], src[k])
+//@   loop 1
+//@     invariant forall k string :: seen(k) ==> has(src, k) && has(dst, k)
+//@     invariant forall k string :: !seen(k) ==> (has(dst, k) <==> old(has(dst, k)))
+//@     invariant forall k string :: seen(k) ==> copyOf_NetworkConfig(dst[k], src[k])
+
+//@ func deriveDeepCopy_$1
+//@   nopanic[C14,C20]
+//@   requires dst != nil
+//@   assigns dst.*
+//@   ensures[C14] has(dst, src_key)
+//@   ensures[C14] forall k string :: k != src_key ==> (has(dst, k) <==> old(has(dst, k))) && dst[k] == old(dst[k])
+//@   ensures[C14] dst[src_key].Name == src_value.Name
+//@   ensures[C14] dst[src_key].Driver == src_value.Driver
+//@   ensures[C14] (dst[src_key].DriverOpts == nil <==> src_value.DriverOpts == nil) && (src_value.DriverOpts != nil ==> fresh(dst[src_key].DriverOpts))
+//@   ensures[C14] (forall kk string :: has(dst[src_key].DriverOpts, kk) <==> has(src_value.DriverOpts, kk))
+//@   ensures[C14] (forall kk string :: has(src_value.DriverOpts, kk) ==> dst[src_key].DriverOpts[kk] == src_value.DriverOpts[kk])
+//@   ensures[C14] dst[src_key].Ipam.Driver == src_value.Ipam.Driver
+//@   ensures[C14] (dst[src_key].Ipam.Config == nil <==> src_value.Ipam.Config == nil) && (src_value.Ipam.Config != nil ==> fresh(dst[src_key].Ipam.Config)) && len(dst[src_key].Ipam.Config) == len(src_value.Ipam.Config)
+//@   ensures[C14] (dst[src_key].Ipam.Extensions == nil <==> src_value.Ipam.Extensions == nil) && (src_value.Ipam.Extensions != nil ==> fresh(dst[src_key].Ipam.Extensions))
+//@   ensures[C14] (forall kk string :: has(dst[src_key].Ipam.Extensions, kk) <==> has(src_value.Ipam.Extensions, kk))
+//@   ensures[C14] (forall kk string :: has(src_value.Ipam.Extensions, kk) ==> dst[src_key].Ipam.Extensions[kk] == src_value.Ipam.Extensions[kk])
+//@   ensures[C14] dst[src_key].External == src_value.External
+//@   ensures[C14] dst[src_key].Internal == src_value.Internal
+//@   ensures[C14] dst[src_key].Attachable == src_value.Attachable
+//@   ensures[C14] (dst[src_key].Labels == nil <==> src_value.Labels == nil) && (src_value.Labels != nil ==> fresh(dst[src_key].Labels))
+//@   ensures[C14] (forall kk string :: has(dst[src_key].Labels, kk) <==> has(src_value.Labels, kk))
+//@   ensures[C14] (forall kk string :: has(src_value.Labels, kk) ==> dst[src_key].Labels[kk] == src_value.Labels[kk])
+//@   ensures[C14] (dst[src_key].CustomLabels == nil <==> src_value.CustomLabels == nil) && (src_value.CustomLabels != nil ==> fresh(dst[src_key].CustomLabels))
+//@   ensures[C14] (forall kk string :: has(dst[src_key].CustomLabels, kk) <==> has(src_value.CustomLabels, kk))
+//@   ensures[C14] (forall kk string :: has(src_value.CustomLabels, kk) ==> dst[src_key].CustomLabels[kk] == src_value.CustomLabels[kk])
+//@   ensures[C14] (dst[src_key].EnableIPv6 == nil <==> src_value.EnableIPv6 == nil) && (src_value.EnableIPv6 != nil ==> fresh(dst[src_key].EnableIPv6))
+//@   ensures[C14] (dst[src_key].Extensions == nil <==> src_value.Extensions == nil) && (src_value.Extensions != nil ==> fresh(dst[src_key].Extensions))
+//@   ensures[C14] (forall kk string :: has(dst[src_key].Extensions, kk) <==> has(src_value.Extensions, kk))
+//@   ensures[C14] (forall kk string :: has(src_value.Extensions, kk) ==> dst[src_key].Extensions[kk] == src_value.Extensions[kk])
+
+//@ func deriveDeepCopy_1
+//@   nopanic[C14,C20]
+//@   requires dst != nil && dst != src
+//@   assigns dst.*
+//@   ensures[C14] forall k string :: has(src, k) ==> has(dst, k)
+//@   ensures[C14] forall k string :: !has(src, k) ==> (has(dst, k) <==> old(has(dst, k)))
+//@   ensures[C14] forall k string :: has(src, k) ==> copyOf_VolumeConfig(dst[k], src[k])
+//@   loop 1
+//@     invariant forall k string :: seen(k) ==> has(src, k) && has(dst, k)
+//@     invariant forall k string :: !seen(k) ==> (has(dst, k) <==> old(has(dst, k)))
+//@     invariant forall k string :: seen(k) ==> copyOf_VolumeConfig(dst[k], src[k])
+
+//@ func deriveDeepCopy_1$1
+//@   nopanic[C14,C20]
+//@   requires dst != nil
+//@   assigns dst.*
+//@   ensures[C14] has(dst, src_key)
+//@   ensures[C14] forall k string :: k != src_key ==> (has(dst, k) <==> old(has(dst, k))) && dst[k] == old(dst[k])
+//@   ensures[C14] dst[src_key].Name == src_value.Name
+//@   ensures[C14] dst[src_key].Driver == src_value.Driver
+//@   ensures[C14] (dst[src_key].DriverOpts == nil <==> src_value.DriverOpts == nil) && (src_value.DriverOpts != nil ==> fresh(dst[src_key].DriverOpts))
+//@   ensures[C14] (forall kk string :: has(dst[src_key].DriverOpts, kk) <==> has(src_value.DriverOpts, kk))
+//@   ensures[C14] (forall kk string :: has(src_value.DriverOpts, kk) ==> dst[src_key].DriverOpts[kk] == src_value.DriverOpts[kk])
+//@   ensures[C14] dst[src_key].External == src_value.External
+//@   ensures[C14] (dst[src_key].Labels == nil <==> src_value.Labels == nil) && (src_value.Labels != nil ==> fresh(dst[src_key].Labels))
+//@   ensures[C14] (forall kk string :: has(dst[src_key].Labels, kk) <==> has(src_value.Labels, kk))
+//@   ensures[C14] (forall kk string :: has(src_value.Labels, kk) ==> dst[src_key].Labels[kk] == src_value.Labels[kk])
+//@   ensures[C14] (dst[src_key].CustomLabels == nil <==> src_value.CustomLabels == nil) && (src_value.CustomLabels != nil ==> fresh(dst[src_key].CustomLabels))
+//@   ensures[C14] (forall kk string :: has(dst[src_key].CustomLabels, kk) <==> has(src_value.CustomLabels, kk))
+//@   ensures[C14] (forall kk string :: has(src_value.CustomLabels, kk) ==> dst[src_key].CustomLabels[kk] == src_value.CustomLabels[kk])
+//@   ensures[C14] (dst[src_key].Extensions == nil <==> src_value.Extensions == nil) && (src_value.Extensions != nil ==> fresh(dst[src_key].Extensions))
+//@   ensures[C14] (forall kk string :: has(dst[src_key].Extensions, kk) <==> has(src_value.Extensions, kk))
+//@   ensures[C14] (forall kk string :: has(src_value.Extensions, kk) ==> dst[src_key].Extensions[kk] == src_value.Extensions[kk])
+
+//@ func deriveDeepCopy_10
+//@   nopanic[C14,C20]
+//@   requires dst != nil && dst != src
+//@   assigns dst.*
+//@   ensures[C14] forall k string :: has(src, k) ==> has(dst, k)
+//@   ensures[C14] forall k string :: !has(src, k) ==> (has(dst, k) <==> old(has(dst, k)))
+//@   ensures[C14] forall k string :: has(src, k) ==> copyOf_ServiceDependency(dst[k], src[k])
+//@   loop 1
+//@     invariant forall k string :: seen(k) ==> has(src, k) && has(dst, k)
+//@     invariant forall k string :: !seen(k) ==> (has(dst, k) <==> old(has(dst, k)))
+//@     invariant forall k string :: seen(k) ==> copyOf_ServiceDependency(dst[k], src[k])
+
+//@ func deriveDeepCopy_10$1
+//@   nopanic[C14,C20]
+//@   requires dst != nil
+//@   assigns dst.*
+//@   ensures[C14] has(dst, src_key)
+//@   ensures[C14] forall k string :: k != src_key ==> (has(dst, k) <==> old(has(dst, k))) && dst[k] == old(dst[k])
+//@   ensures[C14] dst[src_key].Condition == src_value.Condition
+//@   ensures[C14] dst[src_key].Restart == src_value.Restart
+//@   ensures[C14] (dst[src_key].Extensions == nil <==> src_value.Extensions == nil) && (src_value.Extensions != nil ==> fresh(dst[src_key].Extensions))
+//@   ensures[C14] (forall kk string :: has(dst[src_key].Extensions, kk) <==> has(src_value.Extensions, kk))
+//@   ensures[C14] (forall kk string :: has(src_value.Extensions, kk) ==> dst[src_key].Extensions[kk] == src_value.Extensions[kk])
+//@   ensures[C14] dst[src_key].Required == src_value.Required
+
+//@ func deriveDeepCopy_11
+//@   nopanic[C14,C20]
+//@   requires dst != nil && src != nil && dst != src
+//@   requires dst.Placement.Constraints == nil
+//@   requires dst.Placement.Preferences == nil
+//@   assigns dst.*
+//@   ensures[C14] dst.Mode == src.Mode
+//@   ensures[C14] (dst.Replicas == nil <==> src.Replicas == nil) && (src.Replicas != nil ==> fresh(dst.Replicas))
+//@   ensures[C14] (dst.Labels == nil <==> src.Labels == nil) && (src.Labels != nil ==> fresh(dst.Labels))
+//@   ensures[C14] (forall kk string :: has(dst.Labels, kk) <==> has(src.Labels, kk))
+//@   ensures[C14] (forall kk string :: has(src.Labels, kk) ==> dst.Labels[kk] == src.Labels[kk])
+//@   ensures[C14] (dst.UpdateConfig == nil <==> src.UpdateConfig == nil) && (src.UpdateConfig != nil ==> fresh(dst.UpdateConfig))
+//@   ensures[C14] (src.UpdateConfig != nil ==> copyOf_UpdateConfig(dst.UpdateConfig, src.UpdateConfig))
+//@   ensures[C14] (dst.RollbackConfig == nil <==> src.RollbackConfig == nil) && (src.RollbackConfig != nil ==> fresh(dst.RollbackConfig))
+//@   ensures[C14] (src.RollbackConfig != nil ==> copyOf_UpdateConfig(dst.RollbackConfig, src.RollbackConfig))
+//@   ensures[C14] (dst.Resources.Limits == nil <==> src.Resources.Limits == nil) && (src.Resources.Limits != nil ==> fresh(dst.Resources.Limits))
+//@   ensures[C14] (dst.Resources.Reservations == nil <==> src.Resources.Reservations == nil) && (src.Resources.Reservations != nil ==> fresh(dst.Resources.Reservations))
+//@   ensures[C14] (dst.Resources.Extensions == nil <==> src.Resources.Extensions == nil) && (src.Resources.Extensions != nil ==> fresh(dst.Resources.Extensions))
+//@   ensures[C14] (forall kk string :: has(dst.Resources.Extensions, kk) <==> has(src.Resources.Extensions, kk))
+//@   ensures[C14] (forall kk string :: has(src.Resources.Extensions, kk) ==> dst.Resources.Extensions[kk] == src.Resources.Extensions[kk])
+//@   ensures[C14] (dst.RestartPolicy == nil <==> src.RestartPolicy == nil) && (src.RestartPolicy != nil ==> fresh(dst.RestartPolicy))
+//@   ensures[C14] (src.RestartPolicy != nil ==> copyOf_RestartPolicy(dst.RestartPolicy, src.RestartPolicy))
+//@   ensures[C14] (dst.Placement.Constraints == nil <==> src.Placement.Constraints == nil) && (src.Placement.Constraints != nil ==> fresh(dst.Placement.Constraints)) && len(dst.Placement.Constraints) == len(src.Placement.Constraints)
+//@   ensures[C14] (dst.Placement.Preferences == nil <==> src.Placement.Preferences == nil) && (src.Placement.Preferences != nil ==> fresh(dst.Placement.Preferences)) && len(dst.Placement.Preferences) == len(src.Placement.Preferences)
+//@   ensures[C14] dst.Placement.MaxReplicas == src.Placement.MaxReplicas
+//@   ensures[C14] (dst.Placement.Extensions == nil <==> src.Placement.Extensions == nil) && (src.Placement.Extensions != nil ==> fresh(dst.Placement.Extensions))
+//@   ensures[C14] (forall kk string :: has(dst.Placement.Extensions, kk) <==> has(src.Placement.Extensions, kk))
+//@   ensures[C14] (forall kk string :: has(src.Placement.Extensions, kk) ==> dst.Placement.Extensions[kk] == src.Placement.Extensions[kk])
+//@   ensures[C14] dst.EndpointMode == src.EndpointMode
+//@   ensures[C14] (dst.Extensions == nil <==> src.Extensions == nil) && (src.Extensions != nil ==> fresh(dst.Extensions))
+//@   ensures[C14] (forall kk string :: has(dst.Extensions, kk) <==> has(src.Extensions, kk))
+//@   ensures[C14] (forall kk string :: has(src.Extensions, kk) ==> dst.Extensions[kk] == src.Extensions[kk])
+
+//@ func deriveDeepCopy_11$1
+//@   nopanic[C14,C20]
+//@   requires dst != nil && src != nil && dst != src
+//@   assigns dst.Resources
+//@   ensures[C14] (dst.Resources.Limits == nil <==> src.Resources.Limits == nil) && (src.Resources.Limits != nil ==> fresh(dst.Resources.Limits))
+//@   ensures[C14] (src.Resources.Limits != nil ==> copyOf_Resource(dst.Resources.Limits, src.Resources.Limits))
+//@   ensures[C14] (dst.Resources.Reservations == nil <==> src.Resources.Reservations == nil) && (src.Resources.Reservations != nil ==> fresh(dst.Resources.Reservations))
+//@   ensures[C14] (src.Resources.Reservations != nil ==> copyOf_Resource(dst.Resources.Reservations, src.Resources.Reservations))
+//@   ensures[C14] (dst.Resources.Extensions == nil <==> src.Resources.Extensions == nil) && (src.Resources.Extensions != nil ==> fresh(dst.Resources.Extensions))
+//@   ensures[C14] (forall kk string :: has(dst.Resources.Extensions, kk) <==> has(src.Resources.Extensions, kk))
+//@   ensures[C14] (forall kk string :: has(src.Resources.Extensions, kk) ==> dst.Resources.Extensions[kk] == src.Resources.Extensions[kk])
+
+//@ func deriveDeepCopy_11$2
+//@   nopanic[C14,C20]
+//@   requires dst != nil && src != nil && dst != src
+//@   assigns dst.Placement
+//@   ensures[C14] (dst.Placement.Constraints == nil <==> src.Placement.Constraints == nil) && (src.Placement.Constraints != nil ==> fresh(dst.Placement.Constraints)) && len(dst.Placement.Constraints) == len(src.Placement.Constraints)
+//@   ensures[C14] (dst.Placement.Preferences == nil <==> src.Placement.Preferences == nil) && (src.Placement.Preferences != nil ==> fresh(dst.Placement.Preferences)) && len(dst.Placement.Preferences) == len(src.Placement.Preferences)
+//@   ensures[C14] (forall ej int :: 0 <= ej && ej < len(src.Placement.Preferences) ==> copyOf_PlacementPreferences(dst.Placement.Preferences[ej], src.Placement.Preferences[ej]))
+//@   ensures[C14] dst.Placement.MaxReplicas == src.Placement.MaxReplicas
+//@   ensures[C14] (dst.Placement.Extensions == nil <==> src.Placement.Extensions == nil) && (src.Placement.Extensions != nil ==> fresh(dst.Placement.Extensions))
+//@   ensures[C14] (forall kk string :: has(dst.Placement.Extensions, kk) <==> has(src.Placement.Extensions, kk))
+//@   ensures[C14] (forall kk string :: has(src.Placement.Extensions, kk) ==> dst.Placement.Extensions[kk] == src.Placement.Extensions[kk])
+
+//@ func deriveDeepCopy_12
+//@   nopanic[C14,C20]
+//@   requires len(dst) >= len(src) && (len(src) > 0 ==> dst != src)
+//@   assigns dst.*
+//@   ensures[C14] forall j int :: 0 <= j && j < len(src) ==> copyOf_DeviceMapping(dst[j], src[j])
+//@   loop 1
+//@     invariant -1 <= rangeindex && rangeindex < len(src)
+//@     invariant forall j int :: 0 <= j && j <= rangeindex ==> copyOf_DeviceMapping(dst[j], src[j])
+
+//@ func deriveDeepCopy_12$1
+//@   nopanic[C14,C20]
+//@   requires 0 <= src_i && src_i < len(dst)
+//@   assigns dst.*
+//@   ensures[C14] forall j int :: j != src_i ==> dst[j] == old(dst[j])
+//@   ensures[C14] dst[src_i].Source == src_value.Source
+//@   ensures[C14] dst[src_i].Target == src_value.Target
+//@   ensures[C14] dst[src_i].Permissions == src_value.Permissions
+//@   ensures[C14] (dst[src_i].Extensions == nil <==> src_value.Extensions == nil) && (src_value.Extensions != nil ==> fresh(dst[src_i].Extensions))
+//@   ensures[C14] (forall kk string :: has(dst[src_i].Extensions, kk) <==> has(src_value.Extensions, kk))
+//@   ensures[C14] (forall kk string :: has(src_value.Extensions, kk) ==> dst[src_i].Extensions[kk] == src_value.Extensions[kk])
+
+//@ func deriveDeepCopy_13
+//@   nopanic[C14,C20]
+//@   requires dst != nil && dst != src
+//@   assigns dst.*
+//@   ensures[C14] forall k string :: has(src, k) ==> has(dst, k)
+//@   ensures[C14] forall k string :: !has(src, k) ==> (has(dst, k) <==> old(has(dst, k)))
+//@   ensures[C14] forall k string :: has(src, k) ==> (dst[k] == nil <==> src[k] == nil) && (src[k] != nil ==> fresh(dst[k]))
+//@   loop 1
+//@     invariant forall k string :: seen(k) ==> has(src, k) && has(dst, k)
+//@     invariant forall k string :: !seen(k) ==> (has(dst, k) <==> old(has(dst, k)))
+//@     invariant forall k string :: seen(k) ==> (dst[k] == nil <==> src[k] == nil) && (src[k] != nil ==> fresh(dst[k]))
+
+//@ func deriveDeepCopy_14
+//@   nopanic[C14,C20]
+//@   requires dst != nil && dst != src
+//@   assigns dst.*
+//@   ensures[C14] forall k string :: has(src, k) ==> has(dst, k)
+//@   ensures[C14] forall k string :: !has(src, k) ==> (has(dst, k) <==> old(has(dst, k)))
+//@   ensures[C14] forall k string :: has(src, k) ==> (dst[k] == nil <==> src[k] == nil) && (src[k] != nil ==> fresh(dst[k])) && len(dst[k]) == len(src[k])
+//@   loop 1
+//@     invariant forall k string :: seen(k) ==> has(src, k) && has(dst, k)
+//@     invariant forall k string :: !seen(k) ==> (has(dst, k) <==> old(has(dst, k)))
+//@     invariant forall k string :: seen(k) ==> (dst[k] == nil <==> src[k] == nil) && (src[k] != nil ==> fresh(dst[k])) && len(dst[k]) == len(src[k])
+
+//@ func deriveDeepCopy_15
+//@   nopanic[C14,C20]
+//@   requires len(dst) >= len(src) && (len(src) > 0 ==> dst != src)
+//@   assigns dst.*
+//@   ensures[C14] forall j int :: 0 <= j && j < len(src) ==> copyOf_DeviceRequest(dst[j], src[j])
+//@   loop 1
+//@     invariant -1 <= rangeindex && rangeindex < len(src)
+//@     invariant forall j int :: 0 <= j && j <= rangeindex ==> copyOf_DeviceRequest(dst[j], src[j])
+
+//@ func deriveDeepCopy_15$1
+//@   nopanic[C14,C20]
+//@   requires 0 <= src_i && src_i < len(dst)
+//@   assigns dst.*
+//@   ensures[C14] forall j int :: j != src_i ==> dst[j] == old(dst[j])
+//@   ensures[C14] (dst[src_i].Capabilities == nil <==> src_value.Capabilities == nil) && (src_value.Capabilities != nil ==> fresh(dst[src_i].Capabilities)) && len(dst[src_i].Capabilities) == len(src_value.Capabilities)
+//@   ensures[C14] dst[src_i].Driver == src_value.Driver
+//@   ensures[C14] dst[src_i].Count == src_value.Count
+//@   ensures[C14] (dst[src_i].IDs == nil <==> src_value.IDs == nil) && (src_value.IDs != nil ==> fresh(dst[src_i].IDs)) && len(dst[src_i].IDs) == len(src_value.IDs)
+//@   ensures[C14] (dst[src_i].Options == nil <==> src_value.Options == nil) && (src_value.Options != nil ==> fresh(dst[src_i].Options))
+//@   ensures[C14] (forall kk string :: has(dst[src_i].Options, kk) <==> has(src_value.Options, kk))
+//@   ensures[C14] (forall kk string :: has(src_value.Options, kk) ==> dst[src_i].Options[kk] == src_value.Options[kk])
+
+//@ func deriveDeepCopy_16
+//@   nopanic[C14,C20]
+//@   requires dst != nil && src != nil && dst != src
+//@   requires dst.Test == nil
+//@   assigns dst.*
+//@   ensures[C14] (dst.Test == nil <==> src.Test == nil) && (src.Test != nil ==> fresh(dst.Test)) && len(dst.Test) == len(src.Test)
+//@   ensures[C14] (dst.Timeout == nil <==> src.Timeout == nil) && (src.Timeout != nil ==> fresh(dst.Timeout))
+//@   ensures[C14] (dst.Interval == nil <==> src.Interval == nil) && (src.Interval != nil ==> fresh(dst.Interval))
+//@   ensures[C14] (dst.Retries == nil <==> src.Retries == nil) && (src.Retries != nil ==> fresh(dst.Retries))
+//@   ensures[C14] (dst.StartPeriod == nil <==> src.StartPeriod == nil) && (src.StartPeriod != nil ==> fresh(dst.StartPeriod))
+//@   ensures[C14] (dst.StartInterval == nil <==> src.StartInterval == nil) && (src.StartInterval != nil ==> fresh(dst.StartInterval))
+//@   ensures[C14] dst.Disable == src.Disable
+//@   ensures[C14] (dst.Extensions == nil <==> src.Extensions == nil) && (src.Extensions != nil ==> fresh(dst.Extensions))
+//@   ensures[C14] (forall kk string :: has(dst.Extensions, kk) <==> has(src.Extensions, kk))
+//@   ensures[C14] (forall kk string :: has(src.Extensions, kk) ==> dst.Extensions[kk] == src.Extensions[kk])
+
+//@ func deriveDeepCopy_17
+//@   nopanic[C14,C20]
+//@   requires dst != nil && src != nil && dst != src
+//@   assigns dst.*
+//@   ensures[C14] dst.Driver == src.Driver
+//@   ensures[C14] (dst.Options == nil <==> src.Options == nil) && (src.Options != nil ==> fresh(dst.Options))
+//@   ensures[C14] (forall kk string :: has(dst.Options, kk) <==> has(src.Options, kk))
+//@   ensures[C14] (forall kk string :: has(src.Options, kk) ==> dst.Options[kk] == src.Options[kk])
+//@   ensures[C14] (dst.Extensions == nil <==> src.Extensions == nil) && (src.Extensions != nil ==> fresh(dst.Extensions))
+//@   ensures[C14] (forall kk string :: has(dst.Extensions, kk) <==> has(src.Extensions, kk))
+//@   ensures[C14] (forall kk string :: has(src.Extensions, kk) ==> dst.Extensions[kk] == src.Extensions[kk])
+
+//@ func deriveDeepCopy_18
+//@   nopanic[C14,C20]
+//@   requires dst != nil && dst != src
+//@   assigns dst.*
+//@   ensures[C14] forall k string :: has(src, k) ==> has(dst, k)
+//@   ensures[C14] forall k string :: !has(src, k) ==> (has(dst, k) <==> old(has(dst, k)))
+//@   ensures[C14] forall k string :: has(src, k) ==> (dst[k] == nil <==> src[k] == nil) && (src[k] != nil ==> fresh(dst[k]))
+//@   ensures[C14] forall k string :: has(src, k) ==> (src[k] != nil ==> copyOf_ServiceNetworkConfig(dst[k], src[k]))
+//@   loop 1
+//@     invariant forall k string :: seen(k) ==> has(src, k) && has(dst, k)
+//@     invariant forall k string :: !seen(k) ==> (has(dst, k) <==> old(has(dst, k)))
+//@     invariant forall k string :: seen(k) ==> (dst[k] == nil <==> src[k] == nil) && (src[k] != nil ==> fresh(dst[k]))
+//@     invariant forall k string :: seen(k) ==> (src[k] != nil ==> copyOf_ServiceNetworkConfig(dst[k], src[k]))
+
+//@ func deriveDeepCopy_19
+//@   nopanic[C14,C20]
+//@   requires len(dst) >= len(src) && (len(src) > 0 ==> dst != src)
+//@   assigns dst.*
+//@   ensures[C14] forall j int :: 0 <= j && j < len(src) ==> copyOf_ServicePortConfig(dst[j], src[j])
+//@   loop 1
+//@     invariant -1 <= rangeindex && rangeindex < len(src)
+//@     invariant forall j int :: 0 <= j && j <= rangeindex ==> copyOf_ServicePortConfig(dst[j], src[j])
+
+//@ func deriveDeepCopy_19$1
+//@   nopanic[C14,C20]
+//@   requires 0 <= src_i && src_i < len(dst)
+//@   assigns dst.*
+//@   ensures[C14] forall j int :: j != src_i ==> dst[j] == old(dst[j])
+//@   ensures[C14] dst[src_i].Name == src_value.Name
+//@   ensures[C14] dst[src_i].Mode == src_value.Mode
+//@   ensures[C14] dst[src_i].HostIP == src_value.HostIP
+//@   ensures[C14] dst[src_i].Target == src_value.Target
+//@   ensures[C14] dst[src_i].Published == src_value.Published
+//@   ensures[C14] dst[src_i].Protocol == src_value.Protocol
+//@   ensures[C14] dst[src_i].AppProtocol == src_value.AppProtocol
+//@   ensures[C14] (dst[src_i].Extensions == nil <==> src_value.Extensions == nil) && (src_value.Extensions != nil ==> fresh(dst[src_i].Extensions))
+//@   ensures[C14] (forall kk string :: has(dst[src_i].Extensions, kk) <==> has(src_value.Extensions, kk))
+//@   ensures[C14] (forall kk string :: has(src_value.Extensions, kk) ==> dst[src_i].Extensions[kk] == src_value.Extensions[kk])
+
+//@ func deriveDeepCopy_2
+//@   nopanic[C14,C20]
+//@   requires dst != nil && dst != src
+//@   assigns dst.*
+//@   ensures[C14] forall k string :: has(src, k) ==> has(dst, k)
+//@   ensures[C14] forall k string :: !has(src, k) ==> (has(dst, k) <==> old(has(dst, k)))
+//@   ensures[C14] forall k string :: has(src, k) ==> copyOf_SecretConfig(dst[k], src[k])
+//@   loop 1
+//@     invariant forall k string :: seen(k) ==> has(src, k) && has(dst, k)
+//@     invariant forall k string :: !seen(k) ==> (has(dst, k) <==> old(has(dst, k)))
+//@     invariant forall k string :: seen(k) ==> copyOf_SecretConfig(dst[k], src[k])
+
+//@ func deriveDeepCopy_2$1
+//@   nopanic[C14,C20]
+//@   requires dst != nil
+//@   assigns dst.*
+//@   ensures[C14] has(dst, src_key)
+//@   ensures[C14] forall k string :: k != src_key ==> (has(dst, k) <==> old(has(dst, k))) && dst[k] == old(dst[k])
+//@   ensures[C14] dst[src_key].Name == src_value.Name
+//@   ensures[C14] dst[src_key].File == src_value.File
+//@   ensures[C14] dst[src_key].Environment == src_value.Environment
+//@   ensures[C14] dst[src_key].Content == src_value.Content
+//@   ensures[C14] dst[src_key].marshallContent == src_value.marshallContent
+//@   ensures[C14] dst[src_key].External == src_value.External
+//@   ensures[C14] (dst[src_key].Labels == nil <==> src_value.Labels == nil) && (src_value.Labels != nil ==> fresh(dst[src_key].Labels))
+//@   ensures[C14] (forall kk string :: has(dst[src_key].Labels, kk) <==> has(src_value.Labels, kk))
+//@   ensures[C14] (forall kk string :: has(src_value.Labels, kk) ==> dst[src_key].Labels[kk] == src_value.Labels[kk])
+//@   ensures[C14] dst[src_key].Driver == src_value.Driver
+//@   ensures[C14] (dst[src_key].DriverOpts == nil <==> src_value.DriverOpts == nil) && (src_value.DriverOpts != nil ==> fresh(dst[src_key].DriverOpts))
+//@   ensures[C14] (forall kk string :: has(dst[src_key].DriverOpts, kk) <==> has(src_value.DriverOpts, kk))
+//@   ensures[C14] (forall kk string :: has(src_value.DriverOpts, kk) ==> dst[src_key].DriverOpts[kk] == src_value.DriverOpts[kk])
+//@   ensures[C14] dst[src_key].TemplateDriver == src_value.TemplateDriver
+//@   ensures[C14] (dst[src_key].Extensions == nil <==> src_value.Extensions == nil) && (src_value.Extensions != nil ==> fresh(dst[src_key].Extensions))
+//@   ensures[C14] (forall kk string :: has(dst[src_key].Extensions, kk) <==> has(src_value.Extensions, kk))
+//@   ensures[C14] (forall kk string :: has(src_value.Extensions, kk) ==> dst[src_key].Extensions[kk] == src_value.Extensions[kk])
+
+//@ func deriveDeepCopy_20
+//@   nopanic[C14,C20]
+//@   requires len(dst) >= len(src) && (len(src) > 0 ==> dst != src)
+//@   assigns dst.*
+//@   ensures[C14] forall j int :: 0 <= j && j < len(src) ==> copyOf_ServiceSecretConfig(dst[j], src[j])
+//@   loop 1
+//@     invariant -1 <= rangeindex && rangeindex < len(src)
+//@     invariant forall j int :: 0 <= j && j <= rangeindex ==> copyOf_ServiceSecretConfig(dst[j], src[j])
+
+//@ func deriveDeepCopy_20$1
+//@   nopanic[C14,C20]
+//@   requires 0 <= src_i && src_i < len(dst)
+//@   assigns dst.*
+//@   ensures[C14] forall j int :: j != src_i ==> dst[j] == old(dst[j])
+//@   ensures[C14] dst[src_i].Source == src_value.Source
+//@   ensures[C14] dst[src_i].Target == src_value.Target
+//@   ensures[C14] dst[src_i].UID == src_value.UID
+//@   ensures[C14] dst[src_i].GID == src_value.GID
+//@   ensures[C14] (dst[src_i].Mode == nil <==> src_value.Mode == nil) && (src_value.Mode != nil ==> fresh(dst[src_i].Mode))
+//@   ensures[C14] (dst[src_i].Extensions == nil <==> src_value.Extensions == nil) && (src_value.Extensions != nil ==> fresh(dst[src_i].Extensions))
+//@   ensures[C14] (forall kk string :: has(dst[src_i].Extensions, kk) <==> has(src_value.Extensions, kk))
+//@   ensures[C14] (forall kk string :: has(src_value.Extensions, kk) ==> dst[src_i].Extensions[kk] == src_value.Extensions[kk])
+
+//@ func deriveDeepCopy_21
+//@   nopanic[C14,C20]
+//@   requires dst != nil && dst != src
+//@   assigns dst.*
+//@   ensures[C14] forall k string :: has(src, k) ==> has(dst, k)
+//@   ensures[C14] forall k string :: !has(src, k) ==> (has(dst, k) <==> old(has(dst, k)))
+//@   ensures[C14] forall k string :: has(src, k) ==> (dst[k] == nil <==> src[k] == nil) && (src[k] != nil ==> fresh(dst[k]))
+//@   ensures[C14] forall k string :: has(src, k) ==> (src[k] != nil ==> copyOf_UlimitsConfig(dst[k], src[k]))
+//@   loop 1
+//@     invariant forall k string :: seen(k) ==> has(src, k) && has(dst, k)
+//@     invariant forall k string :: !seen(k) ==> (has(dst, k) <==> old(has(dst, k)))
+//@     invariant forall k string :: seen(k) ==> (dst[k] == nil <==> src[k] == nil) && (src[k] != nil ==> fresh(dst[k]))
+//@     invariant forall k string :: seen(k) ==> (src[k] != nil ==> copyOf_UlimitsConfig(dst[k], src[k]))
+
+//@ func deriveDeepCopy_22
+//@   nopanic[C14,C20]
+//@   requires len(dst) >= len(src) && (len(src) > 0 ==> dst != src)
+//@   assigns dst.*
+//@   ensures[C14] forall j int :: 0 <= j && j < len(src) ==> copyOf_ServiceVolumeConfig(dst[j], src[j])
+//@   loop 1
+//@     invariant -1 <= rangeindex && rangeindex < len(src)
+//@     invariant forall j int :: 0 <= j && j <= rangeindex ==> copyOf_ServiceVolumeConfig(dst[j], src[j])
+
+//@ func deriveDeepCopy_22$1
+//@   nopanic[C14,C20]
+//@   requires 0 <= src_i && src_i < len(dst)
+//@   assigns dst.*
+//@   ensures[C14] forall j int :: j != src_i ==> dst[j] == old(dst[j])
+//@   ensures[C14] dst[src_i].Type == src_value.Type
+//@   ensures[C14] dst[src_i].Source == src_value.Source
+//@   ensures[C14] dst[src_i].Target == src_value.Target
+//@   ensures[C14] dst[src_i].ReadOnly == src_value.ReadOnly
+//@   ensures[C14] dst[src_i].Consistency == src_value.Consistency
+//@   ensures[C14] (dst[src_i].Bind == nil <==> src_value.Bind == nil) && (src_value.Bind != nil ==> fresh(dst[src_i].Bind))
+//@   ensures[C14] (src_value.Bind != nil ==> copyOf_ServiceVolumeBind(dst[src_i].Bind, src_value.Bind))
+//@   ensures[C14] (dst[src_i].Volume == nil <==> src_value.Volume == nil) && (src_value.Volume != nil ==> fresh(dst[src_i].Volume))
+//@   ensures[C14] (src_value.Volume != nil ==> copyOf_ServiceVolumeVolume(dst[src_i].Volume, src_value.Volume))
+//@   ensures[C14] (dst[src_i].Tmpfs == nil <==> src_value.Tmpfs == nil) && (src_value.Tmpfs != nil ==> fresh(dst[src_i].Tmpfs))
+//@   ensures[C14] (src_value.Tmpfs != nil ==> copyOf_ServiceVolumeTmpfs(dst[src_i].Tmpfs, src_value.Tmpfs))
+//@   ensures[C14] (dst[src_i].Extensions == nil <==> src_value.Extensions == nil) && (src_value.Extensions != nil ==> fresh(dst[src_i].Extensions))
+//@   ensures[C14] (forall kk string :: has(dst[src_i].Extensions, kk) <==> has(src_value.Extensions, kk))
+//@   ensures[C14] (forall kk string :: has(src_value.Extensions, kk) ==> dst[src_i].Extensions[kk] == src_value.Extensions[kk])
+
+//@ func deriveDeepCopy_23
+//@   nopanic[C14,C20]
+//@   requires len(dst) >= len(src) && (len(src) > 0 ==> dst != src)
+//@   assigns dst.*
+//@   ensures[C14] forall j int :: 0 <= j && j < len(src) ==> copyOf_ServiceHook(dst[j], src[j])
+//@   loop 1
+//@     invariant -1 <= rangeindex && rangeindex < len(src)
+//@     invariant forall j int :: 0 <= j && j <= rangeindex ==> copyOf_ServiceHook(dst[j], src[j])
+
+//@ func deriveDeepCopy_23$1
+//@   nopanic[C14,C20]
+//@   requires 0 <= src_i && src_i < len(dst)
+//@   assigns dst.*
+//@   ensures[C14] forall j int :: j != src_i ==> dst[j] == old(dst[j])
+//@   ensures[C14] (dst[src_i].Command == nil <==> src_value.Command == nil) && (src_value.Command != nil ==> fresh(dst[src_i].Command)) && len(dst[src_i].Command) == len(src_value.Command)
+//@   ensures[C14] dst[src_i].User == src_value.User
+//@   ensures[C14] dst[src_i].Privileged == src_value.Privileged
+//@   ensures[C14] dst[src_i].WorkingDir == src_value.WorkingDir
+//@   ensures[C14] (dst[src_i].Environment == nil <==> src_value.Environment == nil) && (src_value.Environment != nil ==> fresh(dst[src_i].Environment))
+//@   ensures[C14] (forall kk string :: has(dst[src_i].Environment, kk) <==> has(src_value.Environment, kk))
+//@   ensures[C14] (dst[src_i].Extensions == nil <==> src_value.Extensions == nil) && (src_value.Extensions != nil ==> fresh(dst[src_i].Extensions))
+//@   ensures[C14] (forall kk string :: has(dst[src_i].Extensions, kk) <==> has(src_value.Extensions, kk))
+//@   ensures[C14] (forall kk string :: has(src_value.Extensions, kk) ==> dst[src_i].Extensions[kk] == src_value.Extensions[kk])
+
+//@ func deriveDeepCopy_24
+//@   nopanic[C14,C20]
+//@   requires dst != nil && src != nil && dst != src
+//@   requires dst.Ipam.Config == nil
+//@   assigns dst.*
+//@   ensures[C14] dst.Name == src.Name
+//@   ensures[C14] dst.Driver == src.Driver
+//@   ensures[C14] (dst.DriverOpts == nil <==> src.DriverOpts == nil) && (src.DriverOpts != nil ==> fresh(dst.DriverOpts))
+//@   ensures[C14] (forall kk string :: has(dst.DriverOpts, kk) <==> has(src.DriverOpts, kk))
+//@   ensures[C14] (forall kk string :: has(src.DriverOpts, kk) ==> dst.DriverOpts[kk] == src.DriverOpts[kk])
+//@   ensures[C14] dst.Ipam.Driver == src.Ipam.Driver
+//@   ensures[C14] (dst.Ipam.Config == nil <==> src.Ipam.Config == nil) && (src.Ipam.Config != nil ==> fresh(dst.Ipam.Config)) && len(dst.Ipam.Config) == len(src.Ipam.Config)
+//@   ensures[C14] (dst.Ipam.Extensions == nil <==> src.Ipam.Extensions == nil) && (src.Ipam.Extensions != nil ==> fresh(dst.Ipam.Extensions))
+//@   ensures[C14] (forall kk string :: has(dst.Ipam.Extensions, kk) <==> has(src.Ipam.Extensions, kk))
+//@   ensures[C14] (forall kk string :: has(src.Ipam.Extensions, kk) ==> dst.Ipam.Extensions[kk] == src.Ipam.Extensions[kk])
+//@   ensures[C14] dst.External == src.External
+//@   ensures[C14] dst.Internal == src.Internal
+//@   ensures[C14] dst.Attachable == src.Attachable
+//@   ensures[C14] (dst.Labels == nil <==> src.Labels == nil) && (src.Labels != nil ==> fresh(dst.Labels))
+//@   ensures[C14] (forall kk string :: has(dst.Labels, kk) <==> has(src.Labels, kk))
+//@   ensures[C14] (forall kk string :: has(src.Labels, kk) ==> dst.Labels[kk] == src.Labels[kk])
+//@   ensures[C14] (dst.CustomLabels == nil <==> src.CustomLabels == nil) && (src.CustomLabels != nil ==> fresh(dst.CustomLabels))
+//@   ensures[C14] (forall kk string :: has(dst.CustomLabels, kk) <==> has(src.CustomLabels, kk))
+//@   ensures[C14] (forall kk string :: has(src.CustomLabels, kk) ==> dst.CustomLabels[kk] == src.CustomLabels[kk])
+//@   ensures[C14] (dst.EnableIPv6 == nil <==> src.EnableIPv6 == nil) && (src.EnableIPv6 != nil ==> fresh(dst.EnableIPv6))
+//@   ensures[C14] (dst.Extensions == nil <==> src.Extensions == nil) && (src.Extensions != nil ==> fresh(dst.Extensions))
+//@   ensures[C14] (forall kk string :: has(dst.Extensions, kk) <==> has(src.Extensions, kk))
+//@   ensures[C14] (forall kk string :: has(src.Extensions, kk) ==> dst.Extensions[kk] == src.Extensions[kk])
+//@   ensures[C14] dst.Labels == nil || dst.Labels != dst.CustomLabels
+
+//@ func deriveDeepCopy_24$1
+//@   nopanic[C14,C20]
+//@   requires dst != nil && src != nil && dst != src
+//@   assigns dst.Ipam
+//@   ensures[C14] dst.Ipam.Driver == src.Ipam.Driver
+//@   ensures[C14] (dst.Ipam.Config == nil <==> src.Ipam.Config == nil) && (src.Ipam.Config != nil ==> fresh(dst.Ipam.Config)) && len(dst.Ipam.Config) == len(src.Ipam.Config)
+//@   ensures[C14] (dst.Ipam.Extensions == nil <==> src.Ipam.Extensions == nil) && (src.Ipam.Extensions != nil ==> fresh(dst.Ipam.Extensions))
+//@   ensures[C14] (forall kk string :: has(dst.Ipam.Extensions, kk) <==> has(src.Ipam.Extensions, kk))
+//@   ensures[C14] (forall kk string :: has(src.Ipam.Extensions, kk) ==> dst.Ipam.Extensions[kk] == src.Ipam.Extensions[kk])
+
+//@ func deriveDeepCopy_25
+//@   nopanic[C14,C20]
+//@   requires dst != nil && src != nil && dst != src
+//@   assigns dst.*
+//@   ensures[C14] dst.Name == src.Name
+//@   ensures[C14] dst.Driver == src.Driver
+//@   ensures[C14] (dst.DriverOpts == nil <==> src.DriverOpts == nil) && (src.DriverOpts != nil ==> fresh(dst.DriverOpts))
+//@   ensures[C14] (forall kk string :: has(dst.DriverOpts, kk) <==> has(src.DriverOpts, kk))
+//@   ensures[C14] (forall kk string :: has(src.DriverOpts, kk) ==> dst.DriverOpts[kk] == src.DriverOpts[kk])
+//@   ensures[C14] dst.External == src.External
+//@   ensures[C14] (dst.Labels == nil <==> src.Labels == nil) && (src.Labels != nil ==> fresh(dst.Labels))
+//@   ensures[C14] (forall kk string :: has(dst.Labels, kk) <==> has(src.Labels, kk))
+//@   ensures[C14] (forall kk string :: has(src.Labels, kk) ==> dst.Labels[kk] == src.Labels[kk])
+//@   ensures[C14] (dst.CustomLabels == nil <==> src.CustomLabels == nil) && (src.CustomLabels != nil ==> fresh(dst.CustomLabels))
+//@   ensures[C14] (forall kk string :: has(dst.CustomLabels, kk) <==> has(src.CustomLabels, kk))
+//@   ensures[C14] (forall kk string :: has(src.CustomLabels, kk) ==> dst.CustomLabels[kk] == src.CustomLabels[kk])
+//@   ensures[C14] (dst.Extensions == nil <==> src.Extensions == nil) && (src.Extensions != nil ==> fresh(dst.Extensions))
+//@   ensures[C14] (forall kk string :: has(dst.Extensions, kk) <==> has(src.Extensions, kk))
+//@   ensures[C14] (forall kk string :: has(src.Extensions, kk) ==> dst.Extensions[kk] == src.Extensions[kk])
+//@   ensures[C14] dst.Labels == nil || dst.Labels != dst.CustomLabels
+
+//@ func deriveDeepCopy_26
+//@   nopanic[C14,C20]
+//@   requires dst != nil && src != nil && dst != src
+//@   assigns dst.*
+//@   ensures[C14] dst.Name == src.Name
+//@   ensures[C14] dst.File == src.File
+//@   ensures[C14] dst.Environment == src.Environment
+//@   ensures[C14] dst.Content == src.Content
+//@   ensures[C14] dst.marshallContent == src.marshallContent
+//@   ensures[C14] dst.External == src.External
+//@   ensures[C14] (dst.Labels == nil <==> src.Labels == nil) && (src.Labels != nil ==> fresh(dst.Labels))
+//@   ensures[C14] (forall kk string :: has(dst.Labels, kk) <==> has(src.Labels, kk))
+//@   ensures[C14] (forall kk string :: has(src.Labels, kk) ==> dst.Labels[kk] == src.Labels[kk])
+//@   ensures[C14] dst.Driver == src.Driver
+//@   ensures[C14] (dst.DriverOpts == nil <==> src.DriverOpts == nil) && (src.DriverOpts != nil ==> fresh(dst.DriverOpts))
+//@   ensures[C14] (forall kk string :: has(dst.DriverOpts, kk) <==> has(src.DriverOpts, kk))
+//@   ensures[C14] (forall kk string :: has(src.DriverOpts, kk) ==> dst.DriverOpts[kk] == src.DriverOpts[kk])
+//@   ensures[C14] dst.TemplateDriver == src.TemplateDriver
+//@   ensures[C14] (dst.Extensions == nil <==> src.Extensions == nil) && (src.Extensions != nil ==> fresh(dst.Extensions))
+//@   ensures[C14] (forall kk string :: has(dst.Extensions, kk) <==> has(src.Extensions, kk))
+//@   ensures[C14] (forall kk string :: has(src.Extensions, kk) ==> dst.Extensions[kk] == src.Extensions[kk])
+
+//@ func deriveDeepCopy_27
+//@   nopanic[C14,C20]
+//@   requires dst != nil && src != nil && dst != src
+//@   assigns dst.*
+//@   ensures[C14] dst.Name == src.Name
+//@   ensures[C14] dst.File == src.File
+//@   ensures[C14] dst.Environment == src.Environment
+//@   ensures[C14] dst.Content == src.Content
+//@   ensures[C14] dst.marshallContent == src.marshallContent
+//@   ensures[C14] dst.External == src.External
+//@   ensures[C14] (dst.Labels == nil <==> src.Labels == nil) && (src.Labels != nil ==> fresh(dst.Labels))
+//@   ensures[C14] (forall kk string :: has(dst.Labels, kk) <==> has(src.Labels, kk))
+//@   ensures[C14] (forall kk string :: has(src.Labels, kk) ==> dst.Labels[kk] == src.Labels[kk])
+//@   ensures[C14] dst.Driver == src.Driver
+//@   ensures[C14] (dst.DriverOpts == nil <==> src.DriverOpts == nil) && (src.DriverOpts != nil ==> fresh(dst.DriverOpts))
+//@   ensures[C14] (forall kk string :: has(dst.DriverOpts, kk) <==> has(src.DriverOpts, kk))
+//@   ensures[C14] (forall kk string :: has(src.DriverOpts, kk) ==> dst.DriverOpts[kk] == src.DriverOpts[kk])
+//@   ensures[C14] dst.TemplateDriver == src.TemplateDriver
+//@   ensures[C14] (dst.Extensions == nil <==> src.Extensions == nil) && (src.Extensions != nil ==> fresh(dst.Extensions))
+//@   ensures[C14] (forall kk string :: has(dst.Extensions, kk) <==> has(src.Extensions, kk))
+//@   ensures[C14] (forall kk string :: has(src.Extensions, kk) ==> dst.Extensions[kk] == src.Extensions[kk])
+
+//@ func deriveDeepCopy_28
+//@   nopanic[C14,C20]
+//@   requires len(dst) >= len(src) && (len(src) > 0 ==> dst != src)
+//@   assigns dst.*
+//@   ensures[C14] forall j int :: 0 <= j && j < len(src) ==> copyOf_Trigger(dst[j], src[j])
+//@   loop 1
+//@     invariant -1 <= rangeindex && rangeindex < len(src)
+//@     invariant forall j int :: 0 <= j && j <= rangeindex ==> copyOf_Trigger(dst[j], src[j])
+
+//@ func deriveDeepCopy_28$1
+//@   nopanic[C14,C20]
+//@   requires 0 <= src_i && src_i < len(dst)
+//@   assigns dst.*
+//@   ensures[C14] forall j int :: j != src_i ==> dst[j] == old(dst[j])
+//@   ensures[C14] dst[src_i].Path == src_value.Path
+//@   ensures[C14] dst[src_i].Action == src_value.Action
+//@   ensures[C14] dst[src_i].Target == src_value.Target
+//@   ensures[C14] (dst[src_i].Exec.Command == nil <==> src_value.Exec.Command == nil) && (src_value.Exec.Command != nil ==> fresh(dst[src_i].Exec.Command)) && len(dst[src_i].Exec.Command) == len(src_value.Exec.Command)
+//@   ensures[C14] dst[src_i].Exec.User == src_value.Exec.User
+//@   ensures[C14] dst[src_i].Exec.Privileged == src_value.Exec.Privileged
+//@   ensures[C14] dst[src_i].Exec.WorkingDir == src_value.Exec.WorkingDir
+//@   ensures[C14] (dst[src_i].Exec.Environment == nil <==> src_value.Exec.Environment == nil) && (src_value.Exec.Environment != nil ==> fresh(dst[src_i].Exec.Environment))
+//@   ensures[C14] (forall kk string :: has(dst[src_i].Exec.Environment, kk) <==> has(src_value.Exec.Environment, kk))
+//@   ensures[C14] (dst[src_i].Exec.Extensions == nil <==> src_value.Exec.Extensions == nil) && (src_value.Exec.Extensions != nil ==> fresh(dst[src_i].Exec.Extensions))
+//@   ensures[C14] (forall kk string :: has(dst[src_i].Exec.Extensions, kk) <==> has(src_value.Exec.Extensions, kk))
+//@   ensures[C14] (forall kk string :: has(src_value.Exec.Extensions, kk) ==> dst[src_i].Exec.Extensions[kk] == src_value.Exec.Extensions[kk])
+//@   ensures[C14] (dst[src_i].Ignore == nil <==> src_value.Ignore == nil) && (src_value.Ignore != nil ==> fresh(dst[src_i].Ignore)) && len(dst[src_i].Ignore) == len(src_value.Ignore)
+//@   ensures[C14] (dst[src_i].Extensions == nil <==> src_value.Extensions == nil) && (src_value.Extensions != nil ==> fresh(dst[src_i].Extensions))
+//@   ensures[C14] (forall kk string :: has(dst[src_i].Extensions, kk) <==> has(src_value.Extensions, kk))
+//@   ensures[C14] (forall kk string :: has(src_value.Extensions, kk) ==> dst[src_i].Extensions[kk] == src_value.Extensions[kk])
+
+//@ func deriveDeepCopy_29
+//@   nopanic[C14,C20]
+//@   requires len(dst) >= len(src) && (len(src) > 0 ==> dst != src)
+//@   assigns dst.*
+//@   ensures[C14] forall j int :: 0 <= j && j < len(src) ==> copyOf_WeightDevice(dst[j], src[j])
+//@   loop 1
+//@     invariant -1 <= rangeindex && rangeindex < len(src)
+//@     invariant forall j int :: 0 <= j && j <= rangeindex ==> copyOf_WeightDevice(dst[j], src[j])
+
+//@ func deriveDeepCopy_29$1
+//@   nopanic[C14,C20]
+//@   requires 0 <= src_i && src_i < len(dst)
+//@   assigns dst.*
+//@   ensures[C14] forall j int :: j != src_i ==> dst[j] == old(dst[j])
+//@   ensures[C14] dst[src_i].Path == src_value.Path
+//@   ensures[C14] dst[src_i].Weight == src_value.Weight
+//@   ensures[C14] (dst[src_i].Extensions == nil <==> src_value.Extensions == nil) && (src_value.Extensions != nil ==> fresh(dst[src_i].Extensions))
+//@   ensures[C14] (forall kk string :: has(dst[src_i].Extensions, kk) <==> has(src_value.Extensions, kk))
+//@   ensures[C14] (forall kk string :: has(src_value.Extensions, kk) ==> dst[src_i].Extensions[kk] == src_value.Extensions[kk])
+
+//@ func deriveDeepCopy_3
+//@   nopanic[C14,C20]
+//@   requires dst != nil && dst != src
+//@   assigns dst.*
+//@   ensures[C14] forall k string :: has(src, k) ==> has(dst, k)
+//@   ensures[C14] forall k string :: !has(src, k) ==> (has(dst, k) <==> old(has(dst, k)))
+//@   ensures[C14] forall k string :: has(src, k) ==> copyOf_ConfigObjConfig(dst[k], src[k])
+//@   loop 1
+//@     invariant forall k string :: seen(k) ==> has(src, k) && has(dst, k)
+//@     invariant forall k string :: !seen(k) ==> (has(dst, k) <==> old(has(dst, k)))
+//@     invariant forall k string :: seen(k) ==> copyOf_ConfigObjConfig(dst[k], src[k])
+
+//@ func deriveDeepCopy_3$1
+//@   nopanic[C14,C20]
+//@   requires dst != nil
+//@   assigns dst.*
+//@   ensures[C14] has(dst, src_key)
+//@   ensures[C14] forall k string :: k != src_key ==> (has(dst, k) <==> old(has(dst, k))) && dst[k] == old(dst[k])
+//@   ensures[C14] dst[src_key].Name == src_value.Name
+//@   ensures[C14] dst[src_key].File == src_value.File
+//@   ensures[C14] dst[src_key].Environment == src_value.Environment
+//@   ensures[C14] dst[src_key].Content == src_value.Content
+//@   ensures[C14] dst[src_key].marshallContent == src_value.marshallContent
+//@   ensures[C14] dst[src_key].External == src_value.External
+//@   ensures[C14] (dst[src_key].Labels == nil <==> src_value.Labels == nil) && (src_value.Labels != nil ==> fresh(dst[src_key].Labels))
+//@   ensures[C14] (forall kk string :: has(dst[src_key].Labels, kk) <==> has(src_value.Labels, kk))
+//@   ensures[C14] (forall kk string :: has(src_value.Labels, kk) ==> dst[src_key].Labels[kk] == src_value.Labels[kk])
+//@   ensures[C14] dst[src_key].Driver == src_value.Driver
+//@   ensures[C14] (dst[src_key].DriverOpts == nil <==> src_value.DriverOpts == nil) && (src_value.DriverOpts != nil ==> fresh(dst[src_key].DriverOpts))
+//@   ensures[C14] (forall kk string :: has(dst[src_key].DriverOpts, kk) <==> has(src_value.DriverOpts, kk))
+//@   ensures[C14] (forall kk string :: has(src_value.DriverOpts, kk) ==> dst[src_key].DriverOpts[kk] == src_value.DriverOpts[kk])
+//@   ensures[C14] dst[src_key].TemplateDriver == src_value.TemplateDriver
+//@   ensures[C14] (dst[src_key].Extensions == nil <==> src_value.Extensions == nil) && (src_value.Extensions != nil ==> fresh(dst[src_key].Extensions))
+//@   ensures[C14] (forall kk string :: has(dst[src_key].Extensions, kk) <==> has(src_value.Extensions, kk))
+//@   ensures[C14] (forall kk string :: has(src_value.Extensions, kk) ==> dst[src_key].Extensions[kk] == src_value.Extensions[kk])
+
+//@ func deriveDeepCopy_30
+//@   nopanic[C14,C20]
+//@   requires len(dst) >= len(src) && (len(src) > 0 ==> dst != src)
+//@   assigns dst.*
+//@   ensures[C14] forall j int :: 0 <= j && j < len(src) ==> copyOf_ThrottleDevice(dst[j], src[j])
+//@   loop 1
+//@     invariant -1 <= rangeindex && rangeindex < len(src)
+//@     invariant forall j int :: 0 <= j && j <= rangeindex ==> copyOf_ThrottleDevice(dst[j], src[j])
+
+//@ func deriveDeepCopy_30$1
+//@   nopanic[C14,C20]
+//@   requires 0 <= src_i && src_i < len(dst)
+//@   assigns dst.*
+//@   ensures[C14] forall j int :: j != src_i ==> dst[j] == old(dst[j])
+//@   ensures[C14] dst[src_i].Path == src_value.Path
+//@   ensures[C14] dst[src_i].Rate == src_value.Rate
+//@   ensures[C14] (dst[src_i].Extensions == nil <==> src_value.Extensions == nil) && (src_value.Extensions != nil ==> fresh(dst[src_i].Extensions))
+//@   ensures[C14] (forall kk string :: has(dst[src_i].Extensions, kk) <==> has(src_value.Extensions, kk))
+//@   ensures[C14] (forall kk string :: has(src_value.Extensions, kk) ==> dst[src_i].Extensions[kk] == src_value.Extensions[kk])
+
+//@ func deriveDeepCopy_31
+//@   nopanic[C14,C20]
+//@   requires dst != nil && src != nil && dst != src
+//@   assigns dst.*
+//@   ensures[C14] dst.Source == src.Source
+//@   ensures[C14] dst.Target == src.Target
+//@   ensures[C14] dst.UID == src.UID
+//@   ensures[C14] dst.GID == src.GID
+//@   ensures[C14] (dst.Mode == nil <==> src.Mode == nil) && (src.Mode != nil ==> fresh(dst.Mode))
+//@   ensures[C14] (dst.Extensions == nil <==> src.Extensions == nil) && (src.Extensions != nil ==> fresh(dst.Extensions))
+//@   ensures[C14] (forall kk string :: has(dst.Extensions, kk) <==> has(src.Extensions, kk))
+//@   ensures[C14] (forall kk string :: has(src.Extensions, kk) ==> dst.Extensions[kk] == src.Extensions[kk])
+
+//@ func deriveDeepCopy_32
+//@   nopanic[C14,C20]
+//@   requires dst != nil && src != nil && dst != src
+//@   assigns dst.*
+//@   ensures[C14] dst.Condition == src.Condition
+//@   ensures[C14] dst.Restart == src.Restart
+//@   ensures[C14] (dst.Extensions == nil <==> src.Extensions == nil) && (src.Extensions != nil ==> fresh(dst.Extensions))
+//@   ensures[C14] (forall kk string :: has(dst.Extensions, kk) <==> has(src.Extensions, kk))
+//@   ensures[C14] (forall kk string :: has(src.Extensions, kk) ==> dst.Extensions[kk] == src.Extensions[kk])
+//@   ensures[C14] dst.Required == src.Required
+
+//@ func deriveDeepCopy_33
+//@   nopanic[C14,C20]
+//@   requires dst != nil && src != nil && dst != src
+//@   assigns dst.*
+//@   ensures[C14] (dst.Parallelism == nil <==> src.Parallelism == nil) && (src.Parallelism != nil ==> fresh(dst.Parallelism))
+//@   ensures[C14] dst.Delay == src.Delay
+//@   ensures[C14] dst.FailureAction == src.FailureAction
+//@   ensures[C14] dst.Monitor == src.Monitor
+//@   ensures[C14] dst.MaxFailureRatio == src.MaxFailureRatio
+//@   ensures[C14] dst.Order == src.Order
+//@   ensures[C14] (dst.Extensions == nil <==> src.Extensions == nil) && (src.Extensions != nil ==> fresh(dst.Extensions))
+//@   ensures[C14] (forall kk string :: has(dst.Extensions, kk) <==> has(src.Extensions, kk))
+//@   ensures[C14] (forall kk string :: has(src.Extensions, kk) ==> dst.Extensions[kk] == src.Extensions[kk])
+
+//@ func deriveDeepCopy_34
+//@   nopanic[C14,C20]
+//@   requires dst != nil && src != nil && dst != src
+//@   assigns dst.*
+//@   ensures[C14] (dst.Limits == nil <==> src.Limits == nil) && (src.Limits != nil ==> fresh(dst.Limits))
+//@   ensures[C14] (src.Limits != nil ==> copyOf_Resource(dst.Limits, src.Limits))
+//@   ensures[C14] (dst.Reservations == nil <==> src.Reservations == nil) && (src.Reservations != nil ==> fresh(dst.Reservations))
+//@   ensures[C14] (src.Reservations != nil ==> copyOf_Resource(dst.Reservations, src.Reservations))
+//@   ensures[C14] (dst.Extensions == nil <==> src.Extensions == nil) && (src.Extensions != nil ==> fresh(dst.Extensions))
+//@   ensures[C14] (forall kk string :: has(dst.Extensions, kk) <==> has(src.Extensions, kk))
+//@   ensures[C14] (forall kk string :: has(src.Extensions, kk) ==> dst.Extensions[kk] == src.Extensions[kk])
+
+//@ func deriveDeepCopy_35
+//@   nopanic[C14,C20]
+//@   requires dst != nil && src != nil && dst != src
+//@   assigns dst.*
+//@   ensures[C14] dst.Condition == src.Condition
+//@   ensures[C14] (dst.Delay == nil <==> src.Delay == nil) && (src.Delay != nil ==> fresh(dst.Delay))
+//@   ensures[C14] (dst.MaxAttempts == nil <==> src.MaxAttempts == nil) && (src.MaxAttempts != nil ==> fresh(dst.MaxAttempts))
+//@   ensures[C14] (dst.Window == nil <==> src.Window == nil) && (src.Window != nil ==> fresh(dst.Window))
+//@   ensures[C14] (dst.Extensions == nil <==> src.Extensions == nil) && (src.Extensions != nil ==> fresh(dst.Extensions))
+//@   ensures[C14] (forall kk string :: has(dst.Extensions, kk) <==> has(src.Extensions, kk))
+//@   ensures[C14] (forall kk string :: has(src.Extensions, kk) ==> dst.Extensions[kk] == src.Extensions[kk])
+
+//@ func deriveDeepCopy_36
+//@   nopanic[C14,C20]
+//@   requires dst != nil && src != nil && dst != src
+//@   requires dst.Constraints == nil
+//@   requires dst.Preferences == nil
+//@   assigns dst.*
+//@   ensures[C14] (dst.Constraints == nil <==> src.Constraints == nil) && (src.Constraints != nil ==> fresh(dst.Constraints)) && len(dst.Constraints) == len(src.Constraints)
+//@   ensures[C14] (dst.Preferences == nil <==> src.Preferences == nil) && (src.Preferences != nil ==> fresh(dst.Preferences)) && len(dst.Preferences) == len(src.Preferences)
+//@   ensures[C14] (forall ej int :: 0 <= ej && ej < len(src.Preferences) ==> copyOf_PlacementPreferences(dst.Preferences[ej], src.Preferences[ej]))
+//@   ensures[C14] dst.MaxReplicas == src.MaxReplicas
+//@   ensures[C14] (dst.Extensions == nil <==> src.Extensions == nil) && (src.Extensions != nil ==> fresh(dst.Extensions))
+//@   ensures[C14] (forall kk string :: has(dst.Extensions, kk) <==> has(src.Extensions, kk))
+//@   ensures[C14] (forall kk string :: has(src.Extensions, kk) ==> dst.Extensions[kk] == src.Extensions[kk])
+
+//@ func deriveDeepCopy_37
+//@   nopanic[C14,C20]
+//@   requires dst != nil && src != nil && dst != src
+//@   assigns dst.*
+//@   ensures[C14] dst.Source == src.Source
+//@   ensures[C14] dst.Target == src.Target
+//@   ensures[C14] dst.Permissions == src.Permissions
+//@   ensures[C14] (dst.Extensions == nil <==> src.Extensions == nil) && (src.Extensions != nil ==> fresh(dst.Extensions))
+//@   ensures[C14] (forall kk string :: has(dst.Extensions, kk) <==> has(src.Extensions, kk))
+//@   ensures[C14] (forall kk string :: has(src.Extensions, kk) ==> dst.Extensions[kk] == src.Extensions[kk])
+
+//@ func deriveDeepCopy_38
+//@   nopanic[C14,C20]
+//@   requires dst != nil && src != nil && dst != src
+//@   requires dst.Capabilities == nil
+//@   requires dst.IDs == nil
+//@   assigns dst.*
+//@   ensures[C14] (dst.Capabilities == nil <==> src.Capabilities == nil) && (src.Capabilities != nil ==> fresh(dst.Capabilities)) && len(dst.Capabilities) == len(src.Capabilities)
+//@   ensures[C14] dst.Driver == src.Driver
+//@   ensures[C14] dst.Count == src.Count
+//@   ensures[C14] (dst.IDs == nil <==> src.IDs == nil) && (src.IDs != nil ==> fresh(dst.IDs)) && len(dst.IDs) == len(src.IDs)
+//@   ensures[C14] (dst.Options == nil <==> src.Options == nil) && (src.Options != nil ==> fresh(dst.Options))
+//@   ensures[C14] (forall kk string :: has(dst.Options, kk) <==> has(src.Options, kk))
+//@   ensures[C14] (forall kk string :: has(src.Options, kk) ==> dst.Options[kk] == src.Options[kk])
+
+//@ func deriveDeepCopy_39
+//@   nopanic[C14,C20]
+//@   requires dst != nil && src != nil && dst != src
+//@   requires dst.Aliases == nil
+//@   requires dst.LinkLocalIPs == nil
+//@   assigns dst.*
+//@   ensures[C14] dst.Priority == src.Priority
+//@   ensures[C14] (dst.Aliases == nil <==> src.Aliases == nil) && (src.Aliases != nil ==> fresh(dst.Aliases)) && len(dst.Aliases) == len(src.Aliases)
+//@   ensures[C14] dst.Ipv4Address == src.Ipv4Address
+//@   ensures[C14] dst.Ipv6Address == src.Ipv6Address
+//@   ensures[C14] (dst.LinkLocalIPs == nil <==> src.LinkLocalIPs == nil) && (src.LinkLocalIPs != nil ==> fresh(dst.LinkLocalIPs)) && len(dst.LinkLocalIPs) == len(src.LinkLocalIPs)
+//@   ensures[C14] dst.MacAddress == src.MacAddress
+//@   ensures[C14] (dst.DriverOpts == nil <==> src.DriverOpts == nil) && (src.DriverOpts != nil ==> fresh(dst.DriverOpts))
+//@   ensures[C14] (forall kk string :: has(dst.DriverOpts, kk) <==> has(src.DriverOpts, kk))
+//@   ensures[C14] (forall kk string :: has(src.DriverOpts, kk) ==> dst.DriverOpts[kk] == src.DriverOpts[kk])
+//@   ensures[C14] (dst.Extensions == nil <==> src.Extensions == nil) && (src.Extensions != nil ==> fresh(dst.Extensions))
+//@   ensures[C14] (forall kk string :: has(dst.Extensions, kk) <==> has(src.Extensions, kk))
+//@   ensures[C14] (forall kk string :: has(src.Extensions, kk) ==> dst.Extensions[kk] == src.Extensions[kk])
+
+//@ func deriveDeepCopy_4
+//@   nopanic[C14,C20]
+//@   requires dst != nil && dst != src
+//@   assigns dst.*
+//@   ensures[C14] forall k string :: has(src, k) ==> has(dst, k)
+//@   ensures[C14] forall k string :: !has(src, k) ==> (has(dst, k) <==> old(has(dst, k)))
+//@   ensures[C14] forall k string :: has(src, k) ==> dst[k] == src[k]
+//@   loop 1
+//@     invariant forall k string :: seen(k) ==> has(src, k) && has(dst, k)
+//@     invariant forall k string :: !seen(k) ==> (has(dst, k) <==> old(has(dst, k)))
+//@     invariant forall k string :: seen(k) ==> dst[k] == src[k]
+
+//@ func deriveDeepCopy_40
+//@   nopanic[C14,C20]
+//@   requires dst != nil && src != nil && dst != src
+//@   assigns dst.*
+//@   ensures[C14] dst.Name == src.Name
+//@   ensures[C14] dst.Mode == src.Mode
+//@   ensures[C14] dst.HostIP == src.HostIP
+//@   ensures[C14] dst.Target == src.Target
+//@   ensures[C14] dst.Published == src.Published
+//@   ensures[C14] dst.Protocol == src.Protocol
+//@   ensures[C14] dst.AppProtocol == src.AppProtocol
+//@   ensures[C14] (dst.Extensions == nil <==> src.Extensions == nil) && (src.Extensions != nil ==> fresh(dst.Extensions))
+//@   ensures[C14] (forall kk string :: has(dst.Extensions, kk) <==> has(src.Extensions, kk))
+//@   ensures[C14] (forall kk string :: has(src.Extensions, kk) ==> dst.Extensions[kk] == src.Extensions[kk])
+
+//@ func deriveDeepCopy_41
+//@   nopanic[C14,C20]
+//@   requires dst != nil && src != nil && dst != src
+//@   assigns dst.*
+//@   ensures[C14] dst.Source == src.Source
+//@   ensures[C14] dst.Target == src.Target
+//@   ensures[C14] dst.UID == src.UID
+//@   ensures[C14] dst.GID == src.GID
+//@   ensures[C14] (dst.Mode == nil <==> src.Mode == nil) && (src.Mode != nil ==> fresh(dst.Mode))
+//@   ensures[C14] (dst.Extensions == nil <==> src.Extensions == nil) && (src.Extensions != nil ==> fresh(dst.Extensions))
+//@   ensures[C14] (forall kk string :: has(dst.Extensions, kk) <==> has(src.Extensions, kk))
+//@   ensures[C14] (forall kk string :: has(src.Extensions, kk) ==> dst.Extensions[kk] == src.Extensions[kk])
+
+//@ func deriveDeepCopy_42
+//@   nopanic[C14,C20]
+//@   requires dst != nil && src != nil && dst != src
+//@   assigns dst.*
+//@   ensures[C14] dst.Single == src.Single
+//@   ensures[C14] dst.Soft == src.Soft
+//@   ensures[C14] dst.Hard == src.Hard
+//@   ensures[C14] (dst.Extensions == nil <==> src.Extensions == nil) && (src.Extensions != nil ==> fresh(dst.Extensions))
+//@   ensures[C14] (forall kk string :: has(dst.Extensions, kk) <==> has(src.Extensions, kk))
+//@   ensures[C14] (forall kk string :: has(src.Extensions, kk) ==> dst.Extensions[kk] == src.Extensions[kk])
+
+//@ func deriveDeepCopy_43
+//@   nopanic[C14,C20]
+//@   requires dst != nil && src != nil && dst != src
+//@   assigns dst.*
+//@   ensures[C14] dst.Type == src.Type
+//@   ensures[C14] dst.Source == src.Source
+//@   ensures[C14] dst.Target == src.Target
+//@   ensures[C14] dst.ReadOnly == src.ReadOnly
+//@   ensures[C14] dst.Consistency == src.Consistency
+//@   ensures[C14] (dst.Bind == nil <==> src.Bind == nil) && (src.Bind != nil ==> fresh(dst.Bind))
+//@   ensures[C14] (src.Bind != nil ==> copyOf_ServiceVolumeBind(dst.Bind, src.Bind))
+//@   ensures[C14] (dst.Volume == nil <==> src.Volume == nil) && (src.Volume != nil ==> fresh(dst.Volume))
+//@   ensures[C14] (src.Volume != nil ==> copyOf_ServiceVolumeVolume(dst.Volume, src.Volume))
+//@   ensures[C14] (dst.Tmpfs == nil <==> src.Tmpfs == nil) && (src.Tmpfs != nil ==> fresh(dst.Tmpfs))
+//@   ensures[C14] (src.Tmpfs != nil ==> copyOf_ServiceVolumeTmpfs(dst.Tmpfs, src.Tmpfs))
+//@   ensures[C14] (dst.Extensions == nil <==> src.Extensions == nil) && (src.Extensions != nil ==> fresh(dst.Extensions))
+//@   ensures[C14] (forall kk string :: has(dst.Extensions, kk) <==> has(src.Extensions, kk))
+//@   ensures[C14] (forall kk string :: has(src.Extensions, kk) ==> dst.Extensions[kk] == src.Extensions[kk])
+
+//@ func deriveDeepCopy_44
+//@   nopanic[C14,C20]
+//@   requires dst != nil && src != nil && dst != src
+//@   requires dst.Command == nil
+//@   assigns dst.*
+//@   ensures[C14] (dst.Command == nil <==> src.Command == nil) && (src.Command != nil ==> fresh(dst.Command)) && len(dst.Command) == len(src.Command)
+//@   ensures[C14] dst.User == src.User
+//@   ensures[C14] dst.Privileged == src.Privileged
+//@   ensures[C14] dst.WorkingDir == src.WorkingDir
+//@   ensures[C14] (dst.Environment == nil <==> src.Environment == nil) && (src.Environment != nil ==> fresh(dst.Environment))
+//@   ensures[C14] (forall kk string :: has(dst.Environment, kk) <==> has(src.Environment, kk))
+//@   ensures[C14] (dst.Extensions == nil <==> src.Extensions == nil) && (src.Extensions != nil ==> fresh(dst.Extensions))
+//@   ensures[C14] (forall kk string :: has(dst.Extensions, kk) <==> has(src.Extensions, kk))
+//@   ensures[C14] (forall kk string :: has(src.Extensions, kk) ==> dst.Extensions[kk] == src.Extensions[kk])
+
+//@ func deriveDeepCopy_45
+//@   nopanic[C14,C20]
+//@   requires dst != nil && src != nil && dst != src
+//@   requires dst.Config == nil
+//@   assigns dst.*
+//@   ensures[C14] dst.Driver == src.Driver
+//@   ensures[C14] (dst.Config == nil <==> src.Config == nil) && (src.Config != nil ==> fresh(dst.Config)) && len(dst.Config) == len(src.Config)
+//@   ensures[C14] (dst.Extensions == nil <==> src.Extensions == nil) && (src.Extensions != nil ==> fresh(dst.Extensions))
+//@   ensures[C14] (forall kk string :: has(dst.Extensions, kk) <==> has(src.Extensions, kk))
+//@   ensures[C14] (forall kk string :: has(src.Extensions, kk) ==> dst.Extensions[kk] == src.Extensions[kk])
+
+//@ func deriveDeepCopy_46
+//@   nopanic[C14,C20]
+//@   requires dst != nil && src != nil && dst != src
+//@   requires dst.Exec.Command == nil
+//@   requires dst.Ignore == nil
+//@   assigns dst.*
+//@   ensures[C14] dst.Path == src.Path
+//@   ensures[C14] dst.Action == src.Action
+//@   ensures[C14] dst.Target == src.Target
+//@   ensures[C14] (dst.Exec.Command == nil <==> src.Exec.Command == nil) && (src.Exec.Command != nil ==> fresh(dst.Exec.Command)) && len(dst.Exec.Command) == len(src.Exec.Command)
+//@   ensures[C14] dst.Exec.User == src.Exec.User
+//@   ensures[C14] dst.Exec.Privileged == src.Exec.Privileged
+//@   ensures[C14] dst.Exec.WorkingDir == src.Exec.WorkingDir
+//@   ensures[C14] (dst.Exec.Environment == nil <==> src.Exec.Environment == nil) && (src.Exec.Environment != nil ==> fresh(dst.Exec.Environment))
+//@   ensures[C14] (forall kk string :: has(dst.Exec.Environment, kk) <==> has(src.Exec.Environment, kk))
+//@   ensures[C14] (dst.Exec.Extensions == nil <==> src.Exec.Extensions == nil) && (src.Exec.Extensions != nil ==> fresh(dst.Exec.Extensions))
+//@   ensures[C14] (forall kk string :: has(dst.Exec.Extensions, kk) <==> has(src.Exec.Extensions, kk))
+//@   ensures[C14] (forall kk string :: has(src.Exec.Extensions, kk) ==> dst.Exec.Extensions[kk] == src.Exec.Extensions[kk])
+//@   ensures[C14] (dst.Ignore == nil <==> src.Ignore == nil) && (src.Ignore != nil ==> fresh(dst.Ignore)) && len(dst.Ignore) == len(src.Ignore)
+//@   ensures[C14] (dst.Extensions == nil <==> src.Extensions == nil) && (src.Extensions != nil ==> fresh(dst.Extensions))
+//@   ensures[C14] (forall kk string :: has(dst.Extensions, kk) <==> has(src.Extensions, kk))
+//@   ensures[C14] (forall kk string :: has(src.Extensions, kk) ==> dst.Extensions[kk] == src.Extensions[kk])
+
+//@ func deriveDeepCopy_46$1
+//@   nopanic[C14,C20]
+//@   requires dst != nil && src != nil && dst != src
+//@   assigns dst.Exec
+//@   ensures[C14] (dst.Exec.Command == nil <==> src.Exec.Command == nil) && (src.Exec.Command != nil ==> fresh(dst.Exec.Command)) && len(dst.Exec.Command) == len(src.Exec.Command)
+//@   ensures[C14] dst.Exec.User == src.Exec.User
+//@   ensures[C14] dst.Exec.Privileged == src.Exec.Privileged
+//@   ensures[C14] dst.Exec.WorkingDir == src.Exec.WorkingDir
+//@   ensures[C14] (dst.Exec.Environment == nil <==> src.Exec.Environment == nil) && (src.Exec.Environment != nil ==> fresh(dst.Exec.Environment))
+//@   ensures[C14] (forall kk string :: has(dst.Exec.Environment, kk) <==> has(src.Exec.Environment, kk))
+//@   ensures[C14] (dst.Exec.Extensions == nil <==> src.Exec.Extensions == nil) && (src.Exec.Extensions != nil ==> fresh(dst.Exec.Extensions))
+//@   ensures[C14] (forall kk string :: has(dst.Exec.Extensions, kk) <==> has(src.Exec.Extensions, kk))
+//@   ensures[C14] (forall kk string :: has(src.Exec.Extensions, kk) ==> dst.Exec.Extensions[kk] == src.Exec.Extensions[kk])
+
+//@ func deriveDeepCopy_47
+//@   nopanic[C14,C20]
+//@   requires dst != nil && src != nil && dst != src
+//@   assigns dst.*
+//@   ensures[C14] dst.Path == src.Path
+//@   ensures[C14] dst.Weight == src.Weight
+//@   ensures[C14] (dst.Extensions == nil <==> src.Extensions == nil) && (src.Extensions != nil ==> fresh(dst.Extensions))
+//@   ensures[C14] (forall kk string :: has(dst.Extensions, kk) <==> has(src.Extensions, kk))
+//@   ensures[C14] (forall kk string :: has(src.Extensions, kk) ==> dst.Extensions[kk] == src.Extensions[kk])
+
+//@ func deriveDeepCopy_48
+//@   nopanic[C14,C20]
+//@   requires dst != nil && src != nil && dst != src
+//@   assigns dst.*
+//@   ensures[C14] dst.Path == src.Path
+//@   ensures[C14] dst.Rate == src.Rate
+//@   ensures[C14] (dst.Extensions == nil <==> src.Extensions == nil) && (src.Extensions != nil ==> fresh(dst.Extensions))
+//@   ensures[C14] (forall kk string :: has(dst.Extensions, kk) <==> has(src.Extensions, kk))
+//@   ensures[C14] (forall kk string :: has(src.Extensions, kk) ==> dst.Extensions[kk] == src.Extensions[kk])
+
+//@ func deriveDeepCopy_49
+//@   nopanic[C14,C20]
+//@   requires dst != nil && src != nil && dst != src
+//@   requires dst.Devices == nil
+//@   requires dst.GenericResources == nil
+//@   assigns dst.*
+//@   ensures[C14] dst.NanoCPUs == src.NanoCPUs
+//@   ensures[C14] dst.MemoryBytes == src.MemoryBytes
+//@   ensures[C14] dst.Pids == src.Pids
+//@   ensures[C14] (dst.Devices == nil <==> src.Devices == nil) && (src.Devices != nil ==> fresh(dst.Devices)) && len(dst.Devices) == len(src.Devices)
+//@   ensures[C14] (forall ej int :: 0 <= ej && ej < len(src.Devices) ==> copyOf_DeviceRequest(dst.Devices[ej], src.Devices[ej]))
+//@   ensures[C14] (dst.GenericResources == nil <==> src.GenericResources == nil) && (src.GenericResources != nil ==> fresh(dst.GenericResources)) && len(dst.GenericResources) == len(src.GenericResources)
+//@   ensures[C14] (forall ej int :: 0 <= ej && ej < len(src.GenericResources) ==> copyOf_GenericResource(dst.GenericResources[ej], src.GenericResources[ej]))
+//@   ensures[C14] (dst.Extensions == nil <==> src.Extensions == nil) && (src.Extensions != nil ==> fresh(dst.Extensions))
+//@   ensures[C14] (forall kk string :: has(dst.Extensions, kk) <==> has(src.Extensions, kk))
+//@   ensures[C14] (forall kk string :: has(src.Extensions, kk) ==> dst.Extensions[kk] == src.Extensions[kk])
+
+//@ func deriveDeepCopy_5
+//@   nopanic[C14,C20]
+//@   requires dst != nil && src != nil && dst != src
+//@   requires dst.Entitlements == nil
+//@   requires dst.SSH == nil
+//@   requires dst.CacheFrom == nil
+//@   requires dst.CacheTo == nil
+//@   requires dst.Secrets == nil
+//@   requires dst.Tags == nil
+//@   requires dst.Platforms == nil
+//@   assigns dst.*
+//@   ensures[C14] dst.Context == src.Context
+//@   ensures[C14] dst.Dockerfile == src.Dockerfile
+//@   ensures[C14] dst.DockerfileInline == src.DockerfileInline
+//@   ensures[C14] (dst.Entitlements == nil <==> src.Entitlements == nil) && (src.Entitlements != nil ==> fresh(dst.Entitlements)) && len(dst.Entitlements) == len(src.Entitlements)
+//@   ensures[C14] (dst.Args == nil <==> src.Args == nil) && (src.Args != nil ==> fresh(dst.Args))
+//@   ensures[C14] (forall kk string :: has(dst.Args, kk) <==> has(src.Args, kk))
+//@   ensures[C14] (dst.SSH == nil <==> src.SSH == nil) && (src.SSH != nil ==> fresh(dst.SSH)) && len(dst.SSH) == len(src.SSH)
+//@   ensures[C14] (forall ej int :: 0 <= ej && ej < len(src.SSH) ==> copyOf_SSHKey(dst.SSH[ej], src.SSH[ej]))
+//@   ensures[C14] (dst.Labels == nil <==> src.Labels == nil) && (src.Labels != nil ==> fresh(dst.Labels))
+//@   ensures[C14] (forall kk string :: has(dst.Labels, kk) <==> has(src.Labels, kk))
+//@   ensures[C14] (forall kk string :: has(src.Labels, kk) ==> dst.Labels[kk] == src.Labels[kk])
+//@   ensures[C14] (dst.CacheFrom == nil <==> src.CacheFrom == nil) && (src.CacheFrom != nil ==> fresh(dst.CacheFrom)) && len(dst.CacheFrom) == len(src.CacheFrom)
+//@   ensures[C14] (dst.CacheTo == nil <==> src.CacheTo == nil) && (src.CacheTo != nil ==> fresh(dst.CacheTo)) && len(dst.CacheTo) == len(src.CacheTo)
+//@   ensures[C14] dst.NoCache == src.NoCache
+//@   ensures[C14] (dst.AdditionalContexts == nil <==> src.AdditionalContexts == nil) && (src.AdditionalContexts != nil ==> fresh(dst.AdditionalContexts))
+//@   ensures[C14] (forall kk string :: has(dst.AdditionalContexts, kk) <==> has(src.AdditionalContexts, kk))
+//@   ensures[C14] (forall kk string :: has(src.AdditionalContexts, kk) ==> dst.AdditionalContexts[kk] == src.AdditionalContexts[kk])
+//@   ensures[C14] dst.Pull == src.Pull
+//@   ensures[C14] (dst.ExtraHosts == nil <==> src.ExtraHosts == nil) && (src.ExtraHosts != nil ==> fresh(dst.ExtraHosts))
+//@   ensures[C14] (forall kk string :: has(dst.ExtraHosts, kk) <==> has(src.ExtraHosts, kk))
+//@   ensures[C14] dst.Isolation == src.Isolation
+//@   ensures[C14] dst.Network == src.Network
+//@   ensures[C14] dst.Target == src.Target
+//@   ensures[C14] (dst.Secrets == nil <==> src.Secrets == nil) && (src.Secrets != nil ==> fresh(dst.Secrets)) && len(dst.Secrets) == len(src.Secrets)
+//@   ensures[C14] (forall ej int :: 0 <= ej && ej < len(src.Secrets) ==> copyOf_ServiceSecretConfig(dst.Secrets[ej], src.Secrets[ej]))
+//@   ensures[C14] dst.ShmSize == src.ShmSize
+//@   ensures[C14] (dst.Tags == nil <==> src.Tags == nil) && (src.Tags != nil ==> fresh(dst.Tags)) && len(dst.Tags) == len(src.Tags)
+//@   ensures[C14] (dst.Ulimits == nil <==> src.Ulimits == nil) && (src.Ulimits != nil ==> fresh(dst.Ulimits))
+//@   ensures[C14] (forall kk string :: has(dst.Ulimits, kk) <==> has(src.Ulimits, kk))
+//@   ensures[C14] (dst.Platforms == nil <==> src.Platforms == nil) && (src.Platforms != nil ==> fresh(dst.Platforms)) && len(dst.Platforms) == len(src.Platforms)
+//@   ensures[C14] dst.Privileged == src.Privileged
+//@   ensures[C14] (dst.Extensions == nil <==> src.Extensions == nil) && (src.Extensions != nil ==> fresh(dst.Extensions))
+//@   ensures[C14] (forall kk string :: has(dst.Extensions, kk) <==> has(src.Extensions, kk))
+//@   ensures[C14] (forall kk string :: has(src.Extensions, kk) ==> dst.Extensions[kk] == src.Extensions[kk])
+
+//@ func deriveDeepCopy_50
+//@   nopanic[C14,C20]
+//@   requires len(dst) >= len(src) && (len(src) > 0 ==> dst != src)
+//@   assigns dst.*
+//@   ensures[C14] forall j int :: 0 <= j && j < len(src) ==> copyOf_PlacementPreferences(dst[j], src[j])
+//@   loop 1
+//@     invariant -1 <= rangeindex && rangeindex < len(src)
+//@     invariant forall j int :: 0 <= j && j <= rangeindex ==> copyOf_PlacementPreferences(dst[j], src[j])
+
+//@ func deriveDeepCopy_50$1
+//@   nopanic[C14,C20]
+//@   requires 0 <= src_i && src_i < len(dst)
+//@   assigns dst.*
+//@   ensures[C14] forall j int :: j != src_i ==> dst[j] == old(dst[j])
+//@   ensures[C14] dst[src_i].Spread == src_value.Spread
+//@   ensures[C14] (dst[src_i].Extensions == nil <==> src_value.Extensions == nil) && (src_value.Extensions != nil ==> fresh(dst[src_i].Extensions))
+//@   ensures[C14] (forall kk string :: has(dst[src_i].Extensions, kk) <==> has(src_value.Extensions, kk))
+//@   ensures[C14] (forall kk string :: has(src_value.Extensions, kk) ==> dst[src_i].Extensions[kk] == src_value.Extensions[kk])
+
+//@ func deriveDeepCopy_51
+//@   nopanic[C14,C20]
+//@   requires dst != nil && src != nil && dst != src
+//@   assigns dst.*
+//@   ensures[C14] dst.SELinux == src.SELinux
+//@   ensures[C14] dst.Propagation == src.Propagation
+//@   ensures[C14] dst.CreateHostPath == src.CreateHostPath
+//@   ensures[C14] dst.Recursive == src.Recursive
+//@   ensures[C14] (dst.Extensions == nil <==> src.Extensions == nil) && (src.Extensions != nil ==> fresh(dst.Extensions))
+//@   ensures[C14] (forall kk string :: has(dst.Extensions, kk) <==> has(src.Extensions, kk))
+//@   ensures[C14] (forall kk string :: has(src.Extensions, kk) ==> dst.Extensions[kk] == src.Extensions[kk])
+
+//@ func deriveDeepCopy_52
+//@   nopanic[C14,C20]
+//@   requires dst != nil && src != nil && dst != src
+//@   assigns dst.*
+//@   ensures[C14] dst.NoCopy == src.NoCopy
+//@   ensures[C14] dst.Subpath == src.Subpath
+//@   ensures[C14] (dst.Extensions == nil <==> src.Extensions == nil) && (src.Extensions != nil ==> fresh(dst.Extensions))
+//@   ensures[C14] (forall kk string :: has(dst.Extensions, kk) <==> has(src.Extensions, kk))
+//@   ensures[C14] (forall kk string :: has(src.Extensions, kk) ==> dst.Extensions[kk] == src.Extensions[kk])
+
+//@ func deriveDeepCopy_53
+//@   nopanic[C14,C20]
+//@   requires dst != nil && src != nil && dst != src
+//@   assigns dst.*
+//@   ensures[C14] dst.Size == src.Size
+//@   ensures[C14] dst.Mode == src.Mode
+//@   ensures[C14] (dst.Extensions == nil <==> src.Extensions == nil) && (src.Extensions != nil ==> fresh(dst.Extensions))
+//@   ensures[C14] (forall kk string :: has(dst.Extensions, kk) <==> has(src.Extensions, kk))
+//@   ensures[C14] (forall kk string :: has(src.Extensions, kk) ==> dst.Extensions[kk] == src.Extensions[kk])
+
+//@ func deriveDeepCopy_54
+//@   nopanic[C14,C20]
+//@   requires len(dst) >= len(src) && (len(src) > 0 ==> dst != src)
+//@   assigns dst.*
+//@   ensures[C14] forall j int :: 0 <= j && j < len(src) ==> (dst[j] == nil <==> src[j] == nil) && (src[j] != nil ==> fresh(dst[j]))
+//@   ensures[C14] forall j int :: 0 <= j && j < len(src) ==> (src[j] != nil ==> copyOf_IPAMPool(dst[j], src[j]))
+//@   loop 1
+//@     invariant -1 <= rangeindex && rangeindex < len(src)
+//@     invariant forall j int :: 0 <= j && j <= rangeindex ==> (dst[j] == nil <==> src[j] == nil) && (src[j] != nil ==> fresh(dst[j]))
+//@     invariant forall j int :: 0 <= j && j <= rangeindex ==> (src[j] != nil ==> copyOf_IPAMPool(dst[j], src[j]))
+
+//@ func deriveDeepCopy_55
+//@   nopanic[C14,C20]
+//@   requires len(dst) >= len(src) && (len(src) > 0 ==> dst != src)
+//@   assigns dst.*
+//@   ensures[C14] forall j int :: 0 <= j && j < len(src) ==> copyOf_GenericResource(dst[j], src[j])
+//@   loop 1
+//@     invariant -1 <= rangeindex && rangeindex < len(src)
+//@     invariant forall j int :: 0 <= j && j <= rangeindex ==> copyOf_GenericResource(dst[j], src[j])
+
+//@ func deriveDeepCopy_55$1
+//@   nopanic[C14,C20]
+//@   requires 0 <= src_i && src_i < len(dst)
+//@   assigns dst.*
+//@   ensures[C14] forall j int :: j != src_i ==> dst[j] == old(dst[j])
+//@   ensures[C14] (dst[src_i].DiscreteResourceSpec == nil <==> src_value.DiscreteResourceSpec == nil) && (src_value.DiscreteResourceSpec != nil ==> fresh(dst[src_i].DiscreteResourceSpec))
+//@   ensures[C14] (src_value.DiscreteResourceSpec != nil ==> copyOf_DiscreteGenericResource(dst[src_i].DiscreteResourceSpec, src_value.DiscreteResourceSpec))
+//@   ensures[C14] (dst[src_i].Extensions == nil <==> src_value.Extensions == nil) && (src_value.Extensions != nil ==> fresh(dst[src_i].Extensions))
+//@   ensures[C14] (forall kk string :: has(dst[src_i].Extensions, kk) <==> has(src_value.Extensions, kk))
+//@   ensures[C14] (forall kk string :: has(src_value.Extensions, kk) ==> dst[src_i].Extensions[kk] == src_value.Extensions[kk])
+
+//@ func deriveDeepCopy_56
+//@   nopanic[C14,C20]
+//@   requires dst != nil && src != nil && dst != src
+//@   assigns dst.*
+//@   ensures[C14] dst.Spread == src.Spread
+//@   ensures[C14] (dst.Extensions == nil <==> src.Extensions == nil) && (src.Extensions != nil ==> fresh(dst.Extensions))
+//@   ensures[C14] (forall kk string :: has(dst.Extensions, kk) <==> has(src.Extensions, kk))
+//@   ensures[C14] (forall kk string :: has(src.Extensions, kk) ==> dst.Extensions[kk] == src.Extensions[kk])
+
+//@ func deriveDeepCopy_57
+//@   nopanic[C14,C20]
+//@   requires dst != nil && src != nil && dst != src
+//@   assigns dst.*
+//@   ensures[C14] dst.Subnet == src.Subnet
+//@   ensures[C14] dst.Gateway == src.Gateway
+//@   ensures[C14] dst.IPRange == src.IPRange
+//@   ensures[C14] (dst.AuxiliaryAddresses == nil <==> src.AuxiliaryAddresses == nil) && (src.AuxiliaryAddresses != nil ==> fresh(dst.AuxiliaryAddresses))
+//@   ensures[C14] (forall kk string :: has(dst.AuxiliaryAddresses, kk) <==> has(src.AuxiliaryAddresses, kk))
+//@   ensures[C14] (forall kk string :: has(src.AuxiliaryAddresses, kk) ==> dst.AuxiliaryAddresses[kk] == src.AuxiliaryAddresses[kk])
+//@   ensures[C14] (dst.Extensions == nil <==> src.Extensions == nil) && (src.Extensions != nil ==> fresh(dst.Extensions))
+//@   ensures[C14] (forall kk string :: has(dst.Extensions, kk) <==> has(src.Extensions, kk))
+//@   ensures[C14] (forall kk string :: has(src.Extensions, kk) ==> dst.Extensions[kk] == src.Extensions[kk])
+
+//@ func deriveDeepCopy_58
+//@   nopanic[C14,C20]
+//@   requires dst != nil && src != nil && dst != src
+//@   assigns dst.*
+//@   ensures[C14] (dst.DiscreteResourceSpec == nil <==> src.DiscreteResourceSpec == nil) && (src.DiscreteResourceSpec != nil ==> fresh(dst.DiscreteResourceSpec))
+//@   ensures[C14] (src.DiscreteResourceSpec != nil ==> copyOf_DiscreteGenericResource(dst.DiscreteResourceSpec, src.DiscreteResourceSpec))
+//@   ensures[C14] (dst.Extensions == nil <==> src.Extensions == nil) && (src.Extensions != nil ==> fresh(dst.Extensions))
+//@   ensures[C14] (forall kk string :: has(dst.Extensions, kk) <==> has(src.Extensions, kk))
+//@   ensures[C14] (forall kk string :: has(src.Extensions, kk) ==> dst.Extensions[kk] == src.Extensions[kk])
+
+//@ func deriveDeepCopy_59
+//@   nopanic[C14,C20]
+//@   requires dst != nil && src != nil && dst != src
+//@   assigns dst.*
+//@   ensures[C14] dst.Kind == src.Kind
+//@   ensures[C14] dst.Value == src.Value
+//@   ensures[C14] (dst.Extensions == nil <==> src.Extensions == nil) && (src.Extensions != nil ==> fresh(dst.Extensions))
+//@   ensures[C14] (forall kk string :: has(dst.Extensions, kk) <==> has(src.Extensions, kk))
+//@   ensures[C14] (forall kk string :: has(src.Extensions, kk) ==> dst.Extensions[kk] == src.Extensions[kk])
+
+//@ func deriveDeepCopy_6
+//@   nopanic[C14,C20]
+//@   requires dst != nil && src != nil && dst != src
+//@   requires dst.Watch == nil
+//@   assigns dst.*
+//@   ensures[C14] (dst.Watch == nil <==> src.Watch == nil) && (src.Watch != nil ==> fresh(dst.Watch)) && len(dst.Watch) == len(src.Watch)
+//@   ensures[C14] (forall ej int :: 0 <= ej && ej < len(src.Watch) ==> copyOf_Trigger(dst.Watch[ej], src.Watch[ej]))
+//@   ensures[C14] (dst.Extensions == nil <==> src.Extensions == nil) && (src.Extensions != nil ==> fresh(dst.Extensions))
+//@   ensures[C14] (forall kk string :: has(dst.Extensions, kk) <==> has(src.Extensions, kk))
+//@   ensures[C14] (forall kk string :: has(src.Extensions, kk) ==> dst.Extensions[kk] == src.Extensions[kk])
+
+//@ func deriveDeepCopy_7
+//@   nopanic[C14,C20]
+//@   requires dst != nil && src != nil && dst != src
+//@   requires dst.WeightDevice == nil
+//@   requires dst.DeviceReadBps == nil
+//@   requires dst.DeviceReadIOps == nil
+//@   requires dst.DeviceWriteBps == nil
+//@   requires dst.DeviceWriteIOps == nil
+//@   assigns dst.*
+//@   ensures[C14] dst.Weight == src.Weight
+//@   ensures[C14] (dst.WeightDevice == nil <==> src.WeightDevice == nil) && (src.WeightDevice != nil ==> fresh(dst.WeightDevice)) && len(dst.WeightDevice) == len(src.WeightDevice)
+//@   ensures[C14] (forall ej int :: 0 <= ej && ej < len(src.WeightDevice) ==> copyOf_WeightDevice(dst.WeightDevice[ej], src.WeightDevice[ej]))
+//@   ensures[C14] (dst.DeviceReadBps == nil <==> src.DeviceReadBps == nil) && (src.DeviceReadBps != nil ==> fresh(dst.DeviceReadBps)) && len(dst.DeviceReadBps) == len(src.DeviceReadBps)
+//@   ensures[C14] (forall ej int :: 0 <= ej && ej < len(src.DeviceReadBps) ==> copyOf_ThrottleDevice(dst.DeviceReadBps[ej], src.DeviceReadBps[ej]))
+//@   ensures[C14] (dst.DeviceReadIOps == nil <==> src.DeviceReadIOps == nil) && (src.DeviceReadIOps != nil ==> fresh(dst.DeviceReadIOps)) && len(dst.DeviceReadIOps) == len(src.DeviceReadIOps)
+//@   ensures[C14] (forall ej int :: 0 <= ej && ej < len(src.DeviceReadIOps) ==> copyOf_ThrottleDevice(dst.DeviceReadIOps[ej], src.DeviceReadIOps[ej]))
+//@   ensures[C14] (dst.DeviceWriteBps == nil <==> src.DeviceWriteBps == nil) && (src.DeviceWriteBps != nil ==> fresh(dst.DeviceWriteBps)) && len(dst.DeviceWriteBps) == len(src.DeviceWriteBps)
+//@   ensures[C14] (forall ej int :: 0 <= ej && ej < len(src.DeviceWriteBps) ==> copyOf_ThrottleDevice(dst.DeviceWriteBps[ej], src.DeviceWriteBps[ej]))
+//@   ensures[C14] (dst.DeviceWriteIOps == nil <==> src.DeviceWriteIOps == nil) && (src.DeviceWriteIOps != nil ==> fresh(dst.DeviceWriteIOps)) && len(dst.DeviceWriteIOps) == len(src.DeviceWriteIOps)
+//@   ensures[C14] (forall ej int :: 0 <= ej && ej < len(src.DeviceWriteIOps) ==> copyOf_ThrottleDevice(dst.DeviceWriteIOps[ej], src.DeviceWriteIOps[ej]))
+//@   ensures[C14] (dst.Extensions == nil <==> src.Extensions == nil) && (src.Extensions != nil ==> fresh(dst.Extensions))
+//@   ensures[C14] (forall kk string :: has(dst.Extensions, kk) <==> has(src.Extensions, kk))
+//@   ensures[C14] (forall kk string :: has(src.Extensions, kk) ==> dst.Extensions[kk] == src.Extensions[kk])
+
+//@ func deriveDeepCopy_8
+//@   nopanic[C14,C20]
+//@   requires len(dst) >= len(src) && (len(src) > 0 ==> dst != src)
+//@   assigns dst.*
+//@   ensures[C14] forall j int :: 0 <= j && j < len(src) ==> copyOf_ServiceConfigObjConfig(dst[j], src[j])
+//@   loop 1
+//@     invariant -1 <= rangeindex && rangeindex < len(src)
+//@     invariant forall j int :: 0 <= j && j <= rangeindex ==> copyOf_ServiceConfigObjConfig(dst[j], src[j])
+
+//@ func deriveDeepCopy_8$1
+//@   nopanic[C14,C20]
+//@   requires 0 <= src_i && src_i < len(dst)
+//@   assigns dst.*
+//@   ensures[C14] forall j int :: j != src_i ==> dst[j] == old(dst[j])
+//@   ensures[C14] dst[src_i].Source == src_value.Source
+//@   ensures[C14] dst[src_i].Target == src_value.Target
+//@   ensures[C14] dst[src_i].UID == src_value.UID
+//@   ensures[C14] dst[src_i].GID == src_value.GID
+//@   ensures[C14] (dst[src_i].Mode == nil <==> src_value.Mode == nil) && (src_value.Mode != nil ==> fresh(dst[src_i].Mode))
+//@   ensures[C14] (dst[src_i].Extensions == nil <==> src_value.Extensions == nil) && (src_value.Extensions != nil ==> fresh(dst[src_i].Extensions))
+//@   ensures[C14] (forall kk string :: has(dst[src_i].Extensions, kk) <==> has(src_value.Extensions, kk))
+//@   ensures[C14] (forall kk string :: has(src_value.Extensions, kk) ==> dst[src_i].Extensions[kk] == src_value.Extensions[kk])
+
+//@ func deriveDeepCopy_9
+//@   nopanic[C14,C20]
+//@   requires dst != nil && src != nil && dst != src
+//@   assigns dst.*
+//@   ensures[C14] dst.Config == src.Config
+//@   ensures[C14] dst.File == src.File
+//@   ensures[C14] dst.Registry == src.Registry
+//@   ensures[C14] (dst.Extensions == nil <==> src.Extensions == nil) && (src.Extensions != nil ==> fresh(dst.Extensions))
+//@   ensures[C14] (forall kk string :: has(dst.Extensions, kk) <==> has(src.Extensions, kk))
+//@   ensures[C14] (forall kk string :: has(src.Extensions, kk) ==> dst.Extensions[kk] == src.Extensions[kk])
+
